@@ -12,15 +12,25 @@
 
   RE-ENTRANT bodies: task bodies and deferred functions (at any depth) may use
   the scheduler while they run — `Act`: install any task at / after, suspend
-  any task (themselves included), call `stop()` — possibly raising afterwards.
+  any task (themselves included), call `stop()`, PUMP the loop (call
+  `run_once()` themselves, nested to any depth) — possibly raising afterwards.
+  The nested pass is a parameter (`[Pump]`, assumed to satisfy `PumpOK`:
+  it preserves the two invariants); `pumpAt_ok` proves that the real one —
+  `runOnceLoop` again, one level down — does, at every depth, so everything
+  applies to the model the driver runs (`reachable_winv_real`).
   Which theorems hold for which bodies:
-  * for ALL bodies (arbitrary acts): the invariant (`reachable_winv`) and every
-    clause read off it — `fire_order`, `never_early`, `once_per_install`,
-    `install_fate`, `pending_or_done`, `removed_never_fires`,
-    `one_entry_iff_flagged`, `deferred_fifo`; the manager-level theorems
+  * for ALL bodies (arbitrary acts, pumping included): the invariant
+    (`reachable_winv`) and every clause read off it — `fire_order`,
+    `never_early`, `once_per_install`, `install_fate`, `pending_or_done`,
+    `removed_never_fires`, `one_entry_iff_flagged`, `deferred_once` (every
+    submitted function exactly once, as multisets); the manager-level theorems
     (`reinstall_moves…`, `install_moves`, `fire_is_min`, the recurring
-    arithmetic, the refinement); the deferred-queue theorems
-    (`drain_queue_empty`, `deferred_isolated`, `batch_isolated`, `drain_calls`);
+    arithmetic, the refinement);
+  * for bodies that do anything BUT PUMP (`GoodW noPump`): `deferred_fifo`
+    (submission ORDER; a pumping callback legitimately reorders: the nested
+    pass runs what was deferred since its batch began before the rest of that
+    batch) and the deferred-queue theorems `drain_queue_empty`,
+    `deferred_isolated`, `batch_isolated`, `drain_calls`;
   * for bodies in which NOBODY INSTALLS TASK `t` (`GoodW (calm t)`; they may do
     anything else, to `t` or to others): `suspended_silent`,
     `unscheduled_silent`;
@@ -67,7 +77,8 @@
           proved, refinement (harness stream `grid`).
   * "Every function handed to the deferred-call queue is called exactly once in
     submission order"
-        → `deferred_fifo` (invariant: submitted = called ++ queued, as lists),
+        → `deferred_once` (all callbacks: called ++ queued = submitted as multisets),
+          `deferred_fifo` (invariant: submitted = called ++ queued, as lists),
           `drain_queue_empty` (the drain loop terminates with an empty queue),
           hence `calls = subs` after every pass (`advOnce_complete`)
   * "an exception raised by one task or deferred function does not prevent the
@@ -474,629 +485,6 @@ theorem getNext_none {tm tm' : TM} {now : Nat} {d : Option Nat}
         · intro hh; cases hh
         · intro hh; rw [hh] at hp; simp [popMin] at hp
       · simp; omega
-/-! ## the world: frame lemmas for the deferred side -/
-
-/-- the manager without the wake-up flag -/
-def schedOf (tm : TM) : TM := { tm with trig := false }
-
-/-- everything the schedule theorems look at -/
-def coreOf (w : World) : TM × List Fire × Nat × (Nat → Bool) × (Nat → Body) × Nat × Bool :=
-  (schedOf w.tm, w.fired, w.now, w.recurring, w.body, w.spin, w.running)
-
-/-- `w'` differs from `w` at most in the deferred side (queue, logs) and the wake-up flag -/
-def Keeps (w w' : World) : Prop := coreOf w' = coreOf w
-
-theorem Keeps.refl (w : World) : Keeps w w := rfl
-theorem Keeps.trans {a b c : World} (h1 : Keeps a b) (h2 : Keeps b c) : Keeps a c :=
-  Eq.trans h2 h1
-
-theorem Keeps.tm {w w' : World} (h : Keeps w w') : schedOf w'.tm = schedOf w.tm := congrArg (·.1) h
-theorem Keeps.heap {w w' : World} (h : Keeps w w') : w'.tm.heap = w.tm.heap := by have := congrArg TM.heap h.tm; exact this
-theorem Keeps.counter {w w' : World} (h : Keeps w w') : w'.tm.counter = w.tm.counter := by have := congrArg TM.counter h.tm; exact this
-theorem Keeps.flag {w w' : World} (h : Keeps w w') : w'.tm.flag = w.tm.flag := by have := congrArg TM.flag h.tm; exact this
-theorem Keeps.removed {w w' : World} (h : Keeps w w') : w'.tm.removed = w.tm.removed := by have := congrArg TM.removed h.tm; exact this
-theorem Keeps.ttime {w w' : World} (h : Keeps w w') : w'.tm.ttime = w.tm.ttime := by have := congrArg TM.ttime h.tm; exact this
-theorem Keeps.ival {w w' : World} (h : Keeps w w') : w'.tm.ival = w.tm.ival := by have := congrArg TM.ival h.tm; exact this
-theorem Keeps.ioff {w w' : World} (h : Keeps w w') : w'.tm.ioff = w.tm.ioff := by have := congrArg TM.ioff h.tm; exact this
-theorem Keeps.jitter {w w' : World} (h : Keeps w w') : w'.tm.jitter = w.tm.jitter := by have := congrArg TM.jitter h.tm; exact this
-theorem Keeps.fired {w w' : World} (h : Keeps w w') : w'.fired = w.fired := congrArg (·.2.1) h
-theorem Keeps.now {w w' : World} (h : Keeps w w') : w'.now = w.now := congrArg (·.2.2.1) h
-theorem Keeps.recurring {w w' : World} (h : Keeps w w') : w'.recurring = w.recurring := congrArg (·.2.2.2.1) h
-theorem Keeps.body {w w' : World} (h : Keeps w w') : w'.body = w.body := congrArg (·.2.2.2.2.1) h
-theorem Keeps.spin {w w' : World} (h : Keeps w w') : w'.spin = w.spin := congrArg (·.2.2.2.2.2.1) h
-theorem Keeps.running {w w' : World} (h : Keeps w w') : w'.running = w.running := congrArg (·.2.2.2.2.2.2) h
-
-theorem Keeps.sinv {w w' : World} (h : Keeps w w') (hs : SInv w.tm w.fired) : SInv w'.tm w'.fired := by
-  rw [h.fired]; exact hs.congr h.heap h.counter h.flag h.removed
-
-/-! ### re-entrant use of the scheduler (`Act`) and bodies that leave it alone -/
-
-/-- everything but the manager, the event log and `running` -/
-def restOf (w : World) :
-    List Fn × List Nat × List Nat × List Nat × List Fire × Nat × (Nat → Bool) × (Nat → Body) × Nat :=
-  (w.queue, w.calls, w.subs, w.failed, w.fired, w.now, w.recurring, w.body, w.spin)
-
-/-- `w'` differs from `w` at most in the manager, the event log and `running` -/
-def KeepsQ (w w' : World) : Prop := restOf w' = restOf w
-
-theorem KeepsQ.refl (w : World) : KeepsQ w w := rfl
-theorem KeepsQ.trans {a b c : World} (h1 : KeepsQ a b) (h2 : KeepsQ b c) : KeepsQ a c := Eq.trans h2 h1
-theorem KeepsQ.queue {w w' : World} (h : KeepsQ w w') : w'.queue = w.queue := congrArg (·.1) h
-theorem KeepsQ.calls {w w' : World} (h : KeepsQ w w') : w'.calls = w.calls := congrArg (·.2.1) h
-theorem KeepsQ.subs {w w' : World} (h : KeepsQ w w') : w'.subs = w.subs := congrArg (·.2.2.1) h
-theorem KeepsQ.failed {w w' : World} (h : KeepsQ w w') : w'.failed = w.failed := congrArg (·.2.2.2.1) h
-theorem KeepsQ.fired {w w' : World} (h : KeepsQ w w') : w'.fired = w.fired := congrArg (·.2.2.2.2.1) h
-theorem KeepsQ.now {w w' : World} (h : KeepsQ w w') : w'.now = w.now := congrArg (·.2.2.2.2.2.1) h
-theorem KeepsQ.recurring {w w' : World} (h : KeepsQ w w') : w'.recurring = w.recurring := congrArg (·.2.2.2.2.2.2.1) h
-theorem KeepsQ.body {w w' : World} (h : KeepsQ w w') : w'.body = w.body := congrArg (·.2.2.2.2.2.2.2.1) h
-theorem KeepsQ.spin {w w' : World} (h : KeepsQ w w') : w'.spin = w.spin := congrArg (·.2.2.2.2.2.2.2.2) h
-
-theorem act_keepsQ (w : World) (a : Act) : KeepsQ w (w.act a) := by cases a <;> rfl
-
-theorem doActs_keepsQ (w : World) (as : List Act) : KeepsQ w (w.doActs as) := by
-  unfold World.doActs
-  induction as generalizing w with
-  | nil => exact KeepsQ.refl w
-  | cons a r ih => exact (act_keepsQ w a).trans (ih (w.act a))
-
-/-- whatever a body does to the manager, the schedule invariant survives: the
-    acts are the manager's own API -/
-theorem act_sinv {w : World} (a : Act) (h : SInv w.tm w.fired) : SInv (w.act a).tm (w.act a).fired := by
-  cases a with
-  | installAt tid t => exact installTask_inv _ _ _ _ h
-  | installAfter tid d => exact installTask_inv _ _ _ _ h
-  | suspend tid => exact suspend_inv tid h
-  | stop => exact h.congr rfl rfl rfl rfl
-
-theorem doActs_sinv {w : World} (as : List Act) (h : SInv w.tm w.fired) :
-    SInv (w.doActs as).tm (w.doActs as).fired := by
-  unfold World.doActs
-  induction as generalizing w with
-  | nil => exact h
-  | cons a r ih => exact ih (act_sinv a h)
-
-theorem doActs_nil (w : World) : w.doActs [] = w := rfl
-
-mutual
-  /-- every act of the function, and of everything it defers, satisfies `pa` -/
-  def goodFn (pa : Act → Bool) : Fn → Bool
-    | .mk _ _ kids acts => acts.all pa && goodAll pa kids
-  def goodAll (pa : Act → Bool) : List Fn → Bool
-    | [] => true
-    | f :: r => goodFn pa f && goodAll pa r
-end
-
-theorem goodFn_acts {pa : Act → Bool} {f : Fn} (h : goodFn pa f = true) :
-    f.acts.all pa = true ∧ goodAll pa f.kids = true := by
-  cases f with
-  | mk i r kids acts => simpa [goodFn, Fn.acts, Fn.kids] using h
-
-theorem goodAll_append (pa : Act → Bool) (a b : List Fn) :
-    goodAll pa (a ++ b) = (goodAll pa a && goodAll pa b) := by
-  induction a with
-  | nil => simp [goodAll]
-  | cons f r ih => simp [goodAll, ih, Bool.and_assoc]
-
-theorem goodAll_cons {pa : Act → Bool} {f : Fn} {r : List Fn} (h : goodAll pa (f :: r) = true) :
-    goodFn pa f = true ∧ goodAll pa r = true := by
-  simpa [goodAll] using h
-
-/-- "leaves the scheduler alone": no acts at all -/
-def noAct : Act → Bool := fun _ => false
-
-theorem all_noAct {as : List Act} (h : as.all noAct = true) : as = [] := by
-  cases as with
-  | nil => rfl
-  | cons a r => simp [noAct] at h
-
-abbrev allPassive : List Fn → Bool := goodAll noAct
-abbrev passiveFn : Fn → Bool := goodFn noAct
-
-theorem passiveFn_acts {f : Fn} (h : passiveFn f = true) : f.acts = [] ∧ allPassive f.kids = true :=
-  ⟨all_noAct (goodFn_acts h).1, (goodFn_acts h).2⟩
-
-theorem allPassive_append (a b : List Fn) : allPassive (a ++ b) = (allPassive a && allPassive b) :=
-  goodAll_append noAct a b
-
-theorem allPassive_cons {f : Fn} {r : List Fn} (h : allPassive (f :: r) = true) :
-    passiveFn f = true ∧ allPassive r = true := goodAll_cons h
-
-theorem emit_keeps (w : World) (e : Ev) : Keeps w (w.emit e) := rfl
-theorem defer_keeps (w : World) (f : Fn) : Keeps w (w.defer f) := rfl
-
-theorem deferAll_keeps (w : World) (fs : List Fn) : Keeps w (w.deferAll fs) := by
-  unfold World.deferAll
-  induction fs generalizing w with
-  | nil => exact Keeps.refl w
-  | cons f r ih => exact (defer_keeps w f).trans (ih (w.defer f))
-
-theorem defer_queue (w : World) (f : Fn) : (w.defer f).queue = w.queue ++ [f] := rfl
-
-theorem deferAll_queue (w : World) (fs : List Fn) : (w.deferAll fs).queue = w.queue ++ fs := by
-  unfold World.deferAll
-  induction fs generalizing w with
-  | nil => simp
-  | cons f r ih => simp only [List.foldl_cons]; rw [ih, defer_queue]; simp
-
-theorem callFn_queue (w : World) (f : Fn) : (w.callFn f).queue = w.queue ++ f.kids := by
-  unfold World.callFn
-  simp only
-  have hq := (doActs_keepsQ ({ w with calls := w.calls ++ [f.id], out := w.out ++ [Ev.call f.id] } : World) f.acts).queue
-  split <;> simp [deferAll_queue, hq]
-
-theorem callFn_keeps (w : World) (f : Fn) (hf : f.acts = []) : Keeps w (w.callFn f) := by
-  unfold World.callFn
-  rw [hf]
-  simp only [doActs_nil]
-  split
-  · exact Keeps.trans (b := World.deferAll { w with calls := w.calls ++ [f.id], out := w.out ++ [Ev.call f.id] } f.kids)
-      (Keeps.trans (b := { w with calls := w.calls ++ [f.id], out := w.out ++ [Ev.call f.id] }) rfl (deferAll_keeps _ _)) rfl
-  · exact Keeps.trans (b := { w with calls := w.calls ++ [f.id], out := w.out ++ [Ev.call f.id] }) rfl (deferAll_keeps _ _)
-
-theorem callFn_passive {w : World} {f : Fn} (hf : passiveFn f = true) (hq : allPassive w.queue = true) :
-    allPassive (w.callFn f).queue = true := by
-  rw [callFn_queue, allPassive_append, hq, (passiveFn_acts hf).2]; rfl
-
-theorem runBatch_keeps (w : World) (b : List Fn) (hb : allPassive b = true) (hq : allPassive w.queue = true) :
-    Keeps w (w.runBatch b) ∧ allPassive (w.runBatch b).queue = true := by
-  unfold World.runBatch
-  induction b generalizing w with
-  | nil => exact ⟨Keeps.refl w, hq⟩
-  | cons f r ih =>
-    obtain ⟨hf, hr⟩ := allPassive_cons hb
-    have := ih (w.callFn f) hr (callFn_passive hf hq)
-    exact ⟨(callFn_keeps w f (passiveFn_acts hf).1).trans this.1, this.2⟩
-
-theorem drainFuel_keeps (fuel : Nat) (w : World) (hq : allPassive w.queue = true) :
-    Keeps w (w.drainFuel fuel) ∧ allPassive (w.drainFuel fuel).queue = true := by
-  induction fuel generalizing w with
-  | zero => exact ⟨Keeps.refl w, hq⟩
-  | succ n ih =>
-    unfold World.drainFuel
-    split
-    · exact ⟨Keeps.refl w, hq⟩
-    · have h1 := runBatch_keeps { w with queue := [] } w.queue hq rfl
-      have h2 := ih _ h1.2
-      exact ⟨Keeps.trans (b := { w with queue := [] }) rfl (h1.1.trans h2.1), h2.2⟩
-
-/-- a drain of functions that leave the scheduler alone changes nothing the
-    schedule theorems look at -/
-theorem drain_keeps (w : World) (hq : allPassive w.queue = true) : Keeps w w.drain :=
-  (drainFuel_keeps _ w hq).1
-
-/-! ## the deferred queue: first in, first out, each exactly once -/
-
-/-- `subs` (ids in submission order) = ids already called ++ ids still queued -/
-def DInv (w : World) : Prop := w.subs = w.calls ++ w.queue.map Fn.id
-
-/-- the same in the middle of a batch: `rem` is the part of `fnlist` still to be called -/
-def DMid (w : World) (rem : List Fn) : Prop := w.subs = w.calls ++ rem.map Fn.id ++ w.queue.map Fn.id
-
-theorem defer_dmid {w : World} {rem : List Fn} (f : Fn) (h : DMid w rem) : DMid (w.defer f) rem := by
-  unfold DMid World.defer at *; simp [h]
-
-theorem deferAll_dmid {w : World} {rem : List Fn} (fs : List Fn) (h : DMid w rem) : DMid (w.deferAll fs) rem := by
-  unfold World.deferAll
-  induction fs generalizing w with
-  | nil => exact h
-  | cons f r ih => exact ih (defer_dmid f h)
-
-theorem callFn_dmid {w : World} {rem : List Fn} (f : Fn) (h : DMid w (f :: rem)) : DMid (w.callFn f) rem := by
-  have h0 : DMid { w with calls := w.calls ++ [f.id], out := w.out ++ [Ev.call f.id] } rem := by
-    unfold DMid at *; simp [h]
-  have hk := doActs_keepsQ ({ w with calls := w.calls ++ [f.id], out := w.out ++ [Ev.call f.id] } : World) f.acts
-  have h1 : DMid (World.doActs { w with calls := w.calls ++ [f.id], out := w.out ++ [Ev.call f.id] } f.acts) rem := by
-    unfold DMid at *; rw [hk.subs, hk.calls, hk.queue]; exact h0
-  have h2 := deferAll_dmid f.kids h1
-  unfold World.callFn
-  simp only
-  split
-  · exact h2
-  · exact h2
-
-theorem runBatch_dmid {w : World} (b : List Fn) (h : DMid w b) : DMid (w.runBatch b) [] := by
-  unfold World.runBatch
-  induction b generalizing w with
-  | nil => exact h
-  | cons f r ih => exact ih (callFn_dmid f h)
-
-theorem drainFuel_dinv (fuel : Nat) {w : World} (h : DInv w) : DInv (w.drainFuel fuel) := by
-  induction fuel generalizing w with
-  | zero => exact h
-  | succ n ih =>
-    unfold World.drainFuel
-    split
-    · exact h
-    · rename_i hq
-      apply ih
-      have : DMid { w with queue := [] } w.queue := by unfold DMid; unfold DInv at h; simp [h]
-      have := runBatch_dmid _ this
-      unfold DMid at this; unfold DInv; simpa using this
-
-theorem drain_dinv {w : World} (h : DInv w) : DInv w.drain := drainFuel_dinv _ h
-
-/-! ### the drain loop terminates: the fuel `weights queue` is never exhausted -/
-
-theorem weights_append (a b : List Fn) : weights (a ++ b) = weights a + weights b := by
-  induction a with
-  | nil => simp [weights]
-  | cons f r ih => simp [weights, ih]; omega
-
-theorem runBatch_weight (w : World) (b : List Fn) :
-    weights (w.runBatch b).queue + b.length = weights w.queue + weights b := by
-  unfold World.runBatch
-  induction b generalizing w with
-  | nil => simp [weights]
-  | cons f r ih =>
-    simp only [List.foldl_cons, List.length_cons]
-    have := ih (w.callFn f)
-    rw [callFn_queue, weights_append] at this
-    cases f with
-    | mk i rr kids acts => simp [weights, Fn.weight, Fn.kids] at *; omega
-
-theorem drainFuel_empty (fuel : Nat) (w : World) (h : weights w.queue ≤ fuel) :
-    (w.drainFuel fuel).queue = [] := by
-  induction fuel generalizing w with
-  | zero =>
-    unfold World.drainFuel
-    cases hq : w.queue with
-    | nil => rfl
-    | cons f r => rw [hq] at h; cases f; simp [weights, Fn.weight] at h
-  | succ n ih =>
-    unfold World.drainFuel
-    split
-    · assumption
-    · rename_i hq
-      apply ih
-      have := runBatch_weight { w with queue := [] } w.queue
-      simp [weights] at this
-      cases hq' : w.queue with
-      | nil => exact absurd hq' hq
-      | cons f r => rw [hq'] at this h; simp at this; omega
-
-/-- after the drain loop nothing is left in the queue -/
-theorem drain_queue_empty (w : World) : w.drain.queue = [] := drainFuel_empty _ w (Nat.le_refl _)
-/-! ## every operation preserves the invariants -/
-
-structure WInv (w : World) : Prop where
-  sched : SInv w.tm w.fired
-  fifo : DInv w
-
-theorem keeps_winv {w w' : World} (hk : Keeps w w') (hs : SInv w.tm w.fired) (hd : DInv w') : WInv w' :=
-  ⟨hk.sinv hs, hd⟩
-
-theorem emit_dinv {w : World} (e : Ev) (h : DInv w) : DInv (w.emit e) := h
-
-theorem emit_winv {w : World} (e : Ev) (h : WInv w) : WInv (w.emit e) := ⟨h.sched, h.fifo⟩
-
-theorem callFn_sinv {w : World} (f : Fn) (h : SInv w.tm w.fired) :
-    SInv (w.callFn f).tm (w.callFn f).fired := by
-  unfold World.callFn
-  simp only
-  have h1 : SInv ({ w with calls := w.calls ++ [f.id], out := w.out ++ [Ev.call f.id] } : World).tm
-      ({ w with calls := w.calls ++ [f.id], out := w.out ++ [Ev.call f.id] } : World).fired := h
-  have h2 := doActs_sinv f.acts h1
-  have h3 := (deferAll_keeps _ f.kids).sinv h2
-  split
-  · exact h3
-  · exact h3
-
-theorem runBatch_sinv {w : World} (b : List Fn) (h : SInv w.tm w.fired) :
-    SInv (w.runBatch b).tm (w.runBatch b).fired := by
-  unfold World.runBatch
-  induction b generalizing w with
-  | nil => exact h
-  | cons f r ih => exact ih (callFn_sinv f h)
-
-theorem drainFuel_sinv (fuel : Nat) {w : World} (h : SInv w.tm w.fired) :
-    SInv (w.drainFuel fuel).tm (w.drainFuel fuel).fired := by
-  induction fuel generalizing w with
-  | zero => exact h
-  | succ n ih =>
-    unfold World.drainFuel
-    split
-    · exact h
-    · exact ih (runBatch_sinv _ (w := { w with queue := [] }) h)
-
-/-- the drain loop preserves the invariants even when the functions it calls
-    install, move and suspend tasks -/
-theorem drain_winv {w : World} (h : WInv w) : WInv w.drain :=
-  ⟨drainFuel_sinv _ h.sched, drain_dinv h.fifo⟩
-
-theorem deferAll_dinv {w : World} (fs : List Fn) (h : DInv w) : DInv (w.deferAll fs) := by
-  have : DMid w [] := by unfold DMid; unfold DInv at h; simpa using h
-  have := deferAll_dmid fs this
-  unfold DMid at this; unfold DInv; simpa using this
-
-/-- `process_task` of a popped entry -/
-theorem process_winv {w : World} {e : Entry}
-    (hs : SInv w.tm (w.fired ++ [⟨e.tid, e.time, e.seq, w.now, w.tm.counter⟩])) (hd : DInv w) :
-    WInv (w.process e).1 := by
-  unfold World.process
-  simp only
-  generalize hw1 : ({ w with fired := w.fired ++ [Fire.mk e.tid e.time e.seq w.now w.tm.counter],
-                             out := w.out ++ [Ev.fire e.tid w.now e.time e.seq] } : World) = w1
-  have hs0 : SInv w1.tm w1.fired := by subst hw1; exact hs
-  have hd0 : DInv w1 := by subst hw1; exact hd
-  have hs1 := doActs_sinv (w.body e.tid).acts hs0
-  have hd1 : DInv (w1.doActs (w.body e.tid).acts) := by
-    have hk := doActs_keepsQ w1 (w.body e.tid).acts
-    unfold DInv at *; rw [hk.subs, hk.calls, hk.queue]; exact hd0
-  generalize w1.doActs (w.body e.tid).acts = w1' at *
-  have hk := deferAll_keeps w1' (w.body e.tid).defers
-  have hd2 := deferAll_dinv (w.body e.tid).defers hd1
-  have hs2 := hk.sinv hs1
-  generalize w1'.deferAll (w.body e.tid).defers = w2 at *
-  split
-  · exact ⟨installRecurring_inv _ _ _ _ hs2, hd2⟩
-  · exact ⟨hs2, hd2⟩
-
-theorem fireNext_winv {w : World} (h : WInv w) : WInv w.fireNext.1 := by
-  unfold World.fireNext
-  rcases hg : w.tm.getNext w.now with ⟨e?, d, tm'⟩
-  cases e? with
-  | none =>
-    simp only
-    obtain ⟨rfl, _, _, _⟩ := getNext_none hg
-    exact h
-  | some e =>
-    simp only
-    obtain ⟨hs, _⟩ := getNext_some h.sched hg
-    have := process_winv (w := { w with tm := tm' }) (e := e) hs h.fifo
-    split
-    · exact emit_winv _ this
-    · exact this
-
-theorem runOnceLoop_winv (fuel : Nat) {w : World} (h : WInv w) : WInv (w.runOnceLoop fuel).1 := by
-  induction fuel generalizing w with
-  | zero => exact h
-  | succ n ih =>
-    unfold World.runOnceLoop
-    simp only
-    split
-    · exact ih (drain_winv (fireNext_winv h))
-    · exact drain_winv (fireNext_winv h)
-
-theorem setNow_winv {w : World} (t : Nat) (h : WInv w) : WInv { w with now := t } := ⟨h.sched, h.fifo⟩
-
-theorem setTrig_winv {w : World} (b : Bool) (h : WInv w) : WInv { w with tm := { w.tm with trig := b } } :=
-  ⟨h.sched.congr rfl rfl rfl rfl, h.fifo⟩
-
-theorem setRunning_winv {w : World} (b : Bool) (h : WInv w) : WInv { w with running := b } := ⟨h.sched, h.fifo⟩
-
-theorem runLoop_winv (fuel T : Nat) {w : World} (h : WInv w) : WInv (w.runLoop fuel T).1 := by
-  induction fuel generalizing w with
-  | zero => exact h
-  | succ n ih =>
-    unfold World.runLoop
-    simp only
-    have h1 := fireNext_winv h
-    split
-    · exact h
-    · split
-      · exact ih h1
-      · split
-        · exact ih (drain_winv (setTrig_winv false h1))
-        · split
-          · exact drain_winv (setRunning_winv false (setNow_winv _ (setTrig_winv true h1)))
-          · exact ih (drain_winv (setNow_winv _ h1))
-
-theorem api_winv {w : World} (r : TM × Option Raised) (hs : SInv r.1 w.fired) (hd : DInv w) : WInv (w.api r) := by
-  unfold World.api
-  simp only
-  split
-  · exact emit_winv _ ⟨hs, hd⟩
-  · exact ⟨hs, hd⟩
-
-theorem step_winv {w : World} (op : Op) (h : WInv w) : WInv (w.step op).1 := by
-  cases op with
-  | installAt tid t => exact api_winv _ (installTask_inv _ _ _ _ h.sched) h.fifo
-  | installAfter tid d => exact api_winv _ (installTask_inv _ _ _ _ h.sched) h.fifo
-  | installBare tid => exact api_winv _ (installTask_inv _ _ _ _ h.sched) h.fifo
-  | installRec tid iv off => exact api_winv _ (installRecurring_inv _ _ _ _ h.sched) h.fifo
-  | suspend tid => exact ⟨suspend_inv tid h.sched, h.fifo⟩
-  | resume tid => exact api_winv _ (install_inv _ h.sched) h.fifo
-  | defer f =>
-    refine keeps_winv (defer_keeps w f) h.sched ?_
-    have := deferAll_dinv [f] h.fifo
-    exact this
-  | tick d => exact setNow_winv _ h
-  | next => exact fireNext_winv h
-  | advOnce d fuel => exact runOnceLoop_winv _ (setNow_winv _ h)
-  | advRun d fuel => exact setRunning_winv false (runLoop_winv _ _ (setRunning_winv true h))
-  | jumpRun fuel => exact setRunning_winv false (runLoop_winv _ _ (setRunning_winv true h))
-
-theorem run_winv {w : World} (ops : List Op) (h : WInv w) : WInv (w.run ops) := by
-  induction ops generalizing w with
-  | nil => exact h
-  | cons op r ih => exact ih (step_winv op h)
-
-/-- a fresh world: nothing scheduled, nothing fired, nothing deferred; any
-    configuration of task classes, bodies, spin and tick length -/
-def Fresh (w : World) : Prop :=
-  w.tm.heap = [] ∧ w.tm.counter = 0 ∧ w.tm.removed = [] ∧ (∀ t, w.tm.flag t = false) ∧
-  w.fired = [] ∧ w.queue = [] ∧ w.calls = [] ∧ w.subs = []
-
-theorem fresh_winv {w : World} (h : Fresh w) : WInv w := by
-  obtain ⟨h1, h2, h3, h4, h5, h6, h7, h8⟩ := h
-  refine ⟨?_, ?_⟩
-  · rw [h5]; exact SInv.init _ h1 h2 h3 h4
-  · unfold DInv; simp [h6, h7, h8]
-
-/-- the invariants hold after every history -/
-theorem reachable_winv {w : World} (h : Fresh w) (ops : List Op) : WInv (w.run ops) :=
-  run_winv ops (fresh_winv h)
-/-! ## worlds whose bodies and deferred functions only perform acts of a given kind
-
-  `GoodW pa w`: every act in every task body, in every function a body defers,
-  in every queued function, and in everything those defer, satisfies `pa`.
-  With `pa = noAct` this is "the scripted code leaves the scheduler alone"
-  (`Passive`); with `pa = calm t` it is "nobody installs task `t`". -/
-
-def GoodW (pa : Act → Bool) (w : World) : Prop :=
-  (∀ t, (w.body t).acts.all pa = true ∧ goodAll pa (w.body t).defers = true) ∧
-  goodAll pa w.queue = true
-
-theorem GoodW.of_eq {pa : Act → Bool} {w w' : World} (h : GoodW pa w) (hb : w'.body = w.body)
-    (hq : w'.queue = w.queue) : GoodW pa w' := by
-  unfold GoodW; rw [hb, hq]; exact h
-
-theorem GoodW.with_queue {pa : Act → Bool} {w w' : World} (h : GoodW pa w) (hb : w'.body = w.body)
-    (hq : goodAll pa w'.queue = true) : GoodW pa w' := by
-  unfold GoodW; rw [hb]; exact ⟨h.1, hq⟩
-
-theorem doActs_good {pa : Act → Bool} {w : World} (as : List Act) (h : GoodW pa w) :
-    GoodW pa (w.doActs as) :=
-  h.of_eq (doActs_keepsQ w as).body (doActs_keepsQ w as).queue
-
-theorem deferAll_good {pa : Act → Bool} {w : World} (fs : List Fn) (h : GoodW pa w)
-    (hf : goodAll pa fs = true) : GoodW pa (w.deferAll fs) := by
-  refine h.with_queue (deferAll_keeps w fs).body ?_
-  rw [deferAll_queue, goodAll_append, h.2, hf]; rfl
-
-theorem callFn_body (w : World) (f : Fn) : (w.callFn f).body = w.body := by
-  unfold World.callFn
-  simp only
-  have h1 := (doActs_keepsQ ({ w with calls := w.calls ++ [f.id], out := w.out ++ [Ev.call f.id] } : World) f.acts).body
-  have h2 := (deferAll_keeps (World.doActs { w with calls := w.calls ++ [f.id], out := w.out ++ [Ev.call f.id] } f.acts) f.kids).body
-  split
-  · exact h2.trans h1
-  · exact h2.trans h1
-
-theorem callFn_good {pa : Act → Bool} {w : World} {f : Fn} (h : GoodW pa w) (hf : goodFn pa f = true) :
-    GoodW pa (w.callFn f) := by
-  refine h.with_queue (callFn_body w f) ?_
-  rw [callFn_queue, goodAll_append, h.2, (goodFn_acts hf).2]; rfl
-
-theorem runBatch_good {pa : Act → Bool} {w : World} (b : List Fn) (h : GoodW pa w)
-    (hb : goodAll pa b = true) : GoodW pa (w.runBatch b) := by
-  unfold World.runBatch
-  induction b generalizing w with
-  | nil => exact h
-  | cons f r ih =>
-    obtain ⟨hf, hr⟩ := goodAll_cons hb
-    exact ih (callFn_good h hf) hr
-
-theorem drainFuel_good {pa : Act → Bool} (fuel : Nat) {w : World} (h : GoodW pa w) :
-    GoodW pa (w.drainFuel fuel) := by
-  induction fuel generalizing w with
-  | zero => exact h
-  | succ n ih =>
-    unfold World.drainFuel
-    split
-    · exact h
-    · exact ih (runBatch_good w.queue (w := { w with queue := [] }) (h.with_queue rfl rfl) h.2)
-
-theorem drain_good {pa : Act → Bool} {w : World} (h : GoodW pa w) : GoodW pa w.drain :=
-  drainFuel_good _ h
-
-theorem process_body_queue (w : World) (e : Entry) :
-    (w.process e).1.body = w.body ∧ (w.process e).1.queue = w.queue ++ (w.body e.tid).defers := by
-  unfold World.process
-  simp only
-  generalize hw1 : ({ w with fired := w.fired ++ [Fire.mk e.tid e.time e.seq w.now w.tm.counter],
-                             out := w.out ++ [Ev.fire e.tid w.now e.time e.seq] } : World) = w1
-  have hk1 := doActs_keepsQ w1 (w.body e.tid).acts
-  have hk2 := deferAll_keeps (w1.doActs (w.body e.tid).acts) (w.body e.tid).defers
-  have hb : (World.deferAll (w1.doActs (w.body e.tid).acts) (w.body e.tid).defers).body = w.body := by
-    rw [hk2.body, hk1.body, ← hw1]
-  have hq : (World.deferAll (w1.doActs (w.body e.tid).acts) (w.body e.tid).defers).queue
-      = w.queue ++ (w.body e.tid).defers := by
-    rw [deferAll_queue, hk1.queue, ← hw1]
-  split
-  · exact ⟨hb, hq⟩
-  · exact ⟨hb, hq⟩
-
-theorem process_good {pa : Act → Bool} {w : World} (e : Entry) (h : GoodW pa w) :
-    GoodW pa (w.process e).1 := by
-  obtain ⟨hb, hq⟩ := process_body_queue w e
-  refine h.with_queue hb ?_
-  rw [hq, goodAll_append, h.2, (h.1 e.tid).2]; rfl
-
-theorem fireNext_good {pa : Act → Bool} {w : World} (h : GoodW pa w) : GoodW pa w.fireNext.1 := by
-  unfold World.fireNext
-  rcases w.tm.getNext w.now with ⟨e?, d, tm'⟩
-  cases e? with
-  | none => exact h
-  | some e =>
-    simp only
-    have := process_good (w := { w with tm := tm' }) e h
-    split
-    · exact this
-    · exact this
-
-theorem runOnceLoop_good {pa : Act → Bool} (fuel : Nat) {w : World} (h : GoodW pa w) :
-    GoodW pa (w.runOnceLoop fuel).1 := by
-  induction fuel generalizing w with
-  | zero => exact h
-  | succ n ih =>
-    unfold World.runOnceLoop
-    simp only
-    split
-    · exact ih (drain_good (fireNext_good h))
-    · exact drain_good (fireNext_good h)
-
-theorem runLoop_good {pa : Act → Bool} (fuel T : Nat) {w : World} (h : GoodW pa w) :
-    GoodW pa (w.runLoop fuel T).1 := by
-  induction fuel generalizing w with
-  | zero => exact h
-  | succ n ih =>
-    unfold World.runLoop
-    simp only
-    have h1 := fireNext_good h
-    split
-    · exact h
-    · split
-      · exact ih h1
-      · split
-        · exact ih (drain_good (w := { w.fireNext.1 with tm := { w.fireNext.1.tm with trig := false } }) h1)
-        · split
-          · exact drain_good (w := { w.fireNext.1 with now := max w.fireNext.1.now T, running := false,
-                                                        tm := { w.fireNext.1.tm with trig := true } }) h1
-          · exact ih (drain_good (w := { w.fireNext.1 with now := w.fireNext.1.now + w.fireNext.1.timeout w.fireNext.2.1 }) h1)
-
-/-- operations whose deferred function (if any) only performs acts satisfying `pa` -/
-def goodOp (pa : Act → Bool) : Op → Bool
-  | .defer f => goodFn pa f
-  | _ => true
-
-theorem api_body_queue (w : World) (r : TM × Option Raised) : (w.api r).body = w.body ∧ (w.api r).queue = w.queue := by
-  unfold World.api
-  simp only
-  split <;> exact ⟨rfl, rfl⟩
-
-theorem step_good {pa : Act → Bool} {w : World} (op : Op) (h : GoodW pa w) (ho : goodOp pa op = true) :
-    GoodW pa (w.step op).1 := by
-  cases op with
-  | installAt tid t => exact h.of_eq (api_body_queue _ _).1 (api_body_queue _ _).2
-  | installAfter tid d => exact h.of_eq (api_body_queue _ _).1 (api_body_queue _ _).2
-  | installBare tid => exact h.of_eq (api_body_queue _ _).1 (api_body_queue _ _).2
-  | installRec tid iv off => exact h.of_eq (api_body_queue _ _).1 (api_body_queue _ _).2
-  | suspend tid => exact h
-  | resume tid => exact h.of_eq (api_body_queue _ _).1 (api_body_queue _ _).2
-  | defer f =>
-    have := deferAll_good [f] h (by simpa [goodAll, goodOp] using ho)
-    exact this
-  | tick d => exact h
-  | next => exact fireNext_good h
-  | advOnce d fuel => exact runOnceLoop_good _ (w := { w with now := w.now + d }) h
-  | advRun d fuel => exact (runLoop_good _ _ (w := { w with running := true }) h).of_eq rfl rfl
-  | jumpRun fuel => exact (runLoop_good _ _ (w := { w with running := true }) h).of_eq rfl rfl
-
-theorem run_good {pa : Act → Bool} {w : World} (ops : List Op) (h : GoodW pa w)
-    (ho : ∀ op ∈ ops, goodOp pa op = true) : GoodW pa (w.run ops) := by
-  induction ops generalizing w with
-  | nil => exact h
-  | cons op r ih =>
-    exact ih (step_good op h (ho op List.mem_cons_self)) (fun o hm => ho o (List.mem_cons_of_mem _ hm))
-
-/-- the scripted code never touches the scheduler (the hypothesis of the
-    completeness and single-pass theorems) -/
-abbrev Passive (w : World) : Prop := GoodW noAct w
-
-theorem Passive.body_acts {w : World} (h : Passive w) (t : Nat) : (w.body t).acts = [] :=
-  all_noAct (h.1 t).1
-
 /-! ## re-installing moves -/
 
 theorem suspend_counter (tm : TM) (tid : Nat) : (tm.suspend tid).counter = tm.counter := by
@@ -1177,89 +565,6 @@ theorem reinstall_moves_delta {tm : TM} {fired : List Fire} (h : SInv tm fired) 
   have := install_moves h0 tid (now + d) (by simp [upd])
   exact ⟨this.1, this.2.1, this.2.2.1⟩
 
-/-! ## the property clauses, for every history from a fresh world -/
-
-/-- **fire_order** — for any two firings `f` (earlier in the log) and `g`
-    (later): if `g`'s installation already existed when `f` fired (`g.seq <
-    f.ctr`, i.e. both were pending together), then `f` is due strictly earlier,
-    or at the same time and was installed earlier.  Hence tasks fire in
-    non-decreasing order of due time and, among equal times, in installation
-    order.  (The proviso is necessary: an installation made later may lie in
-    the past.) -/
-theorem fire_order {w : World} (hw : Fresh w) (ops : List Op) :
-    (w.run ops).fired.Pairwise (fun f g => g.seq < f.ctr → keyLt f.due f.seq g.due g.seq) :=
-  (reachable_winv hw ops).sched.order
-
-/-- at the moment of a firing, the fired entry is the minimum of the heap -/
-theorem fire_is_min {tm tm' : TM} {now : Nat} {e : Entry} {d : Option Nat}
-    (hg : tm.getNext now = (some e, d, tm')) : ∀ x ∈ tm.heap, e.before x := by
-  unfold TM.getNext at hg
-  cases hp : popMin tm.heap with
-  | none => rw [hp] at hg; simp at hg
-  | some p =>
-    obtain ⟨m, rest⟩ := p
-    rw [hp] at hg
-    obtain ⟨hperm, hmin⟩ := popMin_some hp
-    simp only at hg
-    split at hg
-    · simp only [Prod.mk.injEq, Option.some.injEq] at hg
-      obtain ⟨rfl, _, _⟩ := hg
-      intro x hx
-      rcases List.mem_cons.mp (hperm.mem_iff.mp hx) with rfl | hx'
-      · exact before_refl _
-      · exact hmin x hx'
-    · simp at hg
-
-/-- **never_early** -/
-theorem never_early {w : World} (hw : Fresh w) (ops : List Op) :
-    ∀ f ∈ (w.run ops).fired, f.due ≤ f.now :=
-  (reachable_winv hw ops).sched.early
-
-/-- **once_per_install** (at most once): no installation number occurs twice in the log -/
-theorem once_per_install {w : World} (hw : Fresh w) (ops : List Op) :
-    ((w.run ops).fired.map (·.seq)).Nodup := by
-  have := (reachable_winv hw ops).sched.nodup_all
-  exact (List.nodup_append.mp (List.nodup_append.mp this).1).2.1
-
-/-- the fate of every installation: the numbers `0 … counter-1` are split into
-    "still queued", "fired", "deleted by suspend_task / replaced by a re-install"
-    without overlap -/
-theorem install_fate {w : World} (hw : Fresh w) (ops : List Op) :
-    let v := w.run ops
-    (v.tm.heap.map (·.seq) ++ v.fired.map (·.seq) ++ v.tm.removed).Perm (List.range v.tm.counter) :=
-  (reachable_winv hw ops).sched.part
-
-/-- **suspended_silent** (installation level): what suspend_task deleted — or a
-    re-install replaced — is never fired, before or after -/
-theorem removed_never_fires {w : World} (hw : Fresh w) (ops : List Op) :
-    ∀ s ∈ (w.run ops).tm.removed, s ∉ (w.run ops).fired.map (·.seq) := by
-  intro s hs hf
-  have := (reachable_winv hw ops).sched.nodup_all
-  exact (List.nodup_append.mp this).2.2 s (List.mem_append_right _ hf) s hs rfl
-
-/-- every installation that is neither fired nor deleted is still queued -/
-theorem pending_or_done {w : World} (hw : Fresh w) (ops : List Op) (s : Nat)
-    (hs : s < (w.run ops).tm.counter) (hr : s ∉ (w.run ops).tm.removed)
-    (hf : s ∉ (w.run ops).fired.map (·.seq)) : ∃ e ∈ (w.run ops).tm.heap, e.seq = s := by
-  have := (install_fate hw ops).mem_iff.mpr (List.mem_range.mpr hs)
-  simp only [List.mem_append] at this
-  rcases this with (h | h) | h
-  · obtain ⟨e, he, rfl⟩ := List.mem_map.mp h; exact ⟨e, he, rfl⟩
-  · exact absurd h hf
-  · exact absurd h hr
-
-/-- **reinstall_moves** (invariant): at most one heap entry per task, present iff flagged -/
-theorem one_entry_iff_flagged {w : World} (hw : Fresh w) (ops : List Op) :
-    ((w.run ops).tm.heap.map (·.tid)).Nodup ∧
-    ∀ t, (w.run ops).tm.flag t = true ↔ ∃ e ∈ (w.run ops).tm.heap, e.tid = t :=
-  ⟨(reachable_winv hw ops).sched.tid_nodup, (reachable_winv hw ops).sched.flag_iff⟩
-
-/-- **deferred_fifo_once** (invariant): the ids in submission order are the ids
-    called so far followed by the ids still queued — nothing lost, duplicated or
-    reordered, whatever raised -/
-theorem deferred_fifo {w : World} (hw : Fresh w) (ops : List Op) :
-    (w.run ops).subs = (w.run ops).calls ++ (w.run ops).queue.map Fn.id :=
-  (reachable_winv hw ops).fifo
 /-! ## recurring tasks: the next-slot arithmetic on exact integers -/
 
 theorem slotAfter_eq (n iv off : Nat) :
@@ -1389,1019 +694,6 @@ theorem installRecurring_time {tm : TM} {fired : List Fire} (h : SInv tm fired) 
   refine ⟨hm.1, ?_, hm.2.1⟩
   rw [install_ttime]
   simp [upd, t]
-/-! ## a suspended task stays silent until somebody installs it again -/
-
-/-- the operations that (re-)arm task `t` -/
-def arms (t : Nat) : Op → Bool
-  | .installAt tid _ => tid == t
-  | .installAfter tid _ => tid == t
-  | .installBare tid => tid == t
-  | .installRec tid _ _ => tid == t
-  | .resume tid => tid == t
-  | _ => false
-
-/-- `t` is unscheduled in `w'` and has not fired since `w` -/
-def Quiet (t : Nat) (w w' : World) : Prop :=
-  w'.tm.flag t = false ∧ ∀ f ∈ w'.fired, f.tid = t → f ∈ w.fired
-
-theorem Quiet.trans {t : Nat} {a b c : World} (h1 : Quiet t a b) (h2 : Quiet t b c) : Quiet t a c :=
-  ⟨h2.1, fun f hf ht => h1.2 f (h2.2 f hf ht) ht⟩
-
-theorem keeps_quiet {t : Nat} {w w' : World} (hk : Keeps w w') (hf : w.tm.flag t = false) : Quiet t w w' := by
-  refine ⟨by rw [hk.flag]; exact hf, ?_⟩
-  intro f hf' _; rw [hk.fired] at hf'; exact hf'
-
-theorem suspend_flag_false {tm : TM} {t : Nat} (x : Nat) (h : tm.flag t = false) :
-    (tm.suspend x).flag t = false := by
-  unfold TM.suspend
-  split
-  · simp only [upd]; split <;> simp [h]
-  · exact h
-
-theorem install_flag_other {tm : TM} {t x : Nat} (hx : x ≠ t) (h : tm.flag t = false) :
-    (tm.install x).1.flag t = false := by
-  unfold TM.install
-  cases tm.ttime x with
-  | none => exact h
-  | some tt =>
-    simp only [upd, if_neg (Ne.symm hx)]
-    split
-    · exact suspend_flag_false x h
-    · exact h
-
-theorem installTask_flag_other {tm : TM} {t x : Nat} (now : Nat) (w d : Option Nat) (hx : x ≠ t)
-    (h : tm.flag t = false) : (tm.installTask now x w d).1.flag t = false := by
-  unfold TM.installTask
-  simp only
-  split
-  · exact h
-  · exact install_flag_other hx h
-
-theorem installRecurring_flag_other {tm : TM} {t x : Nat} (now : Nat) (iv off : Option Nat) (hx : x ≠ t)
-    (h : tm.flag t = false) : (tm.installRecurring now x iv off).1.flag t = false := by
-  unfold TM.installRecurring
-  simp only
-  split
-  · exact h
-  · split
-    · exact h
-    · exact install_flag_other hx h
-
-/-- acts that do not (re-)arm task `t` -/
-def calm (t : Nat) : Act → Bool
-  | .installAt tid _ => tid != t
-  | .installAfter tid _ => tid != t
-  | _ => true
-
-theorem act_flag {t : Nat} {w : World} {a : Act} (ha : calm t a = true) (hf : w.tm.flag t = false) :
-    (w.act a).tm.flag t = false := by
-  cases a with
-  | installAt tid x => exact installTask_flag_other _ _ _ (by simpa [calm] using ha) hf
-  | installAfter tid d => exact installTask_flag_other _ _ _ (by simpa [calm] using ha) hf
-  | suspend tid => exact suspend_flag_false tid hf
-  | stop => exact hf
-
-theorem doActs_flag {t : Nat} {w : World} (as : List Act) (ha : as.all (calm t) = true)
-    (hf : w.tm.flag t = false) : (w.doActs as).tm.flag t = false := by
-  unfold World.doActs
-  induction as generalizing w with
-  | nil => exact hf
-  | cons a r ih =>
-    simp only [List.all_cons, Bool.and_eq_true] at ha
-    exact ih ha.2 (act_flag ha.1 hf)
-
-theorem callFn_quietD {t : Nat} {w : World} {f : Fn} (hg : goodFn (calm t) f = true)
-    (hf : w.tm.flag t = false) : (w.callFn f).tm.flag t = false ∧ (w.callFn f).fired = w.fired := by
-  unfold World.callFn
-  simp only
-  generalize hw1 : ({ w with calls := w.calls ++ [f.id], out := w.out ++ [Ev.call f.id] } : World) = w1
-  have hf1 : w1.tm.flag t = false := by subst hw1; exact hf
-  have hfi1 : w1.fired = w.fired := by subst hw1; rfl
-  have hf2 := doActs_flag f.acts (goodFn_acts hg).1 hf1
-  have hk1 := doActs_keepsQ w1 f.acts
-  have hk2 := deferAll_keeps (w1.doActs f.acts) f.kids
-  have hf3 : (World.deferAll (w1.doActs f.acts) f.kids).tm.flag t = false := by rw [hk2.flag]; exact hf2
-  have hfi3 : (World.deferAll (w1.doActs f.acts) f.kids).fired = w.fired := by rw [hk2.fired, hk1.fired, hfi1]
-  split
-  · exact ⟨hf3, hfi3⟩
-  · exact ⟨hf3, hfi3⟩
-
-theorem runBatch_quietD {t : Nat} {w : World} (b : List Fn) (hb : goodAll (calm t) b = true)
-    (hf : w.tm.flag t = false) : (w.runBatch b).tm.flag t = false ∧ (w.runBatch b).fired = w.fired := by
-  unfold World.runBatch
-  induction b generalizing w with
-  | nil => exact ⟨hf, rfl⟩
-  | cons f r ih =>
-    obtain ⟨hg, hr⟩ := goodAll_cons hb
-    obtain ⟨h1, h2⟩ := callFn_quietD hg hf
-    obtain ⟨h3, h4⟩ := ih hr h1
-    exact ⟨h3, h4.trans h2⟩
-
-theorem drainFuel_quietD {t : Nat} (fuel : Nat) {w : World} (hg : GoodW (calm t) w)
-    (hf : w.tm.flag t = false) :
-    (w.drainFuel fuel).tm.flag t = false ∧ (w.drainFuel fuel).fired = w.fired := by
-  induction fuel generalizing w with
-  | zero => exact ⟨hf, rfl⟩
-  | succ n ih =>
-    unfold World.drainFuel
-    split
-    · exact ⟨hf, rfl⟩
-    · obtain ⟨h1, h2⟩ := runBatch_quietD (w := { w with queue := [] }) w.queue hg.2 hf
-      have hg' := runBatch_good w.queue (w := { w with queue := [] }) (hg.with_queue rfl rfl) hg.2
-      obtain ⟨h3, h4⟩ := ih hg' h1
-      exact ⟨h3, h4.trans h2⟩
-
-theorem drain_quiet {t : Nat} {w : World} (hg : GoodW (calm t) w) (hf : w.tm.flag t = false) :
-    Quiet t w w.drain := by
-  obtain ⟨h1, h2⟩ := drainFuel_quietD (weights w.queue) hg hf
-  exact ⟨h1, fun f hf' _ => by rw [show w.drain.fired = w.fired from h2] at hf'; exact hf'⟩
-
-theorem process_quiet {t : Nat} {w : World} {e : Entry} (hg : GoodW (calm t) w) (he : e.tid ≠ t)
-    (hf : w.tm.flag t = false) :
-    (w.process e).1.tm.flag t = false ∧
-    ∀ f ∈ (w.process e).1.fired, f.tid = t → f ∈ w.fired := by
-  unfold World.process
-  simp only
-  generalize hw1 : ({ w with fired := w.fired ++ [Fire.mk e.tid e.time e.seq w.now w.tm.counter],
-                             out := w.out ++ [Ev.fire e.tid w.now e.time e.seq] } : World) = w1
-  have hf1 : w1.tm.flag t = false := by subst hw1; exact hf
-  have hf2 := doActs_flag (w.body e.tid).acts (hg.1 e.tid).1 hf1
-  have hk1 := doActs_keepsQ w1 (w.body e.tid).acts
-  have hk := deferAll_keeps (w1.doActs (w.body e.tid).acts) (w.body e.tid).defers
-  have hfl : (World.deferAll (w1.doActs (w.body e.tid).acts) (w.body e.tid).defers).tm.flag t = false := by
-    rw [hk.flag]; exact hf2
-  have hfi : ∀ f ∈ (World.deferAll (w1.doActs (w.body e.tid).acts) (w.body e.tid).defers).fired,
-      f.tid = t → f ∈ w.fired := by
-    intro f hf' ht
-    rw [hk.fired, hk1.fired, ← hw1] at hf'
-    rcases List.mem_append.mp hf' with h | h
-    · exact h
-    · simp at h; subst h; exact absurd ht he
-  generalize World.deferAll (w1.doActs (w.body e.tid).acts) (w.body e.tid).defers = w2 at *
-  split
-  · exact ⟨installRecurring_flag_other _ _ _ he hfl, hfi⟩
-  · exact ⟨hfl, hfi⟩
-
-theorem fireNext_quiet {t : Nat} {w : World} (h : WInv w) (hg : GoodW (calm t) w)
-    (hf : w.tm.flag t = false) : Quiet t w w.fireNext.1 := by
-  unfold World.fireNext
-  rcases hgn : w.tm.getNext w.now with ⟨e?, d, tm'⟩
-  cases e? with
-  | none =>
-    simp only
-    obtain ⟨rfl, _, _, _⟩ := getNext_none hgn
-    exact ⟨hf, fun f hf' _ => hf'⟩
-  | some e =>
-    simp only
-    obtain ⟨_, _, hmem, _, _⟩ := getNext_some h.sched hgn
-    have het : e.tid ≠ t := by
-      intro heq
-      have := (h.sched.flag_iff t).mpr ⟨e, hmem, heq⟩
-      rw [hf] at this; cases this
-    have hfl' : tm'.flag t = false := by
-      unfold TM.getNext at hgn
-      split at hgn
-      · simp at hgn
-      · split at hgn
-        · simp only [Prod.mk.injEq] at hgn
-          obtain ⟨_, _, rfl⟩ := hgn
-          simp only [upd]; split <;> simp [hf]
-        · simp at hgn
-    have := process_quiet (w := { w with tm := tm' }) (e := e) hg het hfl'
-    split
-    · exact this
-    · exact this
-
-theorem runOnceLoop_quiet {t : Nat} (fuel : Nat) {w : World} (h : WInv w) (hg : GoodW (calm t) w)
-    (hf : w.tm.flag t = false) : Quiet t w (w.runOnceLoop fuel).1 := by
-  induction fuel generalizing w with
-  | zero => exact ⟨hf, fun f hf' _ => hf'⟩
-  | succ n ih =>
-    unfold World.runOnceLoop
-    simp only
-    have q1 := fireNext_quiet h hg hf
-    have g1 := fireNext_good hg
-    have q2 := q1.trans (drain_quiet g1 q1.1)
-    have hw := drain_winv (fireNext_winv h)
-    split
-    · exact q2.trans (ih hw (drain_good g1) q2.1)
-    · exact q2
-
-theorem runLoop_quiet {t : Nat} (fuel T : Nat) {w : World} (h : WInv w) (hg : GoodW (calm t) w)
-    (hf : w.tm.flag t = false) : Quiet t w (w.runLoop fuel T).1 := by
-  induction fuel generalizing w with
-  | zero => exact ⟨hf, fun f hf' _ => hf'⟩
-  | succ n ih =>
-    unfold World.runLoop
-    simp only
-    have q1 := fireNext_quiet h hg hf
-    have g1 := fireNext_good hg
-    have h1 := fireNext_winv h
-    split
-    · exact ⟨hf, fun f hf' _ => hf'⟩
-    · split
-      · exact q1.trans (ih h1 g1 q1.1)
-      · split
-        · have hw := drain_winv (setTrig_winv false h1)
-          have q2 := drain_quiet (w := { w.fireNext.1 with tm := { w.fireNext.1.tm with trig := false } }) g1 q1.1
-          exact (q1.trans q2).trans (ih hw (drain_good (w := { w.fireNext.1 with tm := { w.fireNext.1.tm with trig := false } }) g1) q2.1)
-        · split
-          · have q2 := drain_quiet (w := { w.fireNext.1 with now := max w.fireNext.1.now T, running := false, tm := { w.fireNext.1.tm with trig := true } }) g1 q1.1
-            exact q1.trans q2
-          · have hw := drain_winv (setNow_winv (w.fireNext.1.now + w.fireNext.1.timeout w.fireNext.2.1) h1)
-            have q2 := drain_quiet (w := { w.fireNext.1 with now := w.fireNext.1.now + w.fireNext.1.timeout w.fireNext.2.1 }) g1 q1.1
-            exact (q1.trans q2).trans (ih hw (drain_good (w := { w.fireNext.1 with now := w.fireNext.1.now + w.fireNext.1.timeout w.fireNext.2.1 }) g1) q2.1)
-
-theorem api_quiet {t : Nat} {w : World} (r : TM × Option Raised) (hf : r.1.flag t = false) :
-    Quiet t w (w.api r) := by
-  unfold World.api
-  simp only
-  split
-  · exact ⟨hf, fun f hf' _ => hf'⟩
-  · exact ⟨hf, fun f hf' _ => hf'⟩
-
-theorem step_quiet {t : Nat} {w : World} (op : Op) (h : WInv w) (hg : GoodW (calm t) w)
-    (hf : w.tm.flag t = false) (ha : arms t op = false) : Quiet t w (w.step op).1 := by
-  cases op with
-  | installAt tid x => exact api_quiet _ (installTask_flag_other _ _ _ (by simpa [arms] using ha) hf)
-  | installAfter tid d => exact api_quiet _ (installTask_flag_other _ _ _ (by simpa [arms] using ha) hf)
-  | installBare tid => exact api_quiet _ (installTask_flag_other _ _ _ (by simpa [arms] using ha) hf)
-  | installRec tid iv off => exact api_quiet _ (installRecurring_flag_other _ _ _ (by simpa [arms] using ha) hf)
-  | suspend tid => exact ⟨suspend_flag_false tid hf, fun f hf' _ => hf'⟩
-  | resume tid => exact api_quiet _ (install_flag_other (by simpa [arms] using ha) hf)
-  | defer f => exact keeps_quiet (defer_keeps w f) hf
-  | tick d => exact ⟨hf, fun f hf' _ => hf'⟩
-  | next => exact fireNext_quiet h hg hf
-  | advOnce d fuel => exact runOnceLoop_quiet _ (w := { w with now := w.now + d }) (setNow_winv _ h) hg hf
-  | advRun d fuel =>
-    exact runLoop_quiet fuel (w.now + d) (w := { w with running := true }) (setRunning_winv true h) hg hf
-  | jumpRun fuel =>
-    exact runLoop_quiet fuel _ (w := { w with running := true }) (setRunning_winv true h) hg hf
-
-theorem run_quiet {t : Nat} {w : World} (ops : List Op) (h : WInv w) (hg : GoodW (calm t) w)
-    (hf : w.tm.flag t = false) (ha : ∀ op ∈ ops, arms t op = false ∧ goodOp (calm t) op = true) :
-    Quiet t w (w.run ops) := by
-  induction ops generalizing w with
-  | nil => exact ⟨hf, fun f hf' _ => hf'⟩
-  | cons op r ih =>
-    have q1 := step_quiet op h hg hf (ha op List.mem_cons_self).1
-    exact q1.trans (ih (step_winv op h) (step_good op hg (ha op List.mem_cons_self).2) q1.1
-      (fun o ho => ha o (List.mem_cons_of_mem _ ho)))
-
-/-- `suspend_task` leaves the task unflagged whenever the invariant holds
-    (found: cleared; not found: it was not flagged) -/
-theorem suspend_unflags {tm : TM} {fired : List Fire} (h : SInv tm fired) (t : Nat) :
-    (tm.suspend t).flag t = false := by
-  have h' := suspend_inv t h
-  have hno := suspend_no_tid t h
-  cases hfl : (tm.suspend t).flag t with
-  | false => rfl
-  | true =>
-    obtain ⟨e, he, het⟩ := (h'.flag_iff t).mp hfl
-    exact absurd het (hno e he)
-
-/-- **suspended_silent** — in any reachable state, suspend task `t`; whatever
-    happens afterwards (time passing, other tasks being installed, suspended,
-    fired, raising; task bodies and deferred functions installing, moving and
-    suspending tasks or stopping the loop), as long as nobody — no operation,
-    no task body, no deferred function at any depth (`GoodW (calm t)`,
-    `goodOp (calm t)`) — installs or resumes `t`, it does not fire: every
-    firing of `t` in the log was already there before. -/
-theorem suspended_silent {w : World} (hw : Fresh w) (before after : List Op) (t : Nat)
-    (hg : GoodW (calm t) w) (hb : ∀ op ∈ before, goodOp (calm t) op = true)
-    (ha : ∀ op ∈ after, arms t op = false ∧ goodOp (calm t) op = true) :
-    let v := w.run before
-    ∀ f ∈ ((v.step (.suspend t)).1.run after).fired, f.tid = t → f ∈ v.fired := by
-  intro v
-  have hv : WInv v := reachable_winv hw before
-  have hgv : GoodW (calm t) v := run_good before hg hb
-  have hs : WInv (v.step (.suspend t)).1 := step_winv _ hv
-  have hfl : (v.step (.suspend t)).1.tm.flag t = false := suspend_unflags hv.sched t
-  exact (run_quiet after hs hgv hfl ha).2
-
-/-- the same for a task that was never installed, or has fired and was not re-installed -/
-theorem unscheduled_silent {w : World} (hw : Fresh w) (before after : List Op) (t : Nat)
-    (hg : GoodW (calm t) w) (hb : ∀ op ∈ before, goodOp (calm t) op = true)
-    (hfl : (w.run before).tm.flag t = false)
-    (ha : ∀ op ∈ after, arms t op = false ∧ goodOp (calm t) op = true) :
-    ∀ f ∈ ((w.run before).run after).fired, f.tid = t → f ∈ (w.run before).fired :=
-  (run_quiet after (reachable_winv hw before) (run_good before hg hb) hfl ha).2
-/-! ## a pass leaves nothing behind: completeness of run_once and run
-
-  This is the "exactly once" half of `once_per_install` and the task half of the
-  isolation clause: whatever raised during the pass, when `run_once()` returns
-  (resp. when `run()` reaches virtual time `T`) no queued entry is due any more
-  and the deferred queue is empty.  Together with `install_fate` /
-  `pending_or_done`: an installation that was not deleted by suspend_task or
-  replaced by a re-install, and whose time has passed, HAS fired — once. -/
-
-/-- nothing in the heap is due at `w.now` -/
-def NoDue (w : World) : Prop := ∀ e ∈ w.tm.heap, w.now < e.time
-
-/-- number of due entries -/
-def dueCount (now : Nat) (h : List Entry) : Nat := h.countP (fun e => decide (e.time ≤ now))
-
-theorem getNext_delta {tm tm' : TM} {now : Nat} {e? : Option Entry} {d : Option Nat}
-    (hg : tm.getNext now = (e?, d, tm')) :
-    ∀ x ∈ tm'.heap, ∃ dd, d = some dd ∧ now + dd ≤ max x.time now ∧ (dd ≠ 0 → now < x.time) := by
-  unfold TM.getNext at hg
-  cases hp : popMin tm.heap with
-  | none =>
-    rw [hp] at hg; simp only [Prod.mk.injEq] at hg
-    obtain ⟨_, _, rfl⟩ := hg
-    rw [popMin_none.mp hp]; simp
-  | some p =>
-    obtain ⟨m, rest⟩ := p
-    rw [hp] at hg
-    obtain ⟨hperm, hmin⟩ := popMin_some hp
-    simp only at hg
-    split at hg
-    · simp only [Prod.mk.injEq] at hg
-      obtain ⟨_, rfl, rfl⟩ := hg
-      simp only
-      intro x hx
-      unfold peekMin
-      cases hp2 : popMin rest with
-      | none => rw [popMin_none.mp hp2] at hx; simp at hx
-      | some p2 =>
-        obtain ⟨e2, r2⟩ := p2
-        obtain ⟨hperm2, hmin2⟩ := popMin_some hp2
-        have hb : e2.time ≤ x.time := by
-          rcases List.mem_cons.mp (hperm2.mem_iff.mp hx) with rfl | hx'
-          · exact Nat.le_refl _
-          · have := hmin2 x hx'; unfold Entry.before at this; omega
-        refine ⟨e2.time - now, rfl, ?_, ?_⟩ <;> omega
-    · rename_i hdue
-      simp only [Prod.mk.injEq] at hg
-      obtain ⟨_, rfl, rfl⟩ := hg
-      intro x hx
-      have hb : m.time ≤ x.time := by
-        rcases List.mem_cons.mp (hperm.mem_iff.mp hx) with rfl | hx'
-        · exact Nat.le_refl _
-        · have := hmin x hx'; unfold Entry.before at this; omega
-      refine ⟨m.time - now, rfl, ?_, ?_⟩ <;> omega
-
-theorem timeout_le (w : World) (dd : Nat) : w.timeout (some dd) ≤ dd := by
-  unfold World.timeout; exact Nat.min_le_left _ _
-
-/-- `TaskManager.install_task` of an unflagged task only pushes -/
-theorem install_unflagged {tm : TM} {tid t : Nat} (ht : tm.ttime tid = some t) (hf : tm.flag tid = false) :
-    (tm.install tid).1.heap = ⟨t, tm.counter, tid⟩ :: tm.heap ∧ (tm.install tid).1.trig = true := by
-  unfold TM.install
-  rw [ht]
-  simp [hf]
-
-/-- `process_task` of a body that leaves the scheduler alone -/
-def processP (w : World) (e : Entry) : World × Bool :=
-  let b := w.body e.tid
-  let w := { w with fired := w.fired ++ [Fire.mk e.tid e.time e.seq w.now w.tm.counter],
-                    out := w.out ++ [Ev.fire e.tid w.now e.time e.seq] }
-  let w := w.deferAll b.defers
-  if w.recurring e.tid then
-    let r := w.tm.installRecurring w.now e.tid none none
-    ({ w with tm := r.1 }, b.raises || r.2.isSome)
-  else (w, b.raises)
-
-theorem process_eq {w : World} {e : Entry} (ha : (w.body e.tid).acts = []) :
-    w.process e = processP w e := by
-  unfold World.process processP
-  simp only
-  rw [ha]
-  rfl
-
-/-- what `process_task` does to the heap of a just-popped (hence unflagged) task:
-    nothing, or — recurring task, valid interval — one new entry strictly in
-    the future, with the wake-up flag set -/
-theorem process_heap {w : World} {e : Entry} (ha : (w.body e.tid).acts = [])
-    (hf : w.tm.flag e.tid = false) :
-    (w.process e).1.now = w.now ∧ (w.process e).1.spin = w.spin ∧
-    ((w.process e).1.tm.heap = w.tm.heap ∨
-     ((w.process e).1.tm.trig = true ∧
-      ∃ t c, w.now < t ∧ (w.process e).1.tm.heap = ⟨t, c, e.tid⟩ :: w.tm.heap)) := by
-  rw [process_eq ha]
-  unfold processP
-  simp only
-  generalize hw1 : ({ w with fired := w.fired ++ [Fire.mk e.tid e.time e.seq w.now w.tm.counter],
-                             out := w.out ++ [Ev.fire e.tid w.now e.time e.seq] } : World) = w1
-  have hk := deferAll_keeps w1 (w.body e.tid).defers
-  have hheap : (w1.deferAll (w.body e.tid).defers).tm.heap = w.tm.heap := by rw [hk.heap, ← hw1]
-  have hflag : (w1.deferAll (w.body e.tid).defers).tm.flag e.tid = false := by rw [hk.flag, ← hw1]; exact hf
-  have hnow : (w1.deferAll (w.body e.tid).defers).now = w.now := by rw [hk.now, ← hw1]
-  have hspin : (w1.deferAll (w.body e.tid).defers).spin = w.spin := by rw [hk.spin, ← hw1]
-  generalize w1.deferAll (w.body e.tid).defers = w2 at *
-  split
-  · refine ⟨hnow, hspin, ?_⟩
-    simp only
-    unfold TM.installRecurring
-    have hset : w2.tm.setRecurring e.tid none none = w2.tm := rfl
-    simp only [hset]
-    split
-    · exact Or.inl hheap
-    · split
-      · exact Or.inl hheap
-      · rename_i iv _ hiv
-        right
-        generalize ht0 : (slotAfter (w2.now + w2.tm.jitter) iv (w2.tm.offsetOf e.tid)).toNat = t0
-        have := install_unflagged (tm := { w2.tm with ttime := upd w2.tm.ttime e.tid (some t0) })
-          (tid := e.tid) (t := t0) (by simp [upd]) hflag
-        refine ⟨this.2, t0, _, ?_, by rw [this.1, hheap]⟩
-        have hgt := slotAfter_gt (w2.now + w2.tm.jitter) iv (w2.tm.offsetOf e.tid) (by omega)
-        rw [← hnow, ← ht0]
-        omega
-  · exact ⟨hnow, hspin, Or.inl hheap⟩
-
-theorem process_running {w : World} {e : Entry} (ha : (w.body e.tid).acts = []) :
-    (w.process e).1.running = w.running := by
-  rw [process_eq ha]
-  unfold processP
-  simp only
-  have hk := deferAll_keeps ({ w with fired := w.fired ++ [Fire.mk e.tid e.time e.seq w.now w.tm.counter],
-                                      out := w.out ++ [Ev.fire e.tid w.now e.time e.seq] } : World) (w.body e.tid).defers
-  split <;> exact hk.running
-
-/-- bodies that leave the scheduler alone do not stop the loop -/
-theorem fireNext_running {w : World} (hp : Passive w) : w.fireNext.1.running = w.running := by
-  unfold World.fireNext
-  rcases w.tm.getNext w.now with ⟨e?, d, tm'⟩
-  cases e? with
-  | none => rfl
-  | some e =>
-    simp only
-    have := process_running (w := { w with tm := tm' }) (e := e) (hp.body_acts e.tid)
-    split
-    · exact this
-    · exact this
-
-theorem emit_same (w : World) (e : Ev) : (w.emit e).tm = w.tm ∧ (w.emit e).now = w.now ∧
-    (w.emit e).spin = w.spin ∧ (w.emit e).queue = w.queue := ⟨rfl, rfl, rfl, rfl⟩
-
-/-- everything the two loops need to know about one `get_next_task` +
-    `process_task` -/
-theorem fireNext_spec {w : World} (h : WInv w) (hp : Passive w) :
-    w.fireNext.1.now = w.now ∧ w.fireNext.1.spin = w.spin ∧
-    -- run_once: it continues only while something was popped and the next head is due
-    (w.fireNext.2.1 ≠ some 0 → NoDue w.fireNext.1) ∧
-    (w.fireNext.2.1 = some 0 → dueCount w.now w.fireNext.1.tm.heap + 1 = dueCount w.now w.tm.heap) ∧
-    -- run: if nothing raised and nobody set the wake-up flag, `delta` is still right
-    (w.fireNext.1.tm.trig = false →
-      ∀ x ∈ w.fireNext.1.tm.heap, w.now + w.timeout w.fireNext.2.1 ≤ max x.time w.now) := by
-  unfold World.fireNext
-  rcases hg : w.tm.getNext w.now with ⟨e?, d, tm'⟩
-  have hdelta := getNext_delta hg
-  cases e? with
-  | none =>
-    simp only
-    obtain ⟨rfl, hnd, hdn, hd0⟩ := getNext_none hg
-    refine ⟨by simp, by simp, fun _ => hnd, ?_, ?_⟩
-    · intro hd
-      -- delta = some 0 is impossible when nothing is due
-      exact absurd hd hd0
-    · intro _ x hx
-      obtain ⟨dd, hdd, h1, _⟩ := hdelta x hx
-      rw [hdd]; have := timeout_le w dd; omega
-  | some e =>
-    simp only
-    obtain ⟨_, hdue, hmem, hperm, hmin⟩ := getNext_some h.sched hg
-    have hfl : tm'.flag e.tid = false := by
-      unfold TM.getNext at hg
-      split at hg
-      · simp at hg
-      · split at hg
-        · simp only [Prod.mk.injEq, Option.some.injEq] at hg
-          obtain ⟨rfl, _, rfl⟩ := hg
-          simp [upd]
-        · simp at hg
-    obtain ⟨hnow, hspin, hheap⟩ := process_heap (w := { w with tm := tm' }) (e := e) (hp.body_acts e.tid) hfl
-    -- the result, with or without the logged exception
-    have key : ∀ v : World, v.tm = (World.process { w with tm := tm' } e).1.tm →
-        v.now = (World.process { w with tm := tm' } e).1.now →
-        v.spin = (World.process { w with tm := tm' } e).1.spin →
-        v.now = w.now ∧ v.spin = w.spin ∧ (d ≠ some 0 → NoDue v) ∧
-        (d = some 0 → dueCount w.now v.tm.heap + 1 = dueCount w.now w.tm.heap) ∧
-        (v.tm.trig = false → ∀ x ∈ v.tm.heap, w.now + w.timeout d ≤ max x.time w.now) := by
-      intro v hvtm hvnow hvspin
-      have hcount : dueCount w.now tm'.heap + 1 = dueCount w.now w.tm.heap := by
-        unfold dueCount
-        rw [hperm.countP_eq, List.countP_cons]
-        simp [hdue]
-      refine ⟨by rw [hvnow, hnow], by rw [hvspin, hspin], ?_, ?_, ?_⟩
-      · intro hd x hx
-        rw [hvnow, hnow]
-        have hrest : ∀ y ∈ tm'.heap, w.now < y.time := by
-          intro y hy
-          obtain ⟨dd, hdd, _, h2⟩ := hdelta y hy
-          apply h2; intro h0; rw [hdd, h0] at hd; exact hd rfl
-        rw [hvtm] at hx
-        rcases hheap with hh | ⟨_, t, c, ht, hh⟩
-        · rw [hh] at hx; exact hrest x hx
-        · rw [hh] at hx
-          rcases List.mem_cons.mp hx with rfl | hx'
-          · exact ht
-          · exact hrest x hx'
-      · intro _
-        rw [hvtm]
-        rcases hheap with hh | ⟨_, t, c, ht, hh⟩
-        · rw [hh]; exact hcount
-        · rw [hh]
-          have : dueCount w.now (⟨t, c, e.tid⟩ :: tm'.heap) = dueCount w.now tm'.heap := by
-            unfold dueCount
-            rw [List.countP_cons]
-            have : ¬ t ≤ w.now := by simp at ht; omega
-            simp [this]
-          simp only at this ⊢
-          rw [this]; exact hcount
-      · intro htrig x hx
-        rw [hvtm] at htrig hx
-        rcases hheap with hh | ⟨htr, _⟩
-        · rw [hh] at hx
-          obtain ⟨dd, hdd, h1, _⟩ := hdelta x hx
-          rw [hdd]; have := timeout_le w dd; omega
-        · rw [htr] at htrig; cases htrig
-    split
-    · exact key _ rfl rfl rfl
-    · exact key _ rfl rfl rfl
-
-theorem drain_same (w : World) (hp : Passive w) :
-    w.drain.tm.heap = w.tm.heap ∧ w.drain.now = w.now ∧ w.drain.spin = w.spin ∧ w.drain.running = w.running :=
-  ⟨(drain_keeps w hp.2).heap, (drain_keeps w hp.2).now, (drain_keeps w hp.2).spin, (drain_keeps w hp.2).running⟩
-
-/-- the `while delta == 0.0` loop with enough fuel runs to completion -/
-theorem runOnceLoop_complete (fuel : Nat) {w : World} (h : WInv w) (hp : Passive w)
-    (hfuel : dueCount w.now w.tm.heap < fuel) :
-    (w.runOnceLoop fuel).2 = true ∧ NoDue (w.runOnceLoop fuel).1 ∧ (w.runOnceLoop fuel).1.queue = [] ∧
-    (w.runOnceLoop fuel).1.now = w.now := by
-  induction fuel generalizing w with
-  | zero => omega
-  | succ n ih =>
-    unfold World.runOnceLoop
-    simp only
-    obtain ⟨hnow, _, hnd, hcnt, _⟩ := fireNext_spec h hp
-    have hp1 := fireNext_good hp
-    obtain ⟨dh, dn, _⟩ := drain_same w.fireNext.1 hp1
-    split
-    · rename_i hd
-      have hw := drain_winv (fireNext_winv h)
-      have := ih hw (drain_good hp1) (by rw [dh, dn, hnow]; have := hcnt hd; omega)
-      exact ⟨this.1, this.2.1, this.2.2.1, by rw [this.2.2.2, dn, hnow]⟩
-    · rename_i hd
-      refine ⟨rfl, ?_, drain_queue_empty _, by rw [dn, hnow]⟩
-      intro e he
-      rw [dh] at he; rw [dn]
-      exact hnd hd e he
-
-theorem dueCount_le_length (now : Nat) (h : List Entry) : dueCount now h ≤ h.length :=
-  List.countP_le_length
-
-/-- **run_once is complete** when the scripted code leaves the scheduler alone:
-    one iteration per heap entry, plus one, is enough fuel; on return nothing
-    queued is due and nothing is left in the deferred queue — whichever tasks or
-    deferred functions raised -/
-theorem runOnce_complete {w : World} (h : WInv w) (hp : Passive w) (fuel : Nat)
-    (hfuel : w.tm.heap.length < fuel) :
-    (w.runOnce fuel).2 = true ∧ NoDue (w.runOnce fuel).1 ∧ (w.runOnce fuel).1.queue = [] ∧
-    (w.runOnce fuel).1.now = w.now := by
-  unfold World.runOnce
-  exact runOnceLoop_complete _ h hp (by have := dueCount_le_length w.now w.tm.heap; omega)
-
-theorem runLoop_stopped {w : World} (n T : Nat) (hr : w.running = false) :
-    w.runLoop (n + 1) T = (w, 2) := by
-  rw [World.runLoop]; simp [hr]
-
-theorem runLoop_raised {w : World} (n T : Nat) (hrun : w.running = true) (hr : w.fireNext.2.2 = true) :
-    w.runLoop (n + 1) T = w.fireNext.1.runLoop n T := by
-  rw [World.runLoop]; simp [hrun, hr]
-
-theorem runLoop_trig {w : World} (n T : Nat) (hrun : w.running = true) (hr : w.fireNext.2.2 = false)
-    (ht : w.fireNext.1.tm.trig = true) :
-    w.runLoop (n + 1) T =
-      World.runLoop n T ({ w.fireNext.1 with tm := { w.fireNext.1.tm with trig := false } } : World).drain := by
-  rw [World.runLoop]; simp [hrun, hr, ht]
-
-theorem runLoop_stop {w : World} (n T : Nat) (hrun : w.running = true) (hr : w.fireNext.2.2 = false)
-    (ht : w.fireNext.1.tm.trig = false)
-    (hgt : w.fireNext.1.now + w.fireNext.1.timeout w.fireNext.2.1 > T) :
-    w.runLoop (n + 1) T =
-      (({ w.fireNext.1 with now := max w.fireNext.1.now T, running := false,
-                            tm := { w.fireNext.1.tm with trig := true } } : World).drain, 1) := by
-  rw [World.runLoop]; simp [hrun, hr, ht, hgt]
-
-theorem runLoop_wait {w : World} (n T : Nat) (hrun : w.running = true) (hr : w.fireNext.2.2 = false)
-    (ht : w.fireNext.1.tm.trig = false)
-    (hgt : ¬ w.fireNext.1.now + w.fireNext.1.timeout w.fireNext.2.1 > T) :
-    w.runLoop (n + 1) T =
-      World.runLoop n T ({ w.fireNext.1 with now := w.fireNext.1.now + w.fireNext.1.timeout w.fireNext.2.1 } : World).drain := by
-  rw [World.runLoop]; simp only [hrun, hr, ht, hgt]; simp
-
-/-- **run is complete** when the scripted code leaves the scheduler alone: the
-    loop is never stopped from inside (result code 2 does not occur), and if it
-    reaches the stub's `stop()` (result code 1) the clock is at `T`, nothing
-    queued is due at `T` and the deferred queue is empty — whichever tasks or
-    deferred functions raised -/
-theorem runLoop_complete (fuel T : Nat) {w : World} (h : WInv w) (hp : Passive w)
-    (hrun : w.running = true) (hT : w.now ≤ T) (hdone : (w.runLoop fuel T).2 ≠ 0) :
-    (w.runLoop fuel T).2 = 1 ∧
-    (w.runLoop fuel T).1.now = T ∧ NoDue (w.runLoop fuel T).1 ∧ (w.runLoop fuel T).1.queue = [] := by
-  induction fuel generalizing w with
-  | zero => simp [World.runLoop] at hdone
-  | succ n ih =>
-    obtain ⟨hnow, hspin, _, _, htrig⟩ := fireNext_spec h hp
-    have h1 := fireNext_winv h
-    have hp1 := fireNext_good hp
-    have hrun1 : w.fireNext.1.running = true := by rw [fireNext_running hp]; exact hrun
-    by_cases hr : w.fireNext.2.2 = true
-    · rw [runLoop_raised n T hrun hr] at hdone ⊢
-      exact ih h1 hp1 hrun1 (by rw [hnow]; exact hT) hdone
-    · have hr' : w.fireNext.2.2 = false := by simpa using hr
-      by_cases htr : w.fireNext.1.tm.trig = true
-      · rw [runLoop_trig n T hrun hr' htr] at hdone ⊢
-        have hw := drain_winv (setTrig_winv false h1)
-        have hp2 : Passive ({ w.fireNext.1 with tm := { w.fireNext.1.tm with trig := false } } : World) := hp1
-        obtain ⟨_, dn, _, dr⟩ := drain_same _ hp2
-        exact ih hw (drain_good hp2) (by rw [dr]; exact hrun1) (by rw [dn]; simp only; rw [hnow]; exact hT) hdone
-      · have htr' : w.fireNext.1.tm.trig = false := by simpa using htr
-        by_cases hgt : w.fireNext.1.now + w.fireNext.1.timeout w.fireNext.2.1 > T
-        · rw [runLoop_stop n T hrun hr' htr' hgt]
-          have hp2 : Passive ({ w.fireNext.1 with now := max w.fireNext.1.now T, running := false, tm := { w.fireNext.1.tm with trig := true } } : World) := hp1
-          obtain ⟨dh, dn, _, _⟩ := drain_same _ hp2
-          refine ⟨rfl, ?_, ?_, drain_queue_empty _⟩
-          · simp only; rw [dn]; simp only; rw [hnow]; omega
-          · intro e he
-            simp only at he ⊢
-            rw [dh] at he; rw [dn]
-            simp only at he ⊢
-            have := htrig htr' e he
-            have hto : w.fireNext.1.timeout w.fireNext.2.1 = w.timeout w.fireNext.2.1 := by
-              unfold World.timeout; rw [hspin]
-            rw [hnow, hto] at hgt
-            rw [hnow]; omega
-        · rw [runLoop_wait n T hrun hr' htr' hgt] at hdone ⊢
-          have hw := drain_winv (setNow_winv (w.fireNext.1.now + w.fireNext.1.timeout w.fireNext.2.1) h1)
-          have hp2 : Passive ({ w.fireNext.1 with now := w.fireNext.1.now + w.fireNext.1.timeout w.fireNext.2.1 } : World) := hp1
-          obtain ⟨_, dn, _, dr⟩ := drain_same _ hp2
-          exact ih hw (drain_good hp2) (by rw [dr]; exact hrun1) (by rw [dn]; simp only; omega) hdone
-/-! ## deferred functions: the call sequence does not depend on who raises -/
-
-/-- breadth-first ids of a submission forest — defined without looking at `raises` -/
-def bfs : Nat → List Fn → List Nat
-  | 0, _ => []
-  | fuel + 1, q =>
-    match q with
-    | [] => []
-    | _ => q.map Fn.id ++ bfs fuel (q.flatMap Fn.kids)
-
-theorem deferAll_calls (w : World) (fs : List Fn) :
-    (w.deferAll fs).calls = w.calls ∧ (w.deferAll fs).failed = w.failed := by
-  unfold World.deferAll
-  induction fs generalizing w with
-  | nil => exact ⟨rfl, rfl⟩
-  | cons f r ih => simp only [List.foldl_cons]; exact ih (w.defer f)
-
-theorem callFn_calls (w : World) (f : Fn) :
-    (w.callFn f).calls = w.calls ++ [f.id] ∧
-    (w.callFn f).failed = w.failed ++ (if f.raises then [f.id] else []) := by
-  unfold World.callFn
-  simp only
-  have hk := doActs_keepsQ ({ w with calls := w.calls ++ [f.id], out := w.out ++ [Ev.call f.id] } : World) f.acts
-  split <;> simp [deferAll_calls, hk.calls, hk.failed, *]
-
-theorem runBatch_calls (w : World) (b : List Fn) :
-    (w.runBatch b).calls = w.calls ++ b.map Fn.id ∧
-    (w.runBatch b).queue = w.queue ++ b.flatMap Fn.kids ∧
-    (w.runBatch b).failed = w.failed ++ (b.filter Fn.raises).map Fn.id := by
-  unfold World.runBatch
-  induction b generalizing w with
-  | nil => simp
-  | cons f r ih =>
-    simp only [List.foldl_cons]
-    obtain ⟨h1, h2, h3⟩ := ih (w.callFn f)
-    rw [h1, h2, h3, (callFn_calls w f).1, (callFn_calls w f).2, callFn_queue]
-    refine ⟨by simp, by simp, ?_⟩
-    cases hr : f.raises <;> simp [hr]
-
-/-- **deferred_isolated** (one batch): every member of the batch is called, in
-    order, and exactly the raising ones are logged — a raising member does not
-    cut the batch short -/
-theorem batch_isolated (w : World) (b : List Fn) :
-    (w.runBatch b).calls = w.calls ++ b.map Fn.id ∧
-    (w.runBatch b).failed = w.failed ++ (b.filter Fn.raises).map Fn.id :=
-  ⟨(runBatch_calls w b).1, (runBatch_calls w b).2.2⟩
-
-theorem drainFuel_calls (fuel : Nat) (w : World) :
-    (w.drainFuel fuel).calls = w.calls ++ bfs fuel w.queue := by
-  induction fuel generalizing w with
-  | zero => simp [World.drainFuel, bfs]
-  | succ n ih =>
-    unfold World.drainFuel bfs
-    cases hq : w.queue with
-    | nil => simp
-    | cons f r =>
-      simp only
-      rw [ih]
-      obtain ⟨h1, h2, _⟩ := runBatch_calls { w with queue := [] } (f :: r)
-      rw [h1, h2]
-      simp
-
-/-- the calls made by the drain loop are the breadth-first ids of the queue:
-    a function of the submission forest alone -/
-theorem drain_calls (w : World) : w.drain.calls = w.calls ++ bfs (weights w.queue) w.queue :=
-  drainFuel_calls _ w
-
-mutual
-  /-- the same function, not raising -/
-  def stripFn : Fn → Fn
-    | .mk i _ kids acts => .mk i false (stripAll kids) acts
-  def stripAll : List Fn → List Fn
-    | [] => []
-    | f :: r => stripFn f :: stripAll r
-end
-
-theorem stripAll_append (a b : List Fn) : stripAll (a ++ b) = stripAll a ++ stripAll b := by
-  induction a with
-  | nil => simp [stripAll]
-  | cons f r ih => simp [stripAll, ih]
-
-theorem strip_id (f : Fn) : (stripFn f).id = f.id := by cases f; simp [stripFn, Fn.id]
-theorem strip_kids (f : Fn) : (stripFn f).kids = stripAll f.kids := by cases f; simp [stripFn, Fn.kids]
-
-theorem stripAll_ids (q : List Fn) : (stripAll q).map Fn.id = q.map Fn.id := by
-  induction q with
-  | nil => simp [stripAll]
-  | cons f r ih => simp [stripAll, ih, strip_id]
-
-theorem stripAll_kids (q : List Fn) : (stripAll q).flatMap Fn.kids = stripAll (q.flatMap Fn.kids) := by
-  induction q with
-  | nil => simp [stripAll]
-  | cons f r ih => simp [stripAll, ih, strip_kids, stripAll_append]
-
-theorem stripAll_nil {q : List Fn} : stripAll q = [] ↔ q = [] := by
-  cases q <;> simp [stripAll]
-
-mutual
-  theorem strip_weight : ∀ f : Fn, (stripFn f).weight = f.weight
-    | .mk i r kids acts => by simp [stripFn, Fn.weight, stripAll_weights kids]
-  theorem stripAll_weights : ∀ q : List Fn, weights (stripAll q) = weights q
-    | [] => by simp [stripAll]
-    | f :: r => by simp [stripAll, weights, strip_weight f, stripAll_weights r]
-end
-
-theorem bfs_strip (fuel : Nat) (q : List Fn) : bfs fuel (stripAll q) = bfs fuel q := by
-  induction fuel generalizing q with
-  | zero => simp [bfs]
-  | succ n ih =>
-    unfold bfs
-    cases q with
-    | nil => simp [stripAll]
-    | cons f r =>
-      have : stripAll (f :: r) = stripFn f :: stripAll r := by simp [stripAll]
-      rw [this]
-      simp only
-      rw [← this, stripAll_ids, stripAll_kids, ih]
-
-/-- **deferred_isolated** — for EVERY choice of raising members (at any depth
-    of deferral) the drain loop makes exactly the calls it makes when nobody
-    raises, in the same order -/
-theorem deferred_isolated (w : World) :
-    w.drain.calls = ({ w with queue := stripAll w.queue } : World).drain.calls := by
-  rw [drain_calls, drain_calls]
-  simp only
-  rw [stripAll_weights, bfs_strip]
-
-/-! ## the exactly-once clauses after a complete pass
-
-  Hypothesis of this section: the scripted code leaves the scheduler alone
-  (`Passive`, and `goodOp noAct` for the functions deferred by the history).
-  For bodies that install tasks themselves the statements are false of the
-  code as it stands — `run_once` decides whether to go round again before the
-  body runs, so a task installed for "now" by the last body of a pass waits
-  for the next pass — and the harness oracle checks the weaker form (what was
-  pending and due at the start of the pass has fired). -/
-
-/-- after `clock += d; run_once()` in any reachable state: the pass completes,
-    nothing queued is due, the deferred queue is empty and every function ever
-    submitted has been called exactly once in submission order -/
-theorem advOnce_complete {w : World} (hw : Fresh w) (hp : Passive w) (ops : List Op)
-    (hops : ∀ op ∈ ops, goodOp noAct op = true) (d fuel : Nat)
-    (hfuel : (w.run ops).tm.heap.length < fuel) :
-    let v := ((w.run ops).step (.advOnce d fuel))
-    v.2 = some 1 ∧ NoDue v.1 ∧ v.1.queue = [] ∧ v.1.calls = v.1.subs := by
-  intro v
-  have h0 : WInv ({ w.run ops with now := (w.run ops).now + d } : World) := setNow_winv _ (reachable_winv hw ops)
-  have hp0 : Passive ({ w.run ops with now := (w.run ops).now + d } : World) := run_good ops hp hops
-  obtain ⟨h1, h2, h3, _⟩ := runOnce_complete h0 hp0 fuel hfuel
-  have hv : WInv v.1 := step_winv _ (reachable_winv hw ops)
-  have hf := hv.fifo
-  unfold DInv at hf
-  refine ⟨?_, h2, h3, ?_⟩
-  · show some (if (World.runOnce _ fuel).2 then 1 else 0) = some 1
-    rw [h1]; rfl
-  · have h3' : v.1.queue = [] := h3
-    rw [hf, h3']; simp
-
-/-- the same for `run()` until `now + d`, provided the fuel did not run out:
-    the loop was stopped by the stub at `now + d` (never from inside) -/
-theorem advRun_complete {w : World} (hw : Fresh w) (hp : Passive w) (ops : List Op)
-    (hops : ∀ op ∈ ops, goodOp noAct op = true) (d fuel : Nat)
-    (hdone : ((w.run ops).step (.advRun d fuel)).2 ≠ some 0) :
-    let v := ((w.run ops).step (.advRun d fuel))
-    v.2 = some 1 ∧ v.1.now = (w.run ops).now + d ∧ NoDue v.1 ∧ v.1.queue = [] ∧ v.1.calls = v.1.subs := by
-  intro v
-  have h0 : WInv ({ w.run ops with running := true } : World) := setRunning_winv true (reachable_winv hw ops)
-  have hp0 : Passive ({ w.run ops with running := true } : World) := run_good ops hp hops
-  have hd : (({ w.run ops with running := true } : World).runLoop fuel ((w.run ops).now + d)).2 ≠ 0 := by
-    intro h; apply hdone
-    show some (({ w.run ops with running := true } : World).runLoop fuel ((w.run ops).now + d)).2 = some 0
-    rw [h]
-  obtain ⟨h1, h2, h3, h4⟩ := runLoop_complete fuel _ h0 hp0 rfl (Nat.le_add_right _ _) hd
-  have hv : WInv v.1 := step_winv _ (reachable_winv hw ops)
-  have hf := hv.fifo
-  unfold DInv at hf
-  refine ⟨?_, h2, h3, h4, ?_⟩
-  · show some (({ w.run ops with running := true } : World).runLoop fuel ((w.run ops).now + d)).2 = some 1
-    rw [h1]
-  · have h4' : v.1.queue = [] := h4
-    rw [hf, h4']; simp
-
-/-- **once_per_install** (exactly once): after a complete pass, every
-    installation ever made has either fired (once: `once_per_install`), or was
-    deleted by suspend_task / replaced by a re-install, or is queued for a time
-    that has not come yet -/
-theorem fires_exactly_once {w : World} (hw : Fresh w) (hp : Passive w) (ops : List Op)
-    (hops : ∀ op ∈ ops, goodOp noAct op = true) (d fuel : Nat)
-    (hfuel : (w.run ops).tm.heap.length < fuel) (s : Nat) :
-    let v := ((w.run ops).step (.advOnce d fuel)).1
-    s < v.tm.counter →
-      s ∈ v.fired.map (·.seq) ∨ s ∈ v.tm.removed ∨ ∃ e ∈ v.tm.heap, e.seq = s ∧ v.now < e.time := by
-  intro v hs
-  have hv : WInv v := step_winv _ (reachable_winv hw ops)
-  have hnd : NoDue v := (advOnce_complete hw hp ops hops d fuel hfuel).2.1
-  have := hv.sched.part.mem_iff.mpr (List.mem_range.mpr hs)
-  simp only [List.mem_append] at this
-  rcases this with (h | h) | h
-  · obtain ⟨e, he, rfl⟩ := List.mem_map.mp h
-    exact Or.inr (Or.inr ⟨e, he, rfl, hnd e he⟩)
-  · exact Or.inl h
-  · exact Or.inr (Or.inl h)
-
-/-! ## one pass of run_once fires in sorted order
-
-  The plain reading of the first clause: the firings of a single `run_once()`
-  pass — whatever the history before it — are strictly sorted by
-  `(due time, installation number)`, all at the time of the pass. -/
-
-/-- everything installed since the counter was `c0` lies in the future -/
-def Late (c0 : Nat) (w : World) : Prop := ∀ e ∈ w.tm.heap, c0 ≤ e.seq → w.now < e.time
-
-/-- the firings appended since `w` all belong to installations older than `c0`,
-    were made with the counter at `c0` or later, at time `t` -/
-def NewFires (c0 t : Nat) (w w' : World) : Prop :=
-  ∃ new, w'.fired = w.fired ++ new ∧ ∀ f ∈ new, f.seq < c0 ∧ c0 ≤ f.ctr ∧ f.now = t
-
-theorem NewFires.refl (c0 t : Nat) (w : World) : NewFires c0 t w w := ⟨[], by simp, by simp⟩
-
-theorem NewFires.trans {c0 t : Nat} {a b c : World} (h1 : NewFires c0 t a b) (h2 : NewFires c0 t b c) :
-    NewFires c0 t a c := by
-  obtain ⟨n1, e1, p1⟩ := h1
-  obtain ⟨n2, e2, p2⟩ := h2
-  refine ⟨n1 ++ n2, by rw [e2, e1, List.append_assoc], ?_⟩
-  intro f hf
-  rcases List.mem_append.mp hf with h | h
-  · exact p1 f h
-  · exact p2 f h
-
-theorem keeps_newFires {c0 t : Nat} {w w' : World} (hk : Keeps w w') : NewFires c0 t w w' :=
-  ⟨[], by rw [hk.fired]; simp, by simp⟩
-
-theorem process_fired (w : World) (e : Entry) :
-    (w.process e).1.fired = w.fired ++ [⟨e.tid, e.time, e.seq, w.now, w.tm.counter⟩] := by
-  unfold World.process
-  simp only
-  generalize hw1 : ({ w with fired := w.fired ++ [Fire.mk e.tid e.time e.seq w.now w.tm.counter],
-                             out := w.out ++ [Ev.fire e.tid w.now e.time e.seq] } : World) = w1
-  have hk1 := doActs_keepsQ w1 (w.body e.tid).acts
-  have hk := deferAll_keeps (w1.doActs (w.body e.tid).acts) (w.body e.tid).defers
-  have : (World.deferAll (w1.doActs (w.body e.tid).acts) (w.body e.tid).defers).fired
-      = w.fired ++ [⟨e.tid, e.time, e.seq, w.now, w.tm.counter⟩] := by
-    rw [hk.fired, hk1.fired, ← hw1]
-  split <;> exact this
-
-theorem getNext_counter {tm tm' : TM} {now : Nat} {e? : Option Entry} {d : Option Nat}
-    (hg : tm.getNext now = (e?, d, tm')) : tm'.counter = tm.counter := by
-  unfold TM.getNext at hg
-  split at hg
-  · simp only [Prod.mk.injEq] at hg; obtain ⟨_, _, rfl⟩ := hg; rfl
-  · split at hg
-    · simp only [Prod.mk.injEq] at hg; obtain ⟨_, _, rfl⟩ := hg; rfl
-    · simp only [Prod.mk.injEq] at hg; obtain ⟨_, _, rfl⟩ := hg; rfl
-
-theorem fireNext_late {c0 : Nat} {w : World} (h : WInv w) (hp : Passive w) (hl : Late c0 w)
-    (hc : c0 ≤ w.tm.counter) :
-    Late c0 w.fireNext.1 ∧ NewFires c0 w.now w w.fireNext.1 ∧ c0 ≤ w.fireNext.1.tm.counter := by
-  have hw' := fireNext_winv h
-  obtain ⟨hnow, _, _, _, _⟩ := fireNext_spec h hp
-  unfold World.fireNext at hw' hnow ⊢
-  rcases hg : w.tm.getNext w.now with ⟨e?, d, tm'⟩
-  rw [hg] at hw' hnow
-  cases e? with
-  | none =>
-    simp only at hw' hnow ⊢
-    obtain ⟨rfl, _, _, _⟩ := getNext_none hg
-    exact ⟨hl, NewFires.refl _ _ _, hc⟩
-  | some e =>
-    simp only at hw' hnow ⊢
-    obtain ⟨_, hdue, hmem, hperm, _⟩ := getNext_some h.sched hg
-    have hctr := getNext_counter hg
-    have hseq : e.seq < c0 := by
-      rcases Nat.lt_or_ge e.seq c0 with h1 | h1
-      · exact h1
-      · have := hl e hmem h1; omega
-    have hfl : tm'.flag e.tid = false := by
-      unfold TM.getNext at hg
-      split at hg
-      · simp at hg
-      · split at hg
-        · simp only [Prod.mk.injEq, Option.some.injEq] at hg
-          obtain ⟨rfl, _, rfl⟩ := hg
-          simp [upd]
-        · simp at hg
-    obtain ⟨_, _, hheap⟩ := process_heap (w := { w with tm := tm' }) (e := e) (hp.body_acts e.tid) hfl
-    have hfired := process_fired { w with tm := tm' } e
-    have key : ∀ v : World, v.tm = (World.process { w with tm := tm' } e).1.tm →
-        v.fired = (World.process { w with tm := tm' } e).1.fired → v.now = w.now → WInv v →
-        Late c0 v ∧ NewFires c0 w.now w v ∧ c0 ≤ v.tm.counter := by
-      intro v hvtm hvf hvnow hwv
-      have hcv : c0 ≤ v.tm.counter := by
-        -- the counter never decreases: the new firing record carries it
-        have hmemf : (⟨e.tid, e.time, e.seq, w.now, tm'.counter⟩ : Fire) ∈ v.fired := by
-          rw [hvf, hfired]; simp
-        have := (hwv.sched.fired_ctr _ hmemf).2
-        simp only at this; omega
-      refine ⟨?_, ⟨[⟨e.tid, e.time, e.seq, w.now, tm'.counter⟩], by rw [hvf, hfired], ?_⟩, hcv⟩
-      · intro x hx hcx
-        rw [hvtm] at hx; rw [hvnow]
-        have hrest : ∀ y ∈ tm'.heap, c0 ≤ y.seq → w.now < y.time := fun y hy hcy =>
-          hl y (hperm.mem_iff.mpr (List.mem_cons_of_mem _ hy)) hcy
-        rcases hheap with hh | ⟨_, t, c, ht, hh⟩
-        · rw [hh] at hx; exact hrest x hx hcx
-        · rw [hh] at hx
-          rcases List.mem_cons.mp hx with rfl | hx'
-          · exact ht
-          · exact hrest x hx' hcx
-      · intro f hf
-        simp at hf; subst hf
-        simp only
-        exact ⟨hseq, by omega, trivial⟩
-    split
-    · rename_i hr
-      simp only [hr, if_true] at hw' hnow
-      exact key _ rfl rfl hnow hw'
-    · rename_i hr
-      simp only [hr] at hw' hnow
-      exact key _ rfl rfl hnow hw'
-
-theorem runOnceLoop_late (fuel : Nat) {c0 : Nat} {w : World} (h : WInv w) (hp : Passive w)
-    (hl : Late c0 w) (hc : c0 ≤ w.tm.counter) : NewFires c0 w.now w (w.runOnceLoop fuel).1 := by
-  induction fuel generalizing w with
-  | zero => exact NewFires.refl _ _ _
-  | succ n ih =>
-    unfold World.runOnceLoop
-    simp only
-    obtain ⟨hl1, hn1, hc1⟩ := fireNext_late h hp hl hc
-    obtain ⟨hnow, _⟩ := fireNext_spec h hp
-    have hp1 := fireNext_good hp
-    have hk := drain_keeps w.fireNext.1 hp1.2
-    have hn2 : NewFires c0 w.now w w.fireNext.1.drain := hn1.trans (keeps_newFires hk)
-    split
-    · have hw := drain_winv (fireNext_winv h)
-      have hl2 : Late c0 w.fireNext.1.drain := by
-        intro x hx hcx; rw [hk.heap] at hx; rw [hk.now]; exact hl1 x hx hcx
-      have := ih hw (drain_good hp1) hl2 (by rw [hk.counter]; exact hc1)
-      rw [hk.now, hnow] at this
-      exact hn2.trans this
-    · exact hn2
-
-/-- **fire_order, one pass** — the firings of a `run_once()` pass in any
-    reachable state are strictly sorted by `(due, installation number)`, and all
-    happen at the time of the pass (bodies that leave the scheduler alone; a
-    body that installs a task in the past may of course make it fire after a
-    later-due one) -/
-theorem runOnce_pass_sorted {w : World} (h : WInv w) (hp : Passive w) (fuel : Nat) :
-    ∃ new, (w.runOnce fuel).1.fired = w.fired ++ new ∧
-      new.Pairwise (fun f g => keyLt f.due f.seq g.due g.seq) ∧ ∀ f ∈ new, f.now = w.now ∧ f.due ≤ w.now := by
-  have hl : Late w.tm.counter w := by
-    intro e he hce; have := h.sched.heap_seq_lt he; omega
-  obtain ⟨new, hnew, hq⟩ := runOnceLoop_late fuel h hp hl (Nat.le_refl _)
-  refine ⟨new, hnew, ?_, ?_⟩
-  · have hord := (runOnceLoop_winv fuel h).sched.order
-    rw [hnew] at hord
-    have := (List.pairwise_append.mp hord).2.1
-    refine List.Pairwise.imp_of_mem ?_ this
-    intro f g hf hg hfg
-    exact hfg (by have := hq f hf; have := hq g hg; omega)
-  · intro f hf
-    have hearly := (runOnceLoop_winv fuel h).sched.early f (by rw [hnew]; exact List.mem_append_right _ hf)
-    have := (hq f hf).2.2
-    exact ⟨this, by omega⟩
-
 /-! ## refinement: the heap-as-a-list is an abstract sorted multiset of deadlines
 
   The abstract scheduler is a list of entries sorted by `(time, seq)`:
@@ -2554,11 +846,2176 @@ theorem refine_suspend {tm : TM} {fired : List Fire} (h : SInv tm fired) (tid : 
     obtain ⟨hx, hperm⟩ := removeTid_some hr
     exact Or.inl ⟨x, hx, refine_remove hperm h.seq_nodup⟩
 
+/-! ## the world: frame lemmas for the deferred side
+
+  From here on everything is parametric in `[Pump]` — what a nested
+  `core.run_once()` called from inside a callback does — and assumes of it only
+  `PumpOK` below.  `pumpAt_ok` (end of the file) shows that the real thing,
+  `pumpAt depth` = "`runOnceLoop` again, one level down", satisfies it at every
+  depth. -/
+
+set_option linter.unusedSectionVars false
+
+section Parametric
+
+variable [Pump]
+
+/-- the manager without the wake-up flag -/
+def schedOf (tm : TM) : TM := { tm with trig := false }
+
+/-- everything the schedule theorems look at -/
+def coreOf (w : World) : TM × List Fire × Nat × (Nat → Bool) × (Nat → Body) × Nat × Bool :=
+  (schedOf w.tm, w.fired, w.now, w.recurring, w.body, w.spin, w.running)
+
+/-- `w'` differs from `w` at most in the deferred side (queue, logs) and the wake-up flag -/
+def Keeps (w w' : World) : Prop := coreOf w' = coreOf w
+
+omit [Pump] in
+theorem Keeps.refl (w : World) : Keeps w w := rfl
+omit [Pump] in
+theorem Keeps.trans {a b c : World} (h1 : Keeps a b) (h2 : Keeps b c) : Keeps a c :=
+  Eq.trans h2 h1
+
+omit [Pump] in
+theorem Keeps.tm {w w' : World} (h : Keeps w w') : schedOf w'.tm = schedOf w.tm := congrArg (·.1) h
+theorem Keeps.heap {w w' : World} (h : Keeps w w') : w'.tm.heap = w.tm.heap := by have := congrArg TM.heap h.tm; exact this
+theorem Keeps.counter {w w' : World} (h : Keeps w w') : w'.tm.counter = w.tm.counter := by have := congrArg TM.counter h.tm; exact this
+theorem Keeps.flag {w w' : World} (h : Keeps w w') : w'.tm.flag = w.tm.flag := by have := congrArg TM.flag h.tm; exact this
+theorem Keeps.removed {w w' : World} (h : Keeps w w') : w'.tm.removed = w.tm.removed := by have := congrArg TM.removed h.tm; exact this
+theorem Keeps.ttime {w w' : World} (h : Keeps w w') : w'.tm.ttime = w.tm.ttime := by have := congrArg TM.ttime h.tm; exact this
+theorem Keeps.ival {w w' : World} (h : Keeps w w') : w'.tm.ival = w.tm.ival := by have := congrArg TM.ival h.tm; exact this
+theorem Keeps.ioff {w w' : World} (h : Keeps w w') : w'.tm.ioff = w.tm.ioff := by have := congrArg TM.ioff h.tm; exact this
+theorem Keeps.jitter {w w' : World} (h : Keeps w w') : w'.tm.jitter = w.tm.jitter := by have := congrArg TM.jitter h.tm; exact this
+omit [Pump] in
+theorem Keeps.fired {w w' : World} (h : Keeps w w') : w'.fired = w.fired := congrArg (·.2.1) h
+omit [Pump] in
+theorem Keeps.now {w w' : World} (h : Keeps w w') : w'.now = w.now := congrArg (·.2.2.1) h
+omit [Pump] in
+theorem Keeps.recurring {w w' : World} (h : Keeps w w') : w'.recurring = w.recurring := congrArg (·.2.2.2.1) h
+omit [Pump] in
+theorem Keeps.body {w w' : World} (h : Keeps w w') : w'.body = w.body := congrArg (·.2.2.2.2.1) h
+omit [Pump] in
+theorem Keeps.spin {w w' : World} (h : Keeps w w') : w'.spin = w.spin := congrArg (·.2.2.2.2.2.1) h
+omit [Pump] in
+theorem Keeps.running {w w' : World} (h : Keeps w w') : w'.running = w.running := congrArg (·.2.2.2.2.2.2) h
+
+theorem Keeps.sinv {w w' : World} (h : Keeps w w') (hs : SInv w.tm w.fired) : SInv w'.tm w'.fired := by
+  rw [h.fired]; exact hs.congr h.heap h.counter h.flag h.removed
+
+/-! ### re-entrant use of the scheduler (`Act`) and bodies that leave it alone -/
+
+/-- acts other than pumping the loop -/
+def noPump : Act → Bool
+  | .pump _ => false
+  | _ => true
+
+/-- every id ever submitted is, exactly once, either called, or owed by an
+    enclosing batch that is being called right now (the frame `R`), or queued —
+    as multisets: a callback that pumps the loop changes the ORDER of calls
+    (`DInv` below keeps the order, for callbacks that do not pump) -/
+def DPermR (R : List Nat) (w : World) : Prop := (w.calls ++ R ++ w.queue.map Fn.id).Perm w.subs
+
+/-- what the theorems assume of a nested pass: it preserves the schedule
+    invariant and the exactly-once invariant of the deferred queue, whatever
+    batches enclose it -/
+class PumpOK : Prop where
+  sinv : ∀ (fuel : Nat) (w : World), SInv w.tm w.fired →
+    SInv (Pump.pump fuel w).tm (Pump.pump fuel w).fired
+  dperm : ∀ (fuel : Nat) (R : List Nat) (w : World), DPermR R w → DPermR R (Pump.pump fuel w)
+
+variable [hok : PumpOK]
+include hok
+
+/-- everything but the manager, the event log and `running` -/
+def restOf (w : World) :
+    List Fn × List Nat × List Nat × List Nat × List Fire × Nat × (Nat → Bool) × (Nat → Body) × Nat :=
+  (w.queue, w.calls, w.subs, w.failed, w.fired, w.now, w.recurring, w.body, w.spin)
+
+/-- `w'` differs from `w` at most in the manager, the event log and `running` -/
+def KeepsQ (w w' : World) : Prop := restOf w' = restOf w
+
+omit [Pump] hok in
+theorem KeepsQ.refl (w : World) : KeepsQ w w := rfl
+omit [Pump] hok in
+theorem KeepsQ.trans {a b c : World} (h1 : KeepsQ a b) (h2 : KeepsQ b c) : KeepsQ a c := Eq.trans h2 h1
+omit [Pump] hok in
+theorem KeepsQ.queue {w w' : World} (h : KeepsQ w w') : w'.queue = w.queue := congrArg (·.1) h
+omit [Pump] hok in
+theorem KeepsQ.calls {w w' : World} (h : KeepsQ w w') : w'.calls = w.calls := congrArg (·.2.1) h
+omit [Pump] hok in
+theorem KeepsQ.subs {w w' : World} (h : KeepsQ w w') : w'.subs = w.subs := congrArg (·.2.2.1) h
+omit [Pump] hok in
+theorem KeepsQ.failed {w w' : World} (h : KeepsQ w w') : w'.failed = w.failed := congrArg (·.2.2.2.1) h
+omit [Pump] hok in
+theorem KeepsQ.fired {w w' : World} (h : KeepsQ w w') : w'.fired = w.fired := congrArg (·.2.2.2.2.1) h
+omit [Pump] hok in
+theorem KeepsQ.now {w w' : World} (h : KeepsQ w w') : w'.now = w.now := congrArg (·.2.2.2.2.2.1) h
+omit [Pump] hok in
+theorem KeepsQ.recurring {w w' : World} (h : KeepsQ w w') : w'.recurring = w.recurring := congrArg (·.2.2.2.2.2.2.1) h
+omit [Pump] hok in
+theorem KeepsQ.body {w w' : World} (h : KeepsQ w w') : w'.body = w.body := congrArg (·.2.2.2.2.2.2.2.1) h
+omit [Pump] hok in
+theorem KeepsQ.spin {w w' : World} (h : KeepsQ w w') : w'.spin = w.spin := congrArg (·.2.2.2.2.2.2.2.2) h
+
+omit hok in
+theorem act_keepsQ (w : World) (a : Act) (ha : noPump a = true) : KeepsQ w (w.act a) := by
+  cases a with
+  | pump fuel => simp [noPump] at ha
+  | installAt tid t => rfl
+  | installAfter tid d => rfl
+  | suspend tid => rfl
+  | stop => rfl
+
+theorem doActs_keepsQ (w : World) (as : List Act) (ha : as.all noPump = true) : KeepsQ w (w.doActs as) := by
+  unfold World.doActs
+  induction as generalizing w with
+  | nil => exact KeepsQ.refl w
+  | cons a r ih =>
+    simp only [List.all_cons, Bool.and_eq_true] at ha
+    exact (act_keepsQ w a ha.1).trans (ih (w.act a) ha.2)
+
+/-- whatever a body does to the manager, the schedule invariant survives: the
+    acts are the manager's own API -/
+theorem act_sinv {w : World} (a : Act) (h : SInv w.tm w.fired) : SInv (w.act a).tm (w.act a).fired := by
+  cases a with
+  | installAt tid t => exact installTask_inv _ _ _ _ h
+  | installAfter tid d => exact installTask_inv _ _ _ _ h
+  | suspend tid => exact suspend_inv tid h
+  | stop => exact h.congr rfl rfl rfl rfl
+  | pump fuel => exact PumpOK.sinv fuel _ h
+
+theorem doActs_sinv {w : World} (as : List Act) (h : SInv w.tm w.fired) :
+    SInv (w.doActs as).tm (w.doActs as).fired := by
+  unfold World.doActs
+  induction as generalizing w with
+  | nil => exact h
+  | cons a r ih => exact ih (act_sinv a h)
+
+omit hok in
+theorem doActs_nil (w : World) : w.doActs [] = w := rfl
+
+mutual
+  /-- every act of the function, and of everything it defers, satisfies `pa` -/
+  def goodFn (pa : Act → Bool) : Fn → Bool
+    | .mk _ _ kids acts => acts.all pa && goodAll pa kids
+  def goodAll (pa : Act → Bool) : List Fn → Bool
+    | [] => true
+    | f :: r => goodFn pa f && goodAll pa r
+end
+
+omit [Pump] hok in
+theorem goodFn_acts {pa : Act → Bool} {f : Fn} (h : goodFn pa f = true) :
+    f.acts.all pa = true ∧ goodAll pa f.kids = true := by
+  cases f with
+  | mk i r kids acts => simpa [goodFn, Fn.acts, Fn.kids] using h
+
+omit [Pump] hok in
+theorem goodAll_append (pa : Act → Bool) (a b : List Fn) :
+    goodAll pa (a ++ b) = (goodAll pa a && goodAll pa b) := by
+  induction a with
+  | nil => simp [goodAll]
+  | cons f r ih => simp [goodAll, ih, Bool.and_assoc]
+
+omit [Pump] hok in
+theorem goodAll_cons {pa : Act → Bool} {f : Fn} {r : List Fn} (h : goodAll pa (f :: r) = true) :
+    goodFn pa f = true ∧ goodAll pa r = true := by
+  simpa [goodAll] using h
+
+mutual
+  theorem goodFn_mono {pa pb : Act → Bool} (h : ∀ a, pa a = true → pb a = true) :
+      ∀ f : Fn, goodFn pa f = true → goodFn pb f = true
+    | .mk i r kids acts => by
+      simp only [goodFn, Bool.and_eq_true]
+      intro ⟨h1, h2⟩
+      refine ⟨?_, goodAll_mono h kids h2⟩
+      rw [List.all_eq_true] at h1 ⊢
+      exact fun a ha => h a (h1 a ha)
+  theorem goodAll_mono {pa pb : Act → Bool} (h : ∀ a, pa a = true → pb a = true) :
+      ∀ q : List Fn, goodAll pa q = true → goodAll pb q = true
+    | [] => fun _ => rfl
+    | f :: r => by
+      simp only [goodAll, Bool.and_eq_true]
+      intro ⟨h1, h2⟩
+      exact ⟨goodFn_mono h f h1, goodAll_mono h r h2⟩
+end
+
+/-- predicates on acts that rule out pumping the loop -/
+class NoPumpP (pa : Act → Bool) : Prop where
+  out : ∀ a, pa a = true → noPump a = true
+
+omit [Pump] hok in
+theorem all_noPump {pa : Act → Bool} [hpa : NoPumpP pa] {as : List Act} (h : as.all pa = true) :
+    as.all noPump = true := by
+  rw [List.all_eq_true] at h ⊢
+  exact fun a ha => hpa.out a (h a ha)
+
+instance noPumpP_noPump : NoPumpP noPump := ⟨fun _ h => h⟩
+
+/-- a queue good for a predicate that rules out pumping is a queue of functions that do not pump -/
+theorem goodAll_noPump {pa : Act → Bool} [hpa : NoPumpP pa] {q : List Fn} (h : goodAll pa q = true) :
+    goodAll noPump q = true := goodAll_mono hpa.out q h
+
+/-- "leaves the scheduler alone": no acts at all -/
+def noAct : Act → Bool := fun _ => false
+
+instance noPumpP_noAct : NoPumpP noAct := ⟨fun _ h => by simp [noAct] at h⟩
+
+omit [Pump] hok in
+theorem all_noAct {as : List Act} (h : as.all noAct = true) : as = [] := by
+  cases as with
+  | nil => rfl
+  | cons a r => simp [noAct] at h
+
+abbrev allPassive : List Fn → Bool := goodAll noAct
+abbrev passiveFn : Fn → Bool := goodFn noAct
+
+theorem passiveFn_acts {f : Fn} (h : passiveFn f = true) : f.acts = [] ∧ allPassive f.kids = true :=
+  ⟨all_noAct (goodFn_acts h).1, (goodFn_acts h).2⟩
+
+theorem allPassive_append (a b : List Fn) : allPassive (a ++ b) = (allPassive a && allPassive b) :=
+  goodAll_append noAct a b
+
+theorem allPassive_cons {f : Fn} {r : List Fn} (h : allPassive (f :: r) = true) :
+    passiveFn f = true ∧ allPassive r = true := goodAll_cons h
+
+omit [Pump] hok in
+theorem emit_keeps (w : World) (e : Ev) : Keeps w (w.emit e) := rfl
+omit [Pump] hok in
+theorem defer_keeps (w : World) (f : Fn) : Keeps w (w.defer f) := rfl
+
+theorem deferAll_keeps (w : World) (fs : List Fn) : Keeps w (w.deferAll fs) := by
+  unfold World.deferAll
+  induction fs generalizing w with
+  | nil => exact Keeps.refl w
+  | cons f r ih => exact (defer_keeps w f).trans (ih (w.defer f))
+
+omit [Pump] hok in
+theorem defer_queue (w : World) (f : Fn) : (w.defer f).queue = w.queue ++ [f] := rfl
+
+theorem deferAll_queue (w : World) (fs : List Fn) : (w.deferAll fs).queue = w.queue ++ fs := by
+  unfold World.deferAll
+  induction fs generalizing w with
+  | nil => simp
+  | cons f r ih => simp only [List.foldl_cons]; rw [ih, defer_queue]; simp
+
+theorem callFn_queue (w : World) (f : Fn) (hf : f.acts.all noPump = true) :
+    (w.callFn f).queue = w.queue ++ f.kids := by
+  unfold World.callFn
+  simp only
+  have hq := (doActs_keepsQ ({ w with calls := w.calls ++ [f.id], out := w.out ++ [Ev.call f.id] } : World) f.acts hf).queue
+  split <;> simp [deferAll_queue, hq]
+
+theorem callFn_qgood {pa : Act → Bool} [NoPumpP pa] {w : World} {f : Fn} (hf : goodFn pa f = true)
+    (hq : goodAll pa w.queue = true) : goodAll pa (w.callFn f).queue = true := by
+  rw [callFn_queue w f (all_noPump (goodFn_acts hf).1), goodAll_append, hq, (goodFn_acts hf).2]; rfl
+
+theorem runBatch_qgood {pa : Act → Bool} [NoPumpP pa] {w : World} (b : List Fn)
+    (hb : goodAll pa b = true) (hq : goodAll pa w.queue = true) : goodAll pa (w.runBatch b).queue = true := by
+  unfold World.runBatch
+  induction b generalizing w with
+  | nil => exact hq
+  | cons f r ih =>
+    obtain ⟨hf, hr⟩ := goodAll_cons hb
+    exact ih hr (callFn_qgood hf hq)
+
+theorem callFn_keeps (w : World) (f : Fn) (hf : f.acts = []) : Keeps w (w.callFn f) := by
+  unfold World.callFn
+  rw [hf]
+  simp only [doActs_nil]
+  split
+  · exact Keeps.trans (b := World.deferAll { w with calls := w.calls ++ [f.id], out := w.out ++ [Ev.call f.id] } f.kids)
+      (Keeps.trans (b := { w with calls := w.calls ++ [f.id], out := w.out ++ [Ev.call f.id] }) rfl (deferAll_keeps _ _)) rfl
+  · exact Keeps.trans (b := { w with calls := w.calls ++ [f.id], out := w.out ++ [Ev.call f.id] }) rfl (deferAll_keeps _ _)
+
+theorem callFn_passive {w : World} {f : Fn} (hf : passiveFn f = true) (hq : allPassive w.queue = true) :
+    allPassive (w.callFn f).queue = true := by
+  exact callFn_qgood hf hq
+
+theorem runBatch_keeps (w : World) (b : List Fn) (hb : allPassive b = true) (hq : allPassive w.queue = true) :
+    Keeps w (w.runBatch b) ∧ allPassive (w.runBatch b).queue = true := by
+  unfold World.runBatch
+  induction b generalizing w with
+  | nil => exact ⟨Keeps.refl w, hq⟩
+  | cons f r ih =>
+    obtain ⟨hf, hr⟩ := allPassive_cons hb
+    have := ih (w.callFn f) hr (callFn_passive hf hq)
+    exact ⟨(callFn_keeps w f (passiveFn_acts hf).1).trans this.1, this.2⟩
+
+theorem drainFuel_keeps (fuel : Nat) (w : World) (hq : allPassive w.queue = true) :
+    Keeps w (w.drainFuel fuel) ∧ allPassive (w.drainFuel fuel).queue = true := by
+  induction fuel generalizing w with
+  | zero => exact ⟨Keeps.refl w, hq⟩
+  | succ n ih =>
+    unfold World.drainFuel
+    split
+    · exact ⟨Keeps.refl w, hq⟩
+    · have h1 := runBatch_keeps { w with queue := [] } w.queue hq rfl
+      have h2 := ih _ h1.2
+      exact ⟨Keeps.trans (b := { w with queue := [] }) rfl (h1.1.trans h2.1), h2.2⟩
+
+/-- a drain of functions that leave the scheduler alone changes nothing the
+    schedule theorems look at -/
+theorem drain_keeps (w : World) (hq : allPassive w.queue = true) : Keeps w w.drain :=
+  (drainFuel_keeps _ w hq).1
+
+/-! ## the deferred queue: first in, first out, each exactly once -/
+
+/-- `subs` (ids in submission order) = ids already called ++ ids still queued -/
+def DInv (w : World) : Prop := w.subs = w.calls ++ w.queue.map Fn.id
+
+/-- the same in the middle of a batch: `rem` is the part of `fnlist` still to be called -/
+def DMid (w : World) (rem : List Fn) : Prop := w.subs = w.calls ++ rem.map Fn.id ++ w.queue.map Fn.id
+
+omit [Pump] hok in
+theorem defer_dmid {w : World} {rem : List Fn} (f : Fn) (h : DMid w rem) : DMid (w.defer f) rem := by
+  unfold DMid World.defer at *; simp [h]
+
+theorem deferAll_dmid {w : World} {rem : List Fn} (fs : List Fn) (h : DMid w rem) : DMid (w.deferAll fs) rem := by
+  unfold World.deferAll
+  induction fs generalizing w with
+  | nil => exact h
+  | cons f r ih => exact ih (defer_dmid f h)
+
+theorem callFn_dmid {w : World} {rem : List Fn} (f : Fn) (hf : f.acts.all noPump = true)
+    (h : DMid w (f :: rem)) : DMid (w.callFn f) rem := by
+  have h0 : DMid { w with calls := w.calls ++ [f.id], out := w.out ++ [Ev.call f.id] } rem := by
+    unfold DMid at *; simp [h]
+  have hk := doActs_keepsQ ({ w with calls := w.calls ++ [f.id], out := w.out ++ [Ev.call f.id] } : World) f.acts hf
+  have h1 : DMid (World.doActs { w with calls := w.calls ++ [f.id], out := w.out ++ [Ev.call f.id] } f.acts) rem := by
+    unfold DMid at *; rw [hk.subs, hk.calls, hk.queue]; exact h0
+  have h2 := deferAll_dmid f.kids h1
+  unfold World.callFn
+  simp only
+  split
+  · exact h2
+  · exact h2
+
+theorem runBatch_dmid {w : World} (b : List Fn) (hb : goodAll noPump b = true) (h : DMid w b) :
+    DMid (w.runBatch b) [] := by
+  unfold World.runBatch
+  induction b generalizing w with
+  | nil => exact h
+  | cons f r ih =>
+    obtain ⟨hf, hr⟩ := goodAll_cons hb
+    exact ih hr (callFn_dmid f (goodFn_acts hf).1 h)
+
+theorem drainFuel_dinv (fuel : Nat) {w : World} (hg : goodAll noPump w.queue = true) (h : DInv w) :
+    DInv (w.drainFuel fuel) := by
+  induction fuel generalizing w with
+  | zero => exact h
+  | succ n ih =>
+    unfold World.drainFuel
+    split
+    · exact h
+    · rename_i hq
+      apply ih (runBatch_qgood (pa := noPump) (w := { w with queue := [] }) w.queue hg rfl)
+      have : DMid { w with queue := [] } w.queue := by unfold DMid; unfold DInv at h; simp [h]
+      have := runBatch_dmid _ hg this
+      unfold DMid at this; unfold DInv; simpa using this
+
+/-- first in, first out: the drain loop keeps the ORDER when nothing it calls
+    pumps the loop -/
+theorem drain_dinv {w : World} (hg : goodAll noPump w.queue = true) (h : DInv w) : DInv w.drain :=
+  drainFuel_dinv _ hg h
+
+/-! ### exactly once, for every kind of callback (pumping ones included) -/
+
+omit [Pump] hok in
+theorem defer_dperm {R : List Nat} {w : World} (f : Fn) (h : DPermR R w) : DPermR R (w.defer f) := by
+  unfold DPermR World.defer at *
+  simp only [List.map_append, List.map_cons, List.map_nil]
+  rw [← List.append_assoc]
+  exact List.Perm.append_right _ h
+
+theorem deferAll_dperm {R : List Nat} {w : World} (fs : List Fn) (h : DPermR R w) : DPermR R (w.deferAll fs) := by
+  unfold World.deferAll
+  induction fs generalizing w with
+  | nil => exact h
+  | cons f r ih => exact ih (defer_dperm f h)
+
+theorem act_dperm {R : List Nat} {w : World} (a : Act) (h : DPermR R w) : DPermR R (w.act a) := by
+  by_cases ha : noPump a = true
+  · have hk := act_keepsQ w a ha
+    unfold DPermR at *; rw [hk.calls, hk.queue, hk.subs]; exact h
+  · cases a with
+    | pump fuel => exact PumpOK.dperm fuel R _ h
+    | installAt tid t => simp [noPump] at ha
+    | installAfter tid d => simp [noPump] at ha
+    | suspend tid => simp [noPump] at ha
+    | stop => simp [noPump] at ha
+
+theorem doActs_dperm {R : List Nat} {w : World} (as : List Act) (h : DPermR R w) : DPermR R (w.doActs as) := by
+  unfold World.doActs
+  induction as generalizing w with
+  | nil => exact h
+  | cons a r ih => exact ih (act_dperm a h)
+
+theorem callFn_dperm {R : List Nat} {w : World} (f : Fn) (h : DPermR (f.id :: R) w) :
+    DPermR R (w.callFn f) := by
+  have h0 : DPermR R ({ w with calls := w.calls ++ [f.id], out := w.out ++ [Ev.call f.id] } : World) := by
+    unfold DPermR at *; simpa [List.append_assoc] using h
+  have h2 := deferAll_dperm f.kids (doActs_dperm f.acts h0)
+  unfold World.callFn
+  simp only
+  split
+  · exact h2
+  · exact h2
+
+theorem runBatch_dperm {R : List Nat} {w : World} (b : List Fn) (h : DPermR (b.map Fn.id ++ R) w) :
+    DPermR R (w.runBatch b) := by
+  unfold World.runBatch
+  induction b generalizing w with
+  | nil => exact h
+  | cons f r ih => exact ih (callFn_dperm f (by simpa using h))
+
+theorem drainFuel_dperm (fuel : Nat) {R : List Nat} {w : World} (h : DPermR R w) :
+    DPermR R (w.drainFuel fuel) := by
+  induction fuel generalizing w with
+  | zero => exact h
+  | succ n ih =>
+    unfold World.drainFuel
+    split
+    · exact h
+    · apply ih
+      apply runBatch_dperm
+      unfold DPermR at *
+      simp only [List.map_nil, List.append_nil]
+      refine List.Perm.trans ?_ h
+      simp only [List.append_assoc]
+      exact List.Perm.append_left _ List.perm_append_comm
+
+/-- exactly once through the drain loop, whatever the functions do -/
+theorem drain_dperm {R : List Nat} {w : World} (h : DPermR R w) : DPermR R w.drain := drainFuel_dperm _ h
+
+/-! ### the drain loop terminates: the fuel `weights queue` is never exhausted -/
+
+omit [Pump] hok in
+theorem weights_append (a b : List Fn) : weights (a ++ b) = weights a + weights b := by
+  induction a with
+  | nil => simp [weights]
+  | cons f r ih => simp [weights, ih]; omega
+
+theorem runBatch_weight (w : World) (b : List Fn) (hb : goodAll noPump b = true) :
+    weights (w.runBatch b).queue + b.length = weights w.queue + weights b := by
+  unfold World.runBatch
+  induction b generalizing w with
+  | nil => simp [weights]
+  | cons f r ih =>
+    obtain ⟨hf, hr⟩ := goodAll_cons hb
+    simp only [List.foldl_cons, List.length_cons]
+    have := ih (w.callFn f) hr
+    rw [callFn_queue w f (goodFn_acts hf).1, weights_append] at this
+    cases f with
+    | mk i rr kids acts => simp [weights, Fn.weight, Fn.kids] at *; omega
+
+theorem drainFuel_empty (fuel : Nat) (w : World) (hg : goodAll noPump w.queue = true)
+    (h : weights w.queue ≤ fuel) : (w.drainFuel fuel).queue = [] := by
+  induction fuel generalizing w with
+  | zero =>
+    unfold World.drainFuel
+    cases hq : w.queue with
+    | nil => rfl
+    | cons f r => rw [hq] at h; cases f; simp [weights, Fn.weight] at h
+  | succ n ih =>
+    unfold World.drainFuel
+    split
+    · assumption
+    · rename_i hq
+      apply ih _ (runBatch_qgood (pa := noPump) (w := { w with queue := [] }) w.queue hg rfl)
+      have := runBatch_weight { w with queue := [] } w.queue hg
+      simp [weights] at this
+      cases hq' : w.queue with
+      | nil => exact absurd hq' hq
+      | cons f r => rw [hq'] at this h; simp at this; omega
+
+/-- after the drain loop nothing is left in the queue (callbacks that do not
+    pump the loop; a pumping one only makes the queue shorter — the nested pass
+    drains it — but then the bookkeeping by weights no longer applies) -/
+theorem drain_queue_empty (w : World) (hg : goodAll noPump w.queue = true) : w.drain.queue = [] :=
+  drainFuel_empty _ w hg (Nat.le_refl _)
+
+/-! ## every operation preserves the invariants -/
+
+/-- the invariant of a world: the schedule invariant, and every deferred
+    function exactly once (called or still queued).  Holds for EVERY kind of
+    callback. -/
+structure WInv (w : World) : Prop where
+  sched : SInv w.tm w.fired
+  once : DPermR [] w
+
+omit [Pump] hok in
+theorem emit_winv {w : World} (e : Ev) (h : WInv w) : WInv (w.emit e) := ⟨h.sched, h.once⟩
+
+theorem callFn_sinv {w : World} (f : Fn) (h : SInv w.tm w.fired) :
+    SInv (w.callFn f).tm (w.callFn f).fired := by
+  unfold World.callFn
+  simp only
+  have h1 : SInv ({ w with calls := w.calls ++ [f.id], out := w.out ++ [Ev.call f.id] } : World).tm
+      ({ w with calls := w.calls ++ [f.id], out := w.out ++ [Ev.call f.id] } : World).fired := h
+  have h2 := doActs_sinv f.acts h1
+  have h3 := (deferAll_keeps _ f.kids).sinv h2
+  split
+  · exact h3
+  · exact h3
+
+theorem runBatch_sinv {w : World} (b : List Fn) (h : SInv w.tm w.fired) :
+    SInv (w.runBatch b).tm (w.runBatch b).fired := by
+  unfold World.runBatch
+  induction b generalizing w with
+  | nil => exact h
+  | cons f r ih => exact ih (callFn_sinv f h)
+
+theorem drainFuel_sinv (fuel : Nat) {w : World} (h : SInv w.tm w.fired) :
+    SInv (w.drainFuel fuel).tm (w.drainFuel fuel).fired := by
+  induction fuel generalizing w with
+  | zero => exact h
+  | succ n ih =>
+    unfold World.drainFuel
+    split
+    · exact h
+    · exact ih (runBatch_sinv _ (w := { w with queue := [] }) h)
+
+/-- the drain loop preserves the invariants even when the functions it calls
+    install, move and suspend tasks, stop or pump the loop -/
+theorem drain_winv {w : World} (h : WInv w) : WInv w.drain :=
+  ⟨drainFuel_sinv _ h.sched, drain_dperm h.once⟩
+
+/-- `process_task` of a popped entry: the schedule -/
+theorem process_sinv {w : World} {e : Entry}
+    (hs : SInv w.tm (w.fired ++ [⟨e.tid, e.time, e.seq, w.now, w.tm.counter⟩])) :
+    SInv (w.process e).1.tm (w.process e).1.fired := by
+  unfold World.process
+  simp only
+  generalize hw1 : ({ w with fired := w.fired ++ [Fire.mk e.tid e.time e.seq w.now w.tm.counter],
+                             out := w.out ++ [Ev.fire e.tid w.now e.time e.seq] } : World) = w1
+  have hs0 : SInv w1.tm w1.fired := by subst hw1; exact hs
+  have hs1 := doActs_sinv (w.body e.tid).acts hs0
+  generalize w1.doActs (w.body e.tid).acts = w1' at *
+  have hs2 := (deferAll_keeps w1' (w.body e.tid).defers).sinv hs1
+  generalize w1'.deferAll (w.body e.tid).defers = w2 at *
+  split
+  · exact installRecurring_inv _ _ _ _ hs2
+  · exact hs2
+
+/-- … and the deferred queue -/
+theorem process_dperm {R : List Nat} {w : World} (e : Entry) (hd : DPermR R w) :
+    DPermR R (w.process e).1 := by
+  unfold World.process
+  simp only
+  generalize hw1 : ({ w with fired := w.fired ++ [Fire.mk e.tid e.time e.seq w.now w.tm.counter],
+                             out := w.out ++ [Ev.fire e.tid w.now e.time e.seq] } : World) = w1
+  have hd0 : DPermR R w1 := by subst hw1; exact hd
+  have hd2 := deferAll_dperm (w.body e.tid).defers (doActs_dperm (w.body e.tid).acts hd0)
+  split
+  · exact hd2
+  · exact hd2
+
+theorem fireNext_sinv {w : World} (h : SInv w.tm w.fired) : SInv w.fireNext.1.tm w.fireNext.1.fired := by
+  unfold World.fireNext
+  rcases hg : w.tm.getNext w.now with ⟨e?, d, tm'⟩
+  cases e? with
+  | none =>
+    simp only
+    obtain ⟨rfl, _, _, _⟩ := getNext_none hg
+    exact h
+  | some e =>
+    simp only
+    obtain ⟨hs, _⟩ := getNext_some h hg
+    have := process_sinv (w := { w with tm := tm' }) (e := e) hs
+    split
+    · exact this
+    · exact this
+
+theorem fireNext_dperm {R : List Nat} {w : World} (h : DPermR R w) : DPermR R w.fireNext.1 := by
+  unfold World.fireNext
+  rcases w.tm.getNext w.now with ⟨e?, d, tm'⟩
+  cases e? with
+  | none => exact h
+  | some e =>
+    simp only
+    have := process_dperm (w := { w with tm := tm' }) e h
+    split
+    · exact this
+    · exact this
+
+theorem fireNext_winv {w : World} (h : WInv w) : WInv w.fireNext.1 :=
+  ⟨fireNext_sinv h.sched, fireNext_dperm h.once⟩
+
+theorem runOnceLoop_sinv (fuel : Nat) {w : World} (h : SInv w.tm w.fired) :
+    SInv (w.runOnceLoop fuel).1.tm (w.runOnceLoop fuel).1.fired := by
+  induction fuel generalizing w with
+  | zero => exact h
+  | succ n ih =>
+    unfold World.runOnceLoop
+    simp only
+    split
+    · exact ih (drainFuel_sinv _ (fireNext_sinv h))
+    · exact drainFuel_sinv _ (fireNext_sinv h)
+
+theorem runOnceLoop_dperm (fuel : Nat) {R : List Nat} {w : World} (h : DPermR R w) :
+    DPermR R (w.runOnceLoop fuel).1 := by
+  induction fuel generalizing w with
+  | zero => exact h
+  | succ n ih =>
+    unfold World.runOnceLoop
+    simp only
+    split
+    · exact ih (drain_dperm (fireNext_dperm h))
+    · exact drain_dperm (fireNext_dperm h)
+
+theorem runOnceLoop_winv (fuel : Nat) {w : World} (h : WInv w) : WInv (w.runOnceLoop fuel).1 :=
+  ⟨runOnceLoop_sinv fuel h.sched, runOnceLoop_dperm fuel h.once⟩
+
+omit [Pump] hok in
+theorem setNow_winv {w : World} (t : Nat) (h : WInv w) : WInv { w with now := t } := ⟨h.sched, h.once⟩
+
+omit [Pump] hok in
+theorem setTrig_winv {w : World} (b : Bool) (h : WInv w) : WInv { w with tm := { w.tm with trig := b } } :=
+  ⟨h.sched.congr rfl rfl rfl rfl, h.once⟩
+
+omit [Pump] hok in
+theorem setRunning_winv {w : World} (b : Bool) (h : WInv w) : WInv { w with running := b } := ⟨h.sched, h.once⟩
+
+theorem runLoop_winv (fuel T : Nat) {w : World} (h : WInv w) : WInv (w.runLoop fuel T).1 := by
+  induction fuel generalizing w with
+  | zero => exact h
+  | succ n ih =>
+    unfold World.runLoop
+    simp only
+    have h1 := fireNext_winv h
+    split
+    · exact h
+    · split
+      · exact ih h1
+      · split
+        · exact ih (drain_winv (setTrig_winv false h1))
+        · split
+          · exact drain_winv (setRunning_winv false (setNow_winv _ (setTrig_winv true h1)))
+          · exact ih (drain_winv (setNow_winv _ h1))
+
+theorem api_winv {w : World} (r : TM × Option Raised) (hs : SInv r.1 w.fired) (hd : DPermR [] w) :
+    WInv (w.api r) := by
+  unfold World.api
+  simp only
+  split
+  · exact emit_winv _ ⟨hs, hd⟩
+  · exact ⟨hs, hd⟩
+
+theorem step_winv {w : World} (op : Op) (h : WInv w) : WInv (w.step op).1 := by
+  cases op with
+  | installAt tid t => exact api_winv _ (installTask_inv _ _ _ _ h.sched) h.once
+  | installAfter tid d => exact api_winv _ (installTask_inv _ _ _ _ h.sched) h.once
+  | installBare tid => exact api_winv _ (installTask_inv _ _ _ _ h.sched) h.once
+  | installRec tid iv off => exact api_winv _ (installRecurring_inv _ _ _ _ h.sched) h.once
+  | suspend tid => exact ⟨suspend_inv tid h.sched, h.once⟩
+  | resume tid => exact api_winv _ (install_inv _ h.sched) h.once
+  | defer f => exact ⟨(defer_keeps w f).sinv h.sched, defer_dperm f h.once⟩
+  | tick d => exact setNow_winv _ h
+  | next => exact fireNext_winv h
+  | advOnce d fuel => exact runOnceLoop_winv _ (setNow_winv _ h)
+  | advRun d fuel => exact setRunning_winv false (runLoop_winv _ _ (setRunning_winv true h))
+  | jumpRun fuel => exact setRunning_winv false (runLoop_winv _ _ (setRunning_winv true h))
+
+theorem run_winv {w : World} (ops : List Op) (h : WInv w) : WInv (w.run ops) := by
+  induction ops generalizing w with
+  | nil => exact h
+  | cons op r ih => exact ih (step_winv op h)
+
+omit [Pump] hok in
+/-- a fresh world: nothing scheduled, nothing fired, nothing deferred; any
+    configuration of task classes, bodies, spin and tick length -/
+def Fresh (w : World) : Prop :=
+  w.tm.heap = [] ∧ w.tm.counter = 0 ∧ w.tm.removed = [] ∧ (∀ t, w.tm.flag t = false) ∧
+  w.fired = [] ∧ w.queue = [] ∧ w.calls = [] ∧ w.subs = []
+
+omit [Pump] hok in
+theorem fresh_winv {w : World} (h : Fresh w) : WInv w := by
+  obtain ⟨h1, h2, h3, h4, h5, h6, h7, h8⟩ := h
+  refine ⟨?_, ?_⟩
+  · rw [h5]; exact SInv.init _ h1 h2 h3 h4
+  · unfold DPermR; simp [h6, h7, h8]
+
+/-- the invariants hold after every history -/
+theorem reachable_winv {w : World} (h : Fresh w) (ops : List Op) : WInv (w.run ops) :=
+  run_winv ops (fresh_winv h)
+/-! ## worlds whose bodies and deferred functions only perform acts of a given kind
+
+  `GoodW pa w`: every act in every task body, in every function a body defers,
+  in every queued function, and in everything those defer, satisfies `pa`.
+  With `pa = noAct` this is "the scripted code leaves the scheduler alone"
+  (`Passive`); with `pa = calm t` it is "nobody installs task `t`". -/
+
+def GoodW (pa : Act → Bool) (w : World) : Prop :=
+  (∀ t, (w.body t).acts.all pa = true ∧ goodAll pa (w.body t).defers = true) ∧
+  goodAll pa w.queue = true
+
+omit [Pump] hok in
+theorem GoodW.of_eq {pa : Act → Bool} {w w' : World} (h : GoodW pa w) (hb : w'.body = w.body)
+    (hq : w'.queue = w.queue) : GoodW pa w' := by
+  unfold GoodW; rw [hb, hq]; exact h
+
+omit [Pump] hok in
+theorem GoodW.with_queue {pa : Act → Bool} {w w' : World} (h : GoodW pa w) (hb : w'.body = w.body)
+    (hq : goodAll pa w'.queue = true) : GoodW pa w' := by
+  unfold GoodW; rw [hb]; exact ⟨h.1, hq⟩
+
+theorem doActs_good {pa : Act → Bool} [NoPumpP pa] {w : World} (as : List Act) (ha : as.all pa = true)
+    (h : GoodW pa w) : GoodW pa (w.doActs as) :=
+  h.of_eq (doActs_keepsQ w as (all_noPump ha)).body (doActs_keepsQ w as (all_noPump ha)).queue
+
+theorem deferAll_good {pa : Act → Bool} {w : World} (fs : List Fn) (h : GoodW pa w)
+    (hf : goodAll pa fs = true) : GoodW pa (w.deferAll fs) := by
+  refine h.with_queue (deferAll_keeps w fs).body ?_
+  rw [deferAll_queue, goodAll_append, h.2, hf]; rfl
+
+theorem callFn_body (w : World) (f : Fn) (hf : f.acts.all noPump = true) : (w.callFn f).body = w.body := by
+  unfold World.callFn
+  simp only
+  have h1 := (doActs_keepsQ ({ w with calls := w.calls ++ [f.id], out := w.out ++ [Ev.call f.id] } : World) f.acts hf).body
+  have h2 := (deferAll_keeps (World.doActs { w with calls := w.calls ++ [f.id], out := w.out ++ [Ev.call f.id] } f.acts) f.kids).body
+  split
+  · exact h2.trans h1
+  · exact h2.trans h1
+
+theorem callFn_good {pa : Act → Bool} [NoPumpP pa] {w : World} {f : Fn} (h : GoodW pa w)
+    (hf : goodFn pa f = true) : GoodW pa (w.callFn f) :=
+  h.with_queue (callFn_body w f (all_noPump (goodFn_acts hf).1)) (callFn_qgood hf h.2)
+
+theorem runBatch_good {pa : Act → Bool} [NoPumpP pa] {w : World} (b : List Fn) (h : GoodW pa w)
+    (hb : goodAll pa b = true) : GoodW pa (w.runBatch b) := by
+  unfold World.runBatch
+  induction b generalizing w with
+  | nil => exact h
+  | cons f r ih =>
+    obtain ⟨hf, hr⟩ := goodAll_cons hb
+    exact ih (callFn_good h hf) hr
+
+theorem drainFuel_good {pa : Act → Bool} [NoPumpP pa] (fuel : Nat) {w : World} (h : GoodW pa w) :
+    GoodW pa (w.drainFuel fuel) := by
+  induction fuel generalizing w with
+  | zero => exact h
+  | succ n ih =>
+    unfold World.drainFuel
+    split
+    · exact h
+    · exact ih (runBatch_good w.queue (w := { w with queue := [] }) (h.with_queue rfl rfl) h.2)
+
+theorem drain_good {pa : Act → Bool} [NoPumpP pa] {w : World} (h : GoodW pa w) : GoodW pa w.drain :=
+  drainFuel_good _ h
+
+theorem process_body_queue (w : World) (e : Entry) (ha : (w.body e.tid).acts.all noPump = true) :
+    (w.process e).1.body = w.body ∧ (w.process e).1.queue = w.queue ++ (w.body e.tid).defers := by
+  unfold World.process
+  simp only
+  generalize hw1 : ({ w with fired := w.fired ++ [Fire.mk e.tid e.time e.seq w.now w.tm.counter],
+                             out := w.out ++ [Ev.fire e.tid w.now e.time e.seq] } : World) = w1
+  have hk1 := doActs_keepsQ w1 (w.body e.tid).acts ha
+  have hk2 := deferAll_keeps (w1.doActs (w.body e.tid).acts) (w.body e.tid).defers
+  have hb : (World.deferAll (w1.doActs (w.body e.tid).acts) (w.body e.tid).defers).body = w.body := by
+    rw [hk2.body, hk1.body, ← hw1]
+  have hq : (World.deferAll (w1.doActs (w.body e.tid).acts) (w.body e.tid).defers).queue
+      = w.queue ++ (w.body e.tid).defers := by
+    rw [deferAll_queue, hk1.queue, ← hw1]
+  split
+  · exact ⟨hb, hq⟩
+  · exact ⟨hb, hq⟩
+
+theorem process_good {pa : Act → Bool} [NoPumpP pa] {w : World} (e : Entry) (h : GoodW pa w) :
+    GoodW pa (w.process e).1 := by
+  obtain ⟨hb, hq⟩ := process_body_queue w e (all_noPump (h.1 e.tid).1)
+  refine h.with_queue hb ?_
+  rw [hq, goodAll_append, h.2, (h.1 e.tid).2]; rfl
+
+theorem fireNext_good {pa : Act → Bool} [NoPumpP pa] {w : World} (h : GoodW pa w) : GoodW pa w.fireNext.1 := by
+  unfold World.fireNext
+  rcases w.tm.getNext w.now with ⟨e?, d, tm'⟩
+  cases e? with
+  | none => exact h
+  | some e =>
+    simp only
+    have := process_good (w := { w with tm := tm' }) e h
+    split
+    · exact this
+    · exact this
+
+theorem runOnceLoop_good {pa : Act → Bool} [NoPumpP pa] (fuel : Nat) {w : World} (h : GoodW pa w) :
+    GoodW pa (w.runOnceLoop fuel).1 := by
+  induction fuel generalizing w with
+  | zero => exact h
+  | succ n ih =>
+    unfold World.runOnceLoop
+    simp only
+    split
+    · exact ih (drain_good (fireNext_good h))
+    · exact drain_good (fireNext_good h)
+
+theorem runLoop_good {pa : Act → Bool} [NoPumpP pa] (fuel T : Nat) {w : World} (h : GoodW pa w) :
+    GoodW pa (w.runLoop fuel T).1 := by
+  induction fuel generalizing w with
+  | zero => exact h
+  | succ n ih =>
+    unfold World.runLoop
+    simp only
+    have h1 := fireNext_good h
+    split
+    · exact h
+    · split
+      · exact ih h1
+      · split
+        · exact ih (drain_good (w := { w.fireNext.1 with tm := { w.fireNext.1.tm with trig := false } }) h1)
+        · split
+          · exact drain_good (w := { w.fireNext.1 with now := max w.fireNext.1.now T, running := false,
+                                                        tm := { w.fireNext.1.tm with trig := true } }) h1
+          · exact ih (drain_good (w := { w.fireNext.1 with now := w.fireNext.1.now + w.fireNext.1.timeout w.fireNext.2.1 }) h1)
+
+/-- operations whose deferred function (if any) only performs acts satisfying `pa` -/
+def goodOp (pa : Act → Bool) : Op → Bool
+  | .defer f => goodFn pa f
+  | _ => true
+
+omit [Pump] hok in
+theorem api_body_queue (w : World) (r : TM × Option Raised) : (w.api r).body = w.body ∧ (w.api r).queue = w.queue := by
+  unfold World.api
+  simp only
+  split <;> exact ⟨rfl, rfl⟩
+
+theorem step_good {pa : Act → Bool} [NoPumpP pa] {w : World} (op : Op) (h : GoodW pa w) (ho : goodOp pa op = true) :
+    GoodW pa (w.step op).1 := by
+  cases op with
+  | installAt tid t => exact h.of_eq (api_body_queue _ _).1 (api_body_queue _ _).2
+  | installAfter tid d => exact h.of_eq (api_body_queue _ _).1 (api_body_queue _ _).2
+  | installBare tid => exact h.of_eq (api_body_queue _ _).1 (api_body_queue _ _).2
+  | installRec tid iv off => exact h.of_eq (api_body_queue _ _).1 (api_body_queue _ _).2
+  | suspend tid => exact h
+  | resume tid => exact h.of_eq (api_body_queue _ _).1 (api_body_queue _ _).2
+  | defer f =>
+    have := deferAll_good [f] h (by simpa [goodAll, goodOp] using ho)
+    exact this
+  | tick d => exact h
+  | next => exact fireNext_good h
+  | advOnce d fuel => exact runOnceLoop_good _ (w := { w with now := w.now + d }) h
+  | advRun d fuel => exact (runLoop_good _ _ (w := { w with running := true }) h).of_eq rfl rfl
+  | jumpRun fuel => exact (runLoop_good _ _ (w := { w with running := true }) h).of_eq rfl rfl
+
+theorem run_good {pa : Act → Bool} [NoPumpP pa] {w : World} (ops : List Op) (h : GoodW pa w)
+    (ho : ∀ op ∈ ops, goodOp pa op = true) : GoodW pa (w.run ops) := by
+  induction ops generalizing w with
+  | nil => exact h
+  | cons op r ih =>
+    exact ih (step_good op h (ho op List.mem_cons_self)) (fun o hm => ho o (List.mem_cons_of_mem _ hm))
+
+/-- the scripted code never touches the scheduler (the hypothesis of the
+    completeness and single-pass theorems) -/
+abbrev Passive (w : World) : Prop := GoodW noAct w
+
+theorem Passive.body_acts {w : World} (h : Passive w) (t : Nat) : (w.body t).acts = [] :=
+  all_noAct (h.1 t).1
+
+theorem GoodW.mono {pa pb : Act → Bool} {w : World} (h : ∀ a, pa a = true → pb a = true)
+    (hg : GoodW pa w) : GoodW pb w := by
+  refine ⟨fun t => ⟨?_, goodAll_mono h _ (hg.1 t).2⟩, goodAll_mono h _ hg.2⟩
+  have := (hg.1 t).1
+  rw [List.all_eq_true] at this ⊢
+  exact fun a ha => h a (this a ha)
+
+theorem GoodW.noPump {pa : Act → Bool} [hpa : NoPumpP pa] {w : World} (hg : GoodW pa w) : GoodW noPump w :=
+  hg.mono hpa.out
+
+theorem goodOp_mono {pa pb : Act → Bool} (h : ∀ a, pa a = true → pb a = true) {op : Op}
+    (ho : goodOp pa op = true) : goodOp pb op = true := by
+  cases op <;> first | rfl | exact goodFn_mono h _ ho
+
+/-! ## first in, first out — callbacks that do not pump the loop
+
+  `DInv w`: the ids in submission order are the ids called so far followed by
+  the ids still queued, as LISTS.  Preserved by every operation as long as no
+  task body or deferred function (at any depth) pumps the loop — they may raise,
+  defer, install, suspend and stop as they like (`GoodW noPump`). -/
+
+theorem deferAll_dinv {w : World} (fs : List Fn) (h : DInv w) : DInv (w.deferAll fs) := by
+  have : DMid w [] := by unfold DMid; unfold DInv at h; simpa using h
+  have := deferAll_dmid fs this
+  unfold DMid at this; unfold DInv; simpa using this
+
+theorem process_fifo {w : World} (e : Entry) (hg : GoodW noPump w) (hd : DInv w) : DInv (w.process e).1 := by
+  unfold World.process
+  simp only
+  generalize hw1 : ({ w with fired := w.fired ++ [Fire.mk e.tid e.time e.seq w.now w.tm.counter],
+                             out := w.out ++ [Ev.fire e.tid w.now e.time e.seq] } : World) = w1
+  have hd0 : DInv w1 := by subst hw1; exact hd
+  have hk := doActs_keepsQ w1 (w.body e.tid).acts (hg.1 e.tid).1
+  have hd1 : DInv (w1.doActs (w.body e.tid).acts) := by
+    unfold DInv at *; rw [hk.subs, hk.calls, hk.queue]; exact hd0
+  have hd2 := deferAll_dinv (w.body e.tid).defers hd1
+  split
+  · exact hd2
+  · exact hd2
+
+theorem fireNext_fifo {w : World} (hg : GoodW noPump w) (hd : DInv w) : DInv w.fireNext.1 := by
+  unfold World.fireNext
+  rcases w.tm.getNext w.now with ⟨e?, d, tm'⟩
+  cases e? with
+  | none => exact hd
+  | some e =>
+    simp only
+    have := process_fifo (w := { w with tm := tm' }) e hg hd
+    split
+    · exact this
+    · exact this
+
+theorem runOnceLoop_fifo (fuel : Nat) {w : World} (hg : GoodW noPump w) (hd : DInv w) :
+    DInv (w.runOnceLoop fuel).1 := by
+  induction fuel generalizing w with
+  | zero => exact hd
+  | succ n ih =>
+    unfold World.runOnceLoop
+    simp only
+    have g1 := fireNext_good hg
+    have d1 := drain_dinv g1.2 (fireNext_fifo hg hd)
+    split
+    · exact ih (drain_good g1) d1
+    · exact d1
+
+theorem runLoop_fifo (fuel T : Nat) {w : World} (hg : GoodW noPump w) (hd : DInv w) :
+    DInv (w.runLoop fuel T).1 := by
+  induction fuel generalizing w with
+  | zero => exact hd
+  | succ n ih =>
+    unfold World.runLoop
+    simp only
+    have g1 := fireNext_good hg
+    have d1 := fireNext_fifo hg hd
+    split
+    · exact hd
+    · split
+      · exact ih g1 d1
+      · split
+        · exact ih (drain_good (w := { w.fireNext.1 with tm := { w.fireNext.1.tm with trig := false } }) g1)
+            (drain_dinv (w := { w.fireNext.1 with tm := { w.fireNext.1.tm with trig := false } }) g1.2 d1)
+        · split
+          · exact drain_dinv (w := { w.fireNext.1 with now := max w.fireNext.1.now T, running := false,
+                                                        tm := { w.fireNext.1.tm with trig := true } }) g1.2 d1
+          · exact ih (drain_good (w := { w.fireNext.1 with now := w.fireNext.1.now + w.fireNext.1.timeout w.fireNext.2.1 }) g1)
+              (drain_dinv (w := { w.fireNext.1 with now := w.fireNext.1.now + w.fireNext.1.timeout w.fireNext.2.1 }) g1.2 d1)
+
+omit [Pump] hok in
+theorem api_fifo {w : World} (r : TM × Option Raised) (hd : DInv w) : DInv (w.api r) := by
+  unfold World.api
+  simp only
+  split <;> exact hd
+
+theorem step_fifo {w : World} (op : Op) (hg : GoodW noPump w) (hd : DInv w) : DInv (w.step op).1 := by
+  cases op with
+  | installAt tid t => exact api_fifo _ hd
+  | installAfter tid d => exact api_fifo _ hd
+  | installBare tid => exact api_fifo _ hd
+  | installRec tid iv off => exact api_fifo _ hd
+  | suspend tid => exact hd
+  | resume tid => exact api_fifo _ hd
+  | defer f => exact deferAll_dinv [f] hd
+  | tick d => exact hd
+  | next => exact fireNext_fifo hg hd
+  | advOnce d fuel => exact runOnceLoop_fifo _ (w := { w with now := w.now + d }) hg hd
+  | advRun d fuel => exact runLoop_fifo _ _ (w := { w with running := true }) hg hd
+  | jumpRun fuel => exact runLoop_fifo _ _ (w := { w with running := true }) hg hd
+
+theorem run_fifo {w : World} (ops : List Op) (hg : GoodW noPump w)
+    (ho : ∀ op ∈ ops, goodOp noPump op = true) (hd : DInv w) : DInv (w.run ops) := by
+  induction ops generalizing w with
+  | nil => exact hd
+  | cons op r ih =>
+    exact ih (step_good op hg (ho op List.mem_cons_self)) (fun o hm => ho o (List.mem_cons_of_mem _ hm))
+      (step_fifo op hg hd)
+
+/-- **deferred_fifo_once** (in submission order): as long as no task body or
+    deferred function pumps the loop, the ids in submission order are the ids
+    called so far followed by the ids still queued — nothing lost, duplicated or
+    reordered, whatever raised and whatever the callbacks did to the scheduler -/
+theorem deferred_fifo {w : World} (hw : Fresh w) (hg : GoodW noPump w) (ops : List Op)
+    (ho : ∀ op ∈ ops, goodOp noPump op = true) :
+    (w.run ops).subs = (w.run ops).calls ++ (w.run ops).queue.map Fn.id := by
+  apply run_fifo ops hg ho
+  obtain ⟨_, _, _, _, _, h6, h7, h8⟩ := hw
+  unfold DInv; simp [h6, h7, h8]
+
+/-! ## the property clauses, for every history from a fresh world -/
+
+/-- **fire_order** — for any two firings `f` (earlier in the log) and `g`
+    (later): if `g`'s installation already existed when `f` fired (`g.seq <
+    f.ctr`, i.e. both were pending together), then `f` is due strictly earlier,
+    or at the same time and was installed earlier.  Hence tasks fire in
+    non-decreasing order of due time and, among equal times, in installation
+    order.  (The proviso is necessary: an installation made later may lie in
+    the past.) -/
+theorem fire_order {w : World} (hw : Fresh w) (ops : List Op) :
+    (w.run ops).fired.Pairwise (fun f g => g.seq < f.ctr → keyLt f.due f.seq g.due g.seq) :=
+  (reachable_winv hw ops).sched.order
+
+omit [Pump] hok in
+/-- at the moment of a firing, the fired entry is the minimum of the heap -/
+theorem fire_is_min {tm tm' : TM} {now : Nat} {e : Entry} {d : Option Nat}
+    (hg : tm.getNext now = (some e, d, tm')) : ∀ x ∈ tm.heap, e.before x := by
+  unfold TM.getNext at hg
+  cases hp : popMin tm.heap with
+  | none => rw [hp] at hg; simp at hg
+  | some p =>
+    obtain ⟨m, rest⟩ := p
+    rw [hp] at hg
+    obtain ⟨hperm, hmin⟩ := popMin_some hp
+    simp only at hg
+    split at hg
+    · simp only [Prod.mk.injEq, Option.some.injEq] at hg
+      obtain ⟨rfl, _, _⟩ := hg
+      intro x hx
+      rcases List.mem_cons.mp (hperm.mem_iff.mp hx) with rfl | hx'
+      · exact before_refl _
+      · exact hmin x hx'
+    · simp at hg
+
+/-- **never_early** -/
+theorem never_early {w : World} (hw : Fresh w) (ops : List Op) :
+    ∀ f ∈ (w.run ops).fired, f.due ≤ f.now :=
+  (reachable_winv hw ops).sched.early
+
+/-- **once_per_install** (at most once): no installation number occurs twice in the log -/
+theorem once_per_install {w : World} (hw : Fresh w) (ops : List Op) :
+    ((w.run ops).fired.map (·.seq)).Nodup := by
+  have := (reachable_winv hw ops).sched.nodup_all
+  exact (List.nodup_append.mp (List.nodup_append.mp this).1).2.1
+
+/-- the fate of every installation: the numbers `0 … counter-1` are split into
+    "still queued", "fired", "deleted by suspend_task / replaced by a re-install"
+    without overlap -/
+theorem install_fate {w : World} (hw : Fresh w) (ops : List Op) :
+    let v := w.run ops
+    (v.tm.heap.map (·.seq) ++ v.fired.map (·.seq) ++ v.tm.removed).Perm (List.range v.tm.counter) :=
+  (reachable_winv hw ops).sched.part
+
+/-- **suspended_silent** (installation level): what suspend_task deleted — or a
+    re-install replaced — is never fired, before or after -/
+theorem removed_never_fires {w : World} (hw : Fresh w) (ops : List Op) :
+    ∀ s ∈ (w.run ops).tm.removed, s ∉ (w.run ops).fired.map (·.seq) := by
+  intro s hs hf
+  have := (reachable_winv hw ops).sched.nodup_all
+  exact (List.nodup_append.mp this).2.2 s (List.mem_append_right _ hf) s hs rfl
+
+/-- every installation that is neither fired nor deleted is still queued -/
+theorem pending_or_done {w : World} (hw : Fresh w) (ops : List Op) (s : Nat)
+    (hs : s < (w.run ops).tm.counter) (hr : s ∉ (w.run ops).tm.removed)
+    (hf : s ∉ (w.run ops).fired.map (·.seq)) : ∃ e ∈ (w.run ops).tm.heap, e.seq = s := by
+  have := (install_fate hw ops).mem_iff.mpr (List.mem_range.mpr hs)
+  simp only [List.mem_append] at this
+  rcases this with (h | h) | h
+  · obtain ⟨e, he, rfl⟩ := List.mem_map.mp h; exact ⟨e, he, rfl⟩
+  · exact absurd h hf
+  · exact absurd h hr
+
+/-- **reinstall_moves** (invariant): at most one heap entry per task, present iff flagged -/
+theorem one_entry_iff_flagged {w : World} (hw : Fresh w) (ops : List Op) :
+    ((w.run ops).tm.heap.map (·.tid)).Nodup ∧
+    ∀ t, (w.run ops).tm.flag t = true ↔ ∃ e ∈ (w.run ops).tm.heap, e.tid = t :=
+  ⟨(reachable_winv hw ops).sched.tid_nodup, (reachable_winv hw ops).sched.flag_iff⟩
+
+/-- **deferred_fifo_once** (exactly once, every kind of callback — functions
+    that raise, defer further work, use the scheduler, stop or PUMP the loop):
+    the ids called so far together with the ids still queued are, as multisets,
+    exactly the ids ever submitted — nothing lost, nothing called twice.  (The
+    ORDER is submission order as long as no callback pumps the loop:
+    `deferred_fifo` below; a pumping callback legitimately makes the nested pass
+    run what was deferred since its batch began before the rest of that batch —
+    that order is the model's, tied to the code by the lockstep.) -/
+theorem deferred_once {w : World} (hw : Fresh w) (ops : List Op) :
+    ((w.run ops).calls ++ (w.run ops).queue.map Fn.id).Perm (w.run ops).subs := by
+  have := (reachable_winv hw ops).once
+  unfold DPermR at this; simpa using this
+
+/-! ## a suspended task stays silent until somebody installs it again -/
+
+/-- the operations that (re-)arm task `t` -/
+def arms (t : Nat) : Op → Bool
+  | .installAt tid _ => tid == t
+  | .installAfter tid _ => tid == t
+  | .installBare tid => tid == t
+  | .installRec tid _ _ => tid == t
+  | .resume tid => tid == t
+  | _ => false
+
+/-- `t` is unscheduled in `w'` and has not fired since `w` -/
+def Quiet (t : Nat) (w w' : World) : Prop :=
+  w'.tm.flag t = false ∧ ∀ f ∈ w'.fired, f.tid = t → f ∈ w.fired
+
+omit [Pump] hok in
+theorem Quiet.trans {t : Nat} {a b c : World} (h1 : Quiet t a b) (h2 : Quiet t b c) : Quiet t a c :=
+  ⟨h2.1, fun f hf ht => h1.2 f (h2.2 f hf ht) ht⟩
+
+omit hok in
+theorem keeps_quiet {t : Nat} {w w' : World} (hk : Keeps w w') (hf : w.tm.flag t = false) : Quiet t w w' := by
+  refine ⟨by rw [hk.flag]; exact hf, ?_⟩
+  intro f hf' _; rw [hk.fired] at hf'; exact hf'
+
+omit [Pump] hok in
+theorem suspend_flag_false {tm : TM} {t : Nat} (x : Nat) (h : tm.flag t = false) :
+    (tm.suspend x).flag t = false := by
+  unfold TM.suspend
+  split
+  · simp only [upd]; split <;> simp [h]
+  · exact h
+
+theorem install_flag_other {tm : TM} {t x : Nat} (hx : x ≠ t) (h : tm.flag t = false) :
+    (tm.install x).1.flag t = false := by
+  unfold TM.install
+  cases tm.ttime x with
+  | none => exact h
+  | some tt =>
+    simp only [upd, if_neg (Ne.symm hx)]
+    split
+    · exact suspend_flag_false x h
+    · exact h
+
+theorem installTask_flag_other {tm : TM} {t x : Nat} (now : Nat) (w d : Option Nat) (hx : x ≠ t)
+    (h : tm.flag t = false) : (tm.installTask now x w d).1.flag t = false := by
+  unfold TM.installTask
+  simp only
+  split
+  · exact h
+  · exact install_flag_other hx h
+
+theorem installRecurring_flag_other {tm : TM} {t x : Nat} (now : Nat) (iv off : Option Nat) (hx : x ≠ t)
+    (h : tm.flag t = false) : (tm.installRecurring now x iv off).1.flag t = false := by
+  unfold TM.installRecurring
+  simp only
+  split
+  · exact h
+  · split
+    · exact h
+    · exact install_flag_other hx h
+
+/-- acts that do not (re-)arm task `t` -/
+def calm (t : Nat) : Act → Bool
+  | .installAt tid _ => tid != t
+  | .installAfter tid _ => tid != t
+  | .pump _ => false
+  | _ => true
+
+instance noPumpP_calm (t : Nat) : NoPumpP (calm t) := ⟨fun a h => by cases a <;> simp [calm, noPump] at h ⊢⟩
+
+theorem act_flag {t : Nat} {w : World} {a : Act} (ha : calm t a = true) (hf : w.tm.flag t = false) :
+    (w.act a).tm.flag t = false := by
+  cases a with
+  | installAt tid x => exact installTask_flag_other _ _ _ (by simpa [calm] using ha) hf
+  | installAfter tid d => exact installTask_flag_other _ _ _ (by simpa [calm] using ha) hf
+  | suspend tid => exact suspend_flag_false tid hf
+  | stop => exact hf
+  | pump fuel => simp [calm] at ha
+
+theorem doActs_flag {t : Nat} {w : World} (as : List Act) (ha : as.all (calm t) = true)
+    (hf : w.tm.flag t = false) : (w.doActs as).tm.flag t = false := by
+  unfold World.doActs
+  induction as generalizing w with
+  | nil => exact hf
+  | cons a r ih =>
+    simp only [List.all_cons, Bool.and_eq_true] at ha
+    exact ih ha.2 (act_flag ha.1 hf)
+
+theorem callFn_quietD {t : Nat} {w : World} {f : Fn} (hg : goodFn (calm t) f = true)
+    (hf : w.tm.flag t = false) : (w.callFn f).tm.flag t = false ∧ (w.callFn f).fired = w.fired := by
+  unfold World.callFn
+  simp only
+  generalize hw1 : ({ w with calls := w.calls ++ [f.id], out := w.out ++ [Ev.call f.id] } : World) = w1
+  have hf1 : w1.tm.flag t = false := by subst hw1; exact hf
+  have hfi1 : w1.fired = w.fired := by subst hw1; rfl
+  have hf2 := doActs_flag f.acts (goodFn_acts hg).1 hf1
+  have hk1 := doActs_keepsQ w1 f.acts (all_noPump (goodFn_acts hg).1)
+  have hk2 := deferAll_keeps (w1.doActs f.acts) f.kids
+  have hf3 : (World.deferAll (w1.doActs f.acts) f.kids).tm.flag t = false := by rw [hk2.flag]; exact hf2
+  have hfi3 : (World.deferAll (w1.doActs f.acts) f.kids).fired = w.fired := by rw [hk2.fired, hk1.fired, hfi1]
+  split
+  · exact ⟨hf3, hfi3⟩
+  · exact ⟨hf3, hfi3⟩
+
+theorem runBatch_quietD {t : Nat} {w : World} (b : List Fn) (hb : goodAll (calm t) b = true)
+    (hf : w.tm.flag t = false) : (w.runBatch b).tm.flag t = false ∧ (w.runBatch b).fired = w.fired := by
+  unfold World.runBatch
+  induction b generalizing w with
+  | nil => exact ⟨hf, rfl⟩
+  | cons f r ih =>
+    obtain ⟨hg, hr⟩ := goodAll_cons hb
+    obtain ⟨h1, h2⟩ := callFn_quietD hg hf
+    obtain ⟨h3, h4⟩ := ih hr h1
+    exact ⟨h3, h4.trans h2⟩
+
+theorem drainFuel_quietD {t : Nat} (fuel : Nat) {w : World} (hg : GoodW (calm t) w)
+    (hf : w.tm.flag t = false) :
+    (w.drainFuel fuel).tm.flag t = false ∧ (w.drainFuel fuel).fired = w.fired := by
+  induction fuel generalizing w with
+  | zero => exact ⟨hf, rfl⟩
+  | succ n ih =>
+    unfold World.drainFuel
+    split
+    · exact ⟨hf, rfl⟩
+    · obtain ⟨h1, h2⟩ := runBatch_quietD (w := { w with queue := [] }) w.queue hg.2 hf
+      have hg' := runBatch_good w.queue (w := { w with queue := [] }) (hg.with_queue rfl rfl) hg.2
+      obtain ⟨h3, h4⟩ := ih hg' h1
+      exact ⟨h3, h4.trans h2⟩
+
+theorem drain_quiet {t : Nat} {w : World} (hg : GoodW (calm t) w) (hf : w.tm.flag t = false) :
+    Quiet t w w.drain := by
+  obtain ⟨h1, h2⟩ := drainFuel_quietD (weights w.queue) hg hf
+  exact ⟨h1, fun f hf' _ => by rw [show w.drain.fired = w.fired from h2] at hf'; exact hf'⟩
+
+theorem process_quiet {t : Nat} {w : World} {e : Entry} (hg : GoodW (calm t) w) (he : e.tid ≠ t)
+    (hf : w.tm.flag t = false) :
+    (w.process e).1.tm.flag t = false ∧
+    ∀ f ∈ (w.process e).1.fired, f.tid = t → f ∈ w.fired := by
+  unfold World.process
+  simp only
+  generalize hw1 : ({ w with fired := w.fired ++ [Fire.mk e.tid e.time e.seq w.now w.tm.counter],
+                             out := w.out ++ [Ev.fire e.tid w.now e.time e.seq] } : World) = w1
+  have hf1 : w1.tm.flag t = false := by subst hw1; exact hf
+  have hf2 := doActs_flag (w.body e.tid).acts (hg.1 e.tid).1 hf1
+  have hk1 := doActs_keepsQ w1 (w.body e.tid).acts (all_noPump (hg.1 e.tid).1)
+  have hk := deferAll_keeps (w1.doActs (w.body e.tid).acts) (w.body e.tid).defers
+  have hfl : (World.deferAll (w1.doActs (w.body e.tid).acts) (w.body e.tid).defers).tm.flag t = false := by
+    rw [hk.flag]; exact hf2
+  have hfi : ∀ f ∈ (World.deferAll (w1.doActs (w.body e.tid).acts) (w.body e.tid).defers).fired,
+      f.tid = t → f ∈ w.fired := by
+    intro f hf' ht
+    rw [hk.fired, hk1.fired, ← hw1] at hf'
+    rcases List.mem_append.mp hf' with h | h
+    · exact h
+    · simp at h; subst h; exact absurd ht he
+  generalize World.deferAll (w1.doActs (w.body e.tid).acts) (w.body e.tid).defers = w2 at *
+  split
+  · exact ⟨installRecurring_flag_other _ _ _ he hfl, hfi⟩
+  · exact ⟨hfl, hfi⟩
+
+theorem fireNext_quiet {t : Nat} {w : World} (h : WInv w) (hg : GoodW (calm t) w)
+    (hf : w.tm.flag t = false) : Quiet t w w.fireNext.1 := by
+  unfold World.fireNext
+  rcases hgn : w.tm.getNext w.now with ⟨e?, d, tm'⟩
+  cases e? with
+  | none =>
+    simp only
+    obtain ⟨rfl, _, _, _⟩ := getNext_none hgn
+    exact ⟨hf, fun f hf' _ => hf'⟩
+  | some e =>
+    simp only
+    obtain ⟨_, _, hmem, _, _⟩ := getNext_some h.sched hgn
+    have het : e.tid ≠ t := by
+      intro heq
+      have := (h.sched.flag_iff t).mpr ⟨e, hmem, heq⟩
+      rw [hf] at this; cases this
+    have hfl' : tm'.flag t = false := by
+      unfold TM.getNext at hgn
+      split at hgn
+      · simp at hgn
+      · split at hgn
+        · simp only [Prod.mk.injEq] at hgn
+          obtain ⟨_, _, rfl⟩ := hgn
+          simp only [upd]; split <;> simp [hf]
+        · simp at hgn
+    have := process_quiet (w := { w with tm := tm' }) (e := e) hg het hfl'
+    split
+    · exact this
+    · exact this
+
+theorem runOnceLoop_quiet {t : Nat} (fuel : Nat) {w : World} (h : WInv w) (hg : GoodW (calm t) w)
+    (hf : w.tm.flag t = false) : Quiet t w (w.runOnceLoop fuel).1 := by
+  induction fuel generalizing w with
+  | zero => exact ⟨hf, fun f hf' _ => hf'⟩
+  | succ n ih =>
+    unfold World.runOnceLoop
+    simp only
+    have q1 := fireNext_quiet h hg hf
+    have g1 := fireNext_good hg
+    have q2 := q1.trans (drain_quiet g1 q1.1)
+    have hw := drain_winv (fireNext_winv h)
+    split
+    · exact q2.trans (ih hw (drain_good g1) q2.1)
+    · exact q2
+
+theorem runLoop_quiet {t : Nat} (fuel T : Nat) {w : World} (h : WInv w) (hg : GoodW (calm t) w)
+    (hf : w.tm.flag t = false) : Quiet t w (w.runLoop fuel T).1 := by
+  induction fuel generalizing w with
+  | zero => exact ⟨hf, fun f hf' _ => hf'⟩
+  | succ n ih =>
+    unfold World.runLoop
+    simp only
+    have q1 := fireNext_quiet h hg hf
+    have g1 := fireNext_good hg
+    have h1 := fireNext_winv h
+    split
+    · exact ⟨hf, fun f hf' _ => hf'⟩
+    · split
+      · exact q1.trans (ih h1 g1 q1.1)
+      · split
+        · have hw := drain_winv (setTrig_winv false h1)
+          have q2 := drain_quiet (w := { w.fireNext.1 with tm := { w.fireNext.1.tm with trig := false } }) g1 q1.1
+          exact (q1.trans q2).trans (ih hw (drain_good (w := { w.fireNext.1 with tm := { w.fireNext.1.tm with trig := false } }) g1) q2.1)
+        · split
+          · have q2 := drain_quiet (w := { w.fireNext.1 with now := max w.fireNext.1.now T, running := false, tm := { w.fireNext.1.tm with trig := true } }) g1 q1.1
+            exact q1.trans q2
+          · have hw := drain_winv (setNow_winv (w.fireNext.1.now + w.fireNext.1.timeout w.fireNext.2.1) h1)
+            have q2 := drain_quiet (w := { w.fireNext.1 with now := w.fireNext.1.now + w.fireNext.1.timeout w.fireNext.2.1 }) g1 q1.1
+            exact (q1.trans q2).trans (ih hw (drain_good (w := { w.fireNext.1 with now := w.fireNext.1.now + w.fireNext.1.timeout w.fireNext.2.1 }) g1) q2.1)
+
+omit [Pump] hok in
+theorem api_quiet {t : Nat} {w : World} (r : TM × Option Raised) (hf : r.1.flag t = false) :
+    Quiet t w (w.api r) := by
+  unfold World.api
+  simp only
+  split
+  · exact ⟨hf, fun f hf' _ => hf'⟩
+  · exact ⟨hf, fun f hf' _ => hf'⟩
+
+theorem step_quiet {t : Nat} {w : World} (op : Op) (h : WInv w) (hg : GoodW (calm t) w)
+    (hf : w.tm.flag t = false) (ha : arms t op = false) : Quiet t w (w.step op).1 := by
+  cases op with
+  | installAt tid x => exact api_quiet _ (installTask_flag_other _ _ _ (by simpa [arms] using ha) hf)
+  | installAfter tid d => exact api_quiet _ (installTask_flag_other _ _ _ (by simpa [arms] using ha) hf)
+  | installBare tid => exact api_quiet _ (installTask_flag_other _ _ _ (by simpa [arms] using ha) hf)
+  | installRec tid iv off => exact api_quiet _ (installRecurring_flag_other _ _ _ (by simpa [arms] using ha) hf)
+  | suspend tid => exact ⟨suspend_flag_false tid hf, fun f hf' _ => hf'⟩
+  | resume tid => exact api_quiet _ (install_flag_other (by simpa [arms] using ha) hf)
+  | defer f => exact keeps_quiet (defer_keeps w f) hf
+  | tick d => exact ⟨hf, fun f hf' _ => hf'⟩
+  | next => exact fireNext_quiet h hg hf
+  | advOnce d fuel => exact runOnceLoop_quiet _ (w := { w with now := w.now + d }) (setNow_winv _ h) hg hf
+  | advRun d fuel =>
+    exact runLoop_quiet fuel (w.now + d) (w := { w with running := true }) (setRunning_winv true h) hg hf
+  | jumpRun fuel =>
+    exact runLoop_quiet fuel _ (w := { w with running := true }) (setRunning_winv true h) hg hf
+
+theorem run_quiet {t : Nat} {w : World} (ops : List Op) (h : WInv w) (hg : GoodW (calm t) w)
+    (hf : w.tm.flag t = false) (ha : ∀ op ∈ ops, arms t op = false ∧ goodOp (calm t) op = true) :
+    Quiet t w (w.run ops) := by
+  induction ops generalizing w with
+  | nil => exact ⟨hf, fun f hf' _ => hf'⟩
+  | cons op r ih =>
+    have q1 := step_quiet op h hg hf (ha op List.mem_cons_self).1
+    exact q1.trans (ih (step_winv op h) (step_good op hg (ha op List.mem_cons_self).2) q1.1
+      (fun o ho => ha o (List.mem_cons_of_mem _ ho)))
+
+omit [Pump] hok in
+/-- `suspend_task` leaves the task unflagged whenever the invariant holds
+    (found: cleared; not found: it was not flagged) -/
+theorem suspend_unflags {tm : TM} {fired : List Fire} (h : SInv tm fired) (t : Nat) :
+    (tm.suspend t).flag t = false := by
+  have h' := suspend_inv t h
+  have hno := suspend_no_tid t h
+  cases hfl : (tm.suspend t).flag t with
+  | false => rfl
+  | true =>
+    obtain ⟨e, he, het⟩ := (h'.flag_iff t).mp hfl
+    exact absurd het (hno e he)
+
+/-- **suspended_silent** — in any reachable state, suspend task `t`; whatever
+    happens afterwards (time passing, other tasks being installed, suspended,
+    fired, raising; task bodies and deferred functions installing, moving and
+    suspending tasks or stopping the loop), as long as nobody — no operation,
+    no task body, no deferred function at any depth (`GoodW (calm t)`,
+    `goodOp (calm t)`) — installs or resumes `t`, it does not fire: every
+    firing of `t` in the log was already there before. -/
+theorem suspended_silent {w : World} (hw : Fresh w) (before after : List Op) (t : Nat)
+    (hg : GoodW (calm t) w) (hb : ∀ op ∈ before, goodOp (calm t) op = true)
+    (ha : ∀ op ∈ after, arms t op = false ∧ goodOp (calm t) op = true) :
+    let v := w.run before
+    ∀ f ∈ ((v.step (.suspend t)).1.run after).fired, f.tid = t → f ∈ v.fired := by
+  intro v
+  have hv : WInv v := reachable_winv hw before
+  have hgv : GoodW (calm t) v := run_good before hg hb
+  have hs : WInv (v.step (.suspend t)).1 := step_winv _ hv
+  have hfl : (v.step (.suspend t)).1.tm.flag t = false := suspend_unflags hv.sched t
+  exact (run_quiet after hs hgv hfl ha).2
+
+/-- the same for a task that was never installed, or has fired and was not re-installed -/
+theorem unscheduled_silent {w : World} (hw : Fresh w) (before after : List Op) (t : Nat)
+    (hg : GoodW (calm t) w) (hb : ∀ op ∈ before, goodOp (calm t) op = true)
+    (hfl : (w.run before).tm.flag t = false)
+    (ha : ∀ op ∈ after, arms t op = false ∧ goodOp (calm t) op = true) :
+    ∀ f ∈ ((w.run before).run after).fired, f.tid = t → f ∈ (w.run before).fired :=
+  (run_quiet after (reachable_winv hw before) (run_good before hg hb) hfl ha).2
+/-! ## a pass leaves nothing behind: completeness of run_once and run
+
+  This is the "exactly once" half of `once_per_install` and the task half of the
+  isolation clause: whatever raised during the pass, when `run_once()` returns
+  (resp. when `run()` reaches virtual time `T`) no queued entry is due any more
+  and the deferred queue is empty.  Together with `install_fate` /
+  `pending_or_done`: an installation that was not deleted by suspend_task or
+  replaced by a re-install, and whose time has passed, HAS fired — once. -/
+
+/-- nothing in the heap is due at `w.now` -/
+def NoDue (w : World) : Prop := ∀ e ∈ w.tm.heap, w.now < e.time
+
+/-- number of due entries -/
+def dueCount (now : Nat) (h : List Entry) : Nat := h.countP (fun e => decide (e.time ≤ now))
+
+omit [Pump] hok in
+theorem getNext_delta {tm tm' : TM} {now : Nat} {e? : Option Entry} {d : Option Nat}
+    (hg : tm.getNext now = (e?, d, tm')) :
+    ∀ x ∈ tm'.heap, ∃ dd, d = some dd ∧ now + dd ≤ max x.time now ∧ (dd ≠ 0 → now < x.time) := by
+  unfold TM.getNext at hg
+  cases hp : popMin tm.heap with
+  | none =>
+    rw [hp] at hg; simp only [Prod.mk.injEq] at hg
+    obtain ⟨_, _, rfl⟩ := hg
+    rw [popMin_none.mp hp]; simp
+  | some p =>
+    obtain ⟨m, rest⟩ := p
+    rw [hp] at hg
+    obtain ⟨hperm, hmin⟩ := popMin_some hp
+    simp only at hg
+    split at hg
+    · simp only [Prod.mk.injEq] at hg
+      obtain ⟨_, rfl, rfl⟩ := hg
+      simp only
+      intro x hx
+      unfold peekMin
+      cases hp2 : popMin rest with
+      | none => rw [popMin_none.mp hp2] at hx; simp at hx
+      | some p2 =>
+        obtain ⟨e2, r2⟩ := p2
+        obtain ⟨hperm2, hmin2⟩ := popMin_some hp2
+        have hb : e2.time ≤ x.time := by
+          rcases List.mem_cons.mp (hperm2.mem_iff.mp hx) with rfl | hx'
+          · exact Nat.le_refl _
+          · have := hmin2 x hx'; unfold Entry.before at this; omega
+        refine ⟨e2.time - now, rfl, ?_, ?_⟩ <;> omega
+    · rename_i hdue
+      simp only [Prod.mk.injEq] at hg
+      obtain ⟨_, rfl, rfl⟩ := hg
+      intro x hx
+      have hb : m.time ≤ x.time := by
+        rcases List.mem_cons.mp (hperm.mem_iff.mp hx) with rfl | hx'
+        · exact Nat.le_refl _
+        · have := hmin x hx'; unfold Entry.before at this; omega
+      refine ⟨m.time - now, rfl, ?_, ?_⟩ <;> omega
+
+omit [Pump] hok in
+theorem timeout_le (w : World) (dd : Nat) : w.timeout (some dd) ≤ dd := by
+  unfold World.timeout; exact Nat.min_le_left _ _
+
+omit [Pump] hok in
+/-- `TaskManager.install_task` of an unflagged task only pushes -/
+theorem install_unflagged {tm : TM} {tid t : Nat} (ht : tm.ttime tid = some t) (hf : tm.flag tid = false) :
+    (tm.install tid).1.heap = ⟨t, tm.counter, tid⟩ :: tm.heap ∧ (tm.install tid).1.trig = true := by
+  unfold TM.install
+  rw [ht]
+  simp [hf]
+
+/-- `process_task` of a body that leaves the scheduler alone -/
+def processP (w : World) (e : Entry) : World × Bool :=
+  let b := w.body e.tid
+  let w := { w with fired := w.fired ++ [Fire.mk e.tid e.time e.seq w.now w.tm.counter],
+                    out := w.out ++ [Ev.fire e.tid w.now e.time e.seq] }
+  let w := w.deferAll b.defers
+  if w.recurring e.tid then
+    let r := w.tm.installRecurring w.now e.tid none none
+    ({ w with tm := r.1 }, b.raises || r.2.isSome)
+  else (w, b.raises)
+
+omit hok in
+theorem process_eq {w : World} {e : Entry} (ha : (w.body e.tid).acts = []) :
+    w.process e = processP w e := by
+  unfold World.process processP
+  simp only
+  rw [ha]
+  rfl
+
+/-- what `process_task` does to the heap of a just-popped (hence unflagged) task:
+    nothing, or — recurring task, valid interval — one new entry strictly in
+    the future, with the wake-up flag set -/
+theorem process_heap {w : World} {e : Entry} (ha : (w.body e.tid).acts = [])
+    (hf : w.tm.flag e.tid = false) :
+    (w.process e).1.now = w.now ∧ (w.process e).1.spin = w.spin ∧
+    ((w.process e).1.tm.heap = w.tm.heap ∨
+     ((w.process e).1.tm.trig = true ∧
+      ∃ t c, w.now < t ∧ (w.process e).1.tm.heap = ⟨t, c, e.tid⟩ :: w.tm.heap)) := by
+  rw [process_eq ha]
+  unfold processP
+  simp only
+  generalize hw1 : ({ w with fired := w.fired ++ [Fire.mk e.tid e.time e.seq w.now w.tm.counter],
+                             out := w.out ++ [Ev.fire e.tid w.now e.time e.seq] } : World) = w1
+  have hk := deferAll_keeps w1 (w.body e.tid).defers
+  have hheap : (w1.deferAll (w.body e.tid).defers).tm.heap = w.tm.heap := by rw [hk.heap, ← hw1]
+  have hflag : (w1.deferAll (w.body e.tid).defers).tm.flag e.tid = false := by rw [hk.flag, ← hw1]; exact hf
+  have hnow : (w1.deferAll (w.body e.tid).defers).now = w.now := by rw [hk.now, ← hw1]
+  have hspin : (w1.deferAll (w.body e.tid).defers).spin = w.spin := by rw [hk.spin, ← hw1]
+  generalize w1.deferAll (w.body e.tid).defers = w2 at *
+  split
+  · refine ⟨hnow, hspin, ?_⟩
+    simp only
+    unfold TM.installRecurring
+    have hset : w2.tm.setRecurring e.tid none none = w2.tm := rfl
+    simp only [hset]
+    split
+    · exact Or.inl hheap
+    · split
+      · exact Or.inl hheap
+      · rename_i iv _ hiv
+        right
+        generalize ht0 : (slotAfter (w2.now + w2.tm.jitter) iv (w2.tm.offsetOf e.tid)).toNat = t0
+        have := install_unflagged (tm := { w2.tm with ttime := upd w2.tm.ttime e.tid (some t0) })
+          (tid := e.tid) (t := t0) (by simp [upd]) hflag
+        refine ⟨this.2, t0, _, ?_, by rw [this.1, hheap]⟩
+        have hgt := slotAfter_gt (w2.now + w2.tm.jitter) iv (w2.tm.offsetOf e.tid) (by omega)
+        rw [← hnow, ← ht0]
+        omega
+  · exact ⟨hnow, hspin, Or.inl hheap⟩
+
+theorem process_running {w : World} {e : Entry} (ha : (w.body e.tid).acts = []) :
+    (w.process e).1.running = w.running := by
+  rw [process_eq ha]
+  unfold processP
+  simp only
+  have hk := deferAll_keeps ({ w with fired := w.fired ++ [Fire.mk e.tid e.time e.seq w.now w.tm.counter],
+                                      out := w.out ++ [Ev.fire e.tid w.now e.time e.seq] } : World) (w.body e.tid).defers
+  split <;> exact hk.running
+
+/-- bodies that leave the scheduler alone do not stop the loop -/
+theorem fireNext_running {w : World} (hp : Passive w) : w.fireNext.1.running = w.running := by
+  unfold World.fireNext
+  rcases w.tm.getNext w.now with ⟨e?, d, tm'⟩
+  cases e? with
+  | none => rfl
+  | some e =>
+    simp only
+    have := process_running (w := { w with tm := tm' }) (e := e) (hp.body_acts e.tid)
+    split
+    · exact this
+    · exact this
+
+omit [Pump] hok in
+theorem emit_same (w : World) (e : Ev) : (w.emit e).tm = w.tm ∧ (w.emit e).now = w.now ∧
+    (w.emit e).spin = w.spin ∧ (w.emit e).queue = w.queue := ⟨rfl, rfl, rfl, rfl⟩
+
+/-- everything the two loops need to know about one `get_next_task` +
+    `process_task` -/
+theorem fireNext_spec {w : World} (h : WInv w) (hp : Passive w) :
+    w.fireNext.1.now = w.now ∧ w.fireNext.1.spin = w.spin ∧
+    -- run_once: it continues only while something was popped and the next head is due
+    (w.fireNext.2.1 ≠ some 0 → NoDue w.fireNext.1) ∧
+    (w.fireNext.2.1 = some 0 → dueCount w.now w.fireNext.1.tm.heap + 1 = dueCount w.now w.tm.heap) ∧
+    -- run: if nothing raised and nobody set the wake-up flag, `delta` is still right
+    (w.fireNext.1.tm.trig = false →
+      ∀ x ∈ w.fireNext.1.tm.heap, w.now + w.timeout w.fireNext.2.1 ≤ max x.time w.now) := by
+  unfold World.fireNext
+  rcases hg : w.tm.getNext w.now with ⟨e?, d, tm'⟩
+  have hdelta := getNext_delta hg
+  cases e? with
+  | none =>
+    simp only
+    obtain ⟨rfl, hnd, hdn, hd0⟩ := getNext_none hg
+    refine ⟨by simp, by simp, fun _ => hnd, ?_, ?_⟩
+    · intro hd
+      -- delta = some 0 is impossible when nothing is due
+      exact absurd hd hd0
+    · intro _ x hx
+      obtain ⟨dd, hdd, h1, _⟩ := hdelta x hx
+      rw [hdd]; have := timeout_le w dd; omega
+  | some e =>
+    simp only
+    obtain ⟨_, hdue, hmem, hperm, hmin⟩ := getNext_some h.sched hg
+    have hfl : tm'.flag e.tid = false := by
+      unfold TM.getNext at hg
+      split at hg
+      · simp at hg
+      · split at hg
+        · simp only [Prod.mk.injEq, Option.some.injEq] at hg
+          obtain ⟨rfl, _, rfl⟩ := hg
+          simp [upd]
+        · simp at hg
+    obtain ⟨hnow, hspin, hheap⟩ := process_heap (w := { w with tm := tm' }) (e := e) (hp.body_acts e.tid) hfl
+    -- the result, with or without the logged exception
+    have key : ∀ v : World, v.tm = (World.process { w with tm := tm' } e).1.tm →
+        v.now = (World.process { w with tm := tm' } e).1.now →
+        v.spin = (World.process { w with tm := tm' } e).1.spin →
+        v.now = w.now ∧ v.spin = w.spin ∧ (d ≠ some 0 → NoDue v) ∧
+        (d = some 0 → dueCount w.now v.tm.heap + 1 = dueCount w.now w.tm.heap) ∧
+        (v.tm.trig = false → ∀ x ∈ v.tm.heap, w.now + w.timeout d ≤ max x.time w.now) := by
+      intro v hvtm hvnow hvspin
+      have hcount : dueCount w.now tm'.heap + 1 = dueCount w.now w.tm.heap := by
+        unfold dueCount
+        rw [hperm.countP_eq, List.countP_cons]
+        simp [hdue]
+      refine ⟨by rw [hvnow, hnow], by rw [hvspin, hspin], ?_, ?_, ?_⟩
+      · intro hd x hx
+        rw [hvnow, hnow]
+        have hrest : ∀ y ∈ tm'.heap, w.now < y.time := by
+          intro y hy
+          obtain ⟨dd, hdd, _, h2⟩ := hdelta y hy
+          apply h2; intro h0; rw [hdd, h0] at hd; exact hd rfl
+        rw [hvtm] at hx
+        rcases hheap with hh | ⟨_, t, c, ht, hh⟩
+        · rw [hh] at hx; exact hrest x hx
+        · rw [hh] at hx
+          rcases List.mem_cons.mp hx with rfl | hx'
+          · exact ht
+          · exact hrest x hx'
+      · intro _
+        rw [hvtm]
+        rcases hheap with hh | ⟨_, t, c, ht, hh⟩
+        · rw [hh]; exact hcount
+        · rw [hh]
+          have : dueCount w.now (⟨t, c, e.tid⟩ :: tm'.heap) = dueCount w.now tm'.heap := by
+            unfold dueCount
+            rw [List.countP_cons]
+            have : ¬ t ≤ w.now := by simp at ht; omega
+            simp [this]
+          simp only at this ⊢
+          rw [this]; exact hcount
+      · intro htrig x hx
+        rw [hvtm] at htrig hx
+        rcases hheap with hh | ⟨htr, _⟩
+        · rw [hh] at hx
+          obtain ⟨dd, hdd, h1, _⟩ := hdelta x hx
+          rw [hdd]; have := timeout_le w dd; omega
+        · rw [htr] at htrig; cases htrig
+    split
+    · exact key _ rfl rfl rfl
+    · exact key _ rfl rfl rfl
+
+theorem drain_same (w : World) (hp : Passive w) :
+    w.drain.tm.heap = w.tm.heap ∧ w.drain.now = w.now ∧ w.drain.spin = w.spin ∧ w.drain.running = w.running :=
+  ⟨(drain_keeps w hp.2).heap, (drain_keeps w hp.2).now, (drain_keeps w hp.2).spin, (drain_keeps w hp.2).running⟩
+
+/-- the `while delta == 0.0` loop with enough fuel runs to completion -/
+theorem runOnceLoop_complete (fuel : Nat) {w : World} (h : WInv w) (hp : Passive w)
+    (hfuel : dueCount w.now w.tm.heap < fuel) :
+    (w.runOnceLoop fuel).2 = true ∧ NoDue (w.runOnceLoop fuel).1 ∧ (w.runOnceLoop fuel).1.queue = [] ∧
+    (w.runOnceLoop fuel).1.now = w.now := by
+  induction fuel generalizing w with
+  | zero => omega
+  | succ n ih =>
+    unfold World.runOnceLoop
+    simp only
+    obtain ⟨hnow, _, hnd, hcnt, _⟩ := fireNext_spec h hp
+    have hp1 := fireNext_good hp
+    obtain ⟨dh, dn, _⟩ := drain_same w.fireNext.1 hp1
+    split
+    · rename_i hd
+      have hw := drain_winv (fireNext_winv h)
+      have := ih hw (drain_good hp1) (by rw [dh, dn, hnow]; have := hcnt hd; omega)
+      exact ⟨this.1, this.2.1, this.2.2.1, by rw [this.2.2.2, dn, hnow]⟩
+    · rename_i hd
+      refine ⟨rfl, ?_, drain_queue_empty _ (goodAll_noPump hp1.2), by rw [dn, hnow]⟩
+      intro e he
+      rw [dh] at he; rw [dn]
+      exact hnd hd e he
+
+omit [Pump] hok in
+theorem dueCount_le_length (now : Nat) (h : List Entry) : dueCount now h ≤ h.length :=
+  List.countP_le_length
+
+/-- **run_once is complete** when the scripted code leaves the scheduler alone:
+    one iteration per heap entry, plus one, is enough fuel; on return nothing
+    queued is due and nothing is left in the deferred queue — whichever tasks or
+    deferred functions raised -/
+theorem runOnce_complete {w : World} (h : WInv w) (hp : Passive w) (fuel : Nat)
+    (hfuel : w.tm.heap.length < fuel) :
+    (w.runOnce fuel).2 = true ∧ NoDue (w.runOnce fuel).1 ∧ (w.runOnce fuel).1.queue = [] ∧
+    (w.runOnce fuel).1.now = w.now := by
+  unfold World.runOnce
+  exact runOnceLoop_complete _ h hp (by have := dueCount_le_length w.now w.tm.heap; omega)
+
+omit hok in
+theorem runLoop_stopped {w : World} (n T : Nat) (hr : w.running = false) :
+    w.runLoop (n + 1) T = (w, 2) := by
+  rw [World.runLoop]; simp [hr]
+
+omit hok in
+theorem runLoop_raised {w : World} (n T : Nat) (hrun : w.running = true) (hr : w.fireNext.2.2 = true) :
+    w.runLoop (n + 1) T = w.fireNext.1.runLoop n T := by
+  rw [World.runLoop]; simp [hrun, hr]
+
+omit hok in
+theorem runLoop_trig {w : World} (n T : Nat) (hrun : w.running = true) (hr : w.fireNext.2.2 = false)
+    (ht : w.fireNext.1.tm.trig = true) :
+    w.runLoop (n + 1) T =
+      World.runLoop n T ({ w.fireNext.1 with tm := { w.fireNext.1.tm with trig := false } } : World).drain := by
+  rw [World.runLoop]; simp [hrun, hr, ht]
+
+omit hok in
+theorem runLoop_stop {w : World} (n T : Nat) (hrun : w.running = true) (hr : w.fireNext.2.2 = false)
+    (ht : w.fireNext.1.tm.trig = false)
+    (hgt : w.fireNext.1.now + w.fireNext.1.timeout w.fireNext.2.1 > T) :
+    w.runLoop (n + 1) T =
+      (({ w.fireNext.1 with now := max w.fireNext.1.now T, running := false,
+                            tm := { w.fireNext.1.tm with trig := true } } : World).drain, 1) := by
+  rw [World.runLoop]; simp [hrun, hr, ht, hgt]
+
+omit hok in
+theorem runLoop_wait {w : World} (n T : Nat) (hrun : w.running = true) (hr : w.fireNext.2.2 = false)
+    (ht : w.fireNext.1.tm.trig = false)
+    (hgt : ¬ w.fireNext.1.now + w.fireNext.1.timeout w.fireNext.2.1 > T) :
+    w.runLoop (n + 1) T =
+      World.runLoop n T ({ w.fireNext.1 with now := w.fireNext.1.now + w.fireNext.1.timeout w.fireNext.2.1 } : World).drain := by
+  rw [World.runLoop]; simp only [hrun, hr, ht, hgt]; simp
+
+/-- **run is complete** when the scripted code leaves the scheduler alone: the
+    loop is never stopped from inside (result code 2 does not occur), and if it
+    reaches the stub's `stop()` (result code 1) the clock is at `T`, nothing
+    queued is due at `T` and the deferred queue is empty — whichever tasks or
+    deferred functions raised -/
+theorem runLoop_complete (fuel T : Nat) {w : World} (h : WInv w) (hp : Passive w)
+    (hrun : w.running = true) (hT : w.now ≤ T) (hdone : (w.runLoop fuel T).2 ≠ 0) :
+    (w.runLoop fuel T).2 = 1 ∧
+    (w.runLoop fuel T).1.now = T ∧ NoDue (w.runLoop fuel T).1 ∧ (w.runLoop fuel T).1.queue = [] := by
+  induction fuel generalizing w with
+  | zero => simp [World.runLoop] at hdone
+  | succ n ih =>
+    obtain ⟨hnow, hspin, _, _, htrig⟩ := fireNext_spec h hp
+    have h1 := fireNext_winv h
+    have hp1 := fireNext_good hp
+    have hrun1 : w.fireNext.1.running = true := by rw [fireNext_running hp]; exact hrun
+    by_cases hr : w.fireNext.2.2 = true
+    · rw [runLoop_raised n T hrun hr] at hdone ⊢
+      exact ih h1 hp1 hrun1 (by rw [hnow]; exact hT) hdone
+    · have hr' : w.fireNext.2.2 = false := by simpa using hr
+      by_cases htr : w.fireNext.1.tm.trig = true
+      · rw [runLoop_trig n T hrun hr' htr] at hdone ⊢
+        have hw := drain_winv (setTrig_winv false h1)
+        have hp2 : Passive ({ w.fireNext.1 with tm := { w.fireNext.1.tm with trig := false } } : World) := hp1
+        obtain ⟨_, dn, _, dr⟩ := drain_same _ hp2
+        exact ih hw (drain_good hp2) (by rw [dr]; exact hrun1) (by rw [dn]; simp only; rw [hnow]; exact hT) hdone
+      · have htr' : w.fireNext.1.tm.trig = false := by simpa using htr
+        by_cases hgt : w.fireNext.1.now + w.fireNext.1.timeout w.fireNext.2.1 > T
+        · rw [runLoop_stop n T hrun hr' htr' hgt]
+          have hp2 : Passive ({ w.fireNext.1 with now := max w.fireNext.1.now T, running := false, tm := { w.fireNext.1.tm with trig := true } } : World) := hp1
+          obtain ⟨dh, dn, _, _⟩ := drain_same _ hp2
+          refine ⟨rfl, ?_, ?_, drain_queue_empty _ (goodAll_noPump hp2.2)⟩
+          · simp only; rw [dn]; simp only; rw [hnow]; omega
+          · intro e he
+            simp only at he ⊢
+            rw [dh] at he; rw [dn]
+            simp only at he ⊢
+            have := htrig htr' e he
+            have hto : w.fireNext.1.timeout w.fireNext.2.1 = w.timeout w.fireNext.2.1 := by
+              unfold World.timeout; rw [hspin]
+            rw [hnow, hto] at hgt
+            rw [hnow]; omega
+        · rw [runLoop_wait n T hrun hr' htr' hgt] at hdone ⊢
+          have hw := drain_winv (setNow_winv (w.fireNext.1.now + w.fireNext.1.timeout w.fireNext.2.1) h1)
+          have hp2 : Passive ({ w.fireNext.1 with now := w.fireNext.1.now + w.fireNext.1.timeout w.fireNext.2.1 } : World) := hp1
+          obtain ⟨_, dn, _, dr⟩ := drain_same _ hp2
+          exact ih hw (drain_good hp2) (by rw [dr]; exact hrun1) (by rw [dn]; simp only; omega) hdone
+/-! ## deferred functions: the call sequence does not depend on who raises -/
+
+/-- breadth-first ids of a submission forest — defined without looking at `raises` -/
+def bfs : Nat → List Fn → List Nat
+  | 0, _ => []
+  | fuel + 1, q =>
+    match q with
+    | [] => []
+    | _ => q.map Fn.id ++ bfs fuel (q.flatMap Fn.kids)
+
+omit [Pump] hok in
+theorem deferAll_calls (w : World) (fs : List Fn) :
+    (w.deferAll fs).calls = w.calls ∧ (w.deferAll fs).failed = w.failed := by
+  unfold World.deferAll
+  induction fs generalizing w with
+  | nil => exact ⟨rfl, rfl⟩
+  | cons f r ih => simp only [List.foldl_cons]; exact ih (w.defer f)
+
+theorem callFn_calls (w : World) (f : Fn) (hf : f.acts.all noPump = true) :
+    (w.callFn f).calls = w.calls ++ [f.id] ∧
+    (w.callFn f).failed = w.failed ++ (if f.raises then [f.id] else []) := by
+  unfold World.callFn
+  simp only
+  have hk := doActs_keepsQ ({ w with calls := w.calls ++ [f.id], out := w.out ++ [Ev.call f.id] } : World) f.acts hf
+  split <;> simp [deferAll_calls, hk.calls, hk.failed, *]
+
+theorem runBatch_calls (w : World) (b : List Fn) (hb : goodAll noPump b = true) :
+    (w.runBatch b).calls = w.calls ++ b.map Fn.id ∧
+    (w.runBatch b).queue = w.queue ++ b.flatMap Fn.kids ∧
+    (w.runBatch b).failed = w.failed ++ (b.filter Fn.raises).map Fn.id := by
+  unfold World.runBatch
+  induction b generalizing w with
+  | nil => simp
+  | cons f r ih =>
+    obtain ⟨hf, hr⟩ := goodAll_cons hb
+    have hfa := (goodFn_acts hf).1
+    simp only [List.foldl_cons]
+    obtain ⟨h1, h2, h3⟩ := ih (w.callFn f) hr
+    rw [h1, h2, h3, (callFn_calls w f hfa).1, (callFn_calls w f hfa).2, callFn_queue w f hfa]
+    refine ⟨by simp, by simp, ?_⟩
+    cases hr : f.raises <;> simp [hr]
+
+/-- **deferred_isolated** (one batch): every member of the batch is called, in
+    order, and exactly the raising ones are logged — a raising member does not
+    cut the batch short (members may do anything but pump the loop) -/
+theorem batch_isolated (w : World) (b : List Fn) (hb : goodAll noPump b = true) :
+    (w.runBatch b).calls = w.calls ++ b.map Fn.id ∧
+    (w.runBatch b).failed = w.failed ++ (b.filter Fn.raises).map Fn.id :=
+  ⟨(runBatch_calls w b hb).1, (runBatch_calls w b hb).2.2⟩
+
+theorem drainFuel_calls (fuel : Nat) (w : World) (hg : goodAll noPump w.queue = true) :
+    (w.drainFuel fuel).calls = w.calls ++ bfs fuel w.queue := by
+  induction fuel generalizing w with
+  | zero => simp [World.drainFuel, bfs]
+  | succ n ih =>
+    unfold World.drainFuel bfs
+    cases hq : w.queue with
+    | nil => simp
+    | cons f r =>
+      simp only
+      rw [hq] at hg
+      rw [ih _ (runBatch_qgood (pa := noPump) (w := { w with queue := [] }) (f :: r) hg rfl)]
+      obtain ⟨h1, h2, _⟩ := runBatch_calls { w with queue := [] } (f :: r) hg
+      rw [h1, h2]
+      simp
+
+/-- the calls made by the drain loop are the breadth-first ids of the queue:
+    a function of the submission forest alone -/
+theorem drain_calls (w : World) (hg : goodAll noPump w.queue = true) :
+    w.drain.calls = w.calls ++ bfs (weights w.queue) w.queue :=
+  drainFuel_calls _ w hg
+
+mutual
+  /-- the same function, not raising -/
+  def stripFn : Fn → Fn
+    | .mk i _ kids acts => .mk i false (stripAll kids) acts
+  def stripAll : List Fn → List Fn
+    | [] => []
+    | f :: r => stripFn f :: stripAll r
+end
+
+omit [Pump] hok in
+theorem stripAll_append (a b : List Fn) : stripAll (a ++ b) = stripAll a ++ stripAll b := by
+  induction a with
+  | nil => simp [stripAll]
+  | cons f r ih => simp [stripAll, ih]
+
+omit [Pump] hok in
+theorem strip_id (f : Fn) : (stripFn f).id = f.id := by cases f; simp [stripFn, Fn.id]
+omit [Pump] hok in
+theorem strip_kids (f : Fn) : (stripFn f).kids = stripAll f.kids := by cases f; simp [stripFn, Fn.kids]
+
+theorem stripAll_ids (q : List Fn) : (stripAll q).map Fn.id = q.map Fn.id := by
+  induction q with
+  | nil => simp [stripAll]
+  | cons f r ih => simp [stripAll, ih, strip_id]
+
+theorem stripAll_kids (q : List Fn) : (stripAll q).flatMap Fn.kids = stripAll (q.flatMap Fn.kids) := by
+  induction q with
+  | nil => simp [stripAll]
+  | cons f r ih => simp [stripAll, ih, strip_kids, stripAll_append]
+
+omit [Pump] hok in
+theorem stripAll_nil {q : List Fn} : stripAll q = [] ↔ q = [] := by
+  cases q <;> simp [stripAll]
+
+mutual
+  theorem strip_weight : ∀ f : Fn, (stripFn f).weight = f.weight
+    | .mk i r kids acts => by simp [stripFn, Fn.weight, stripAll_weights kids]
+  theorem stripAll_weights : ∀ q : List Fn, weights (stripAll q) = weights q
+    | [] => by simp [stripAll]
+    | f :: r => by simp [stripAll, weights, strip_weight f, stripAll_weights r]
+end
+
+theorem bfs_strip (fuel : Nat) (q : List Fn) : bfs fuel (stripAll q) = bfs fuel q := by
+  induction fuel generalizing q with
+  | zero => simp [bfs]
+  | succ n ih =>
+    unfold bfs
+    cases q with
+    | nil => simp [stripAll]
+    | cons f r =>
+      have : stripAll (f :: r) = stripFn f :: stripAll r := by simp [stripAll]
+      rw [this]
+      simp only
+      rw [← this, stripAll_ids, stripAll_kids, ih]
+
+mutual
+  theorem strip_good (pa : Act → Bool) : ∀ f : Fn, goodFn pa (stripFn f) = goodFn pa f
+    | .mk i r kids acts => by simp [stripFn, goodFn, stripAll_good pa kids]
+  theorem stripAll_good (pa : Act → Bool) : ∀ q : List Fn, goodAll pa (stripAll q) = goodAll pa q
+    | [] => by simp [stripAll]
+    | f :: r => by simp [stripAll, goodAll, strip_good pa f, stripAll_good pa r]
+end
+
+/-- **deferred_isolated** — for EVERY choice of raising members (at any depth
+    of deferral) the drain loop makes exactly the calls it makes when nobody
+    raises, in the same order (functions may do anything but pump the loop) -/
+theorem deferred_isolated (w : World) (hg : goodAll noPump w.queue = true) :
+    w.drain.calls = ({ w with queue := stripAll w.queue } : World).drain.calls := by
+  rw [drain_calls w hg, drain_calls _ (by simp only; rw [stripAll_good]; exact hg)]
+  simp only
+  rw [stripAll_weights, bfs_strip]
+
+/-! ## the exactly-once clauses after a complete pass
+
+  Hypothesis of this section: the scripted code leaves the scheduler alone
+  (`Passive`, and `goodOp noAct` for the functions deferred by the history).
+  For bodies that install tasks themselves the statements are false of the
+  code as it stands — `run_once` decides whether to go round again before the
+  body runs, so a task installed for "now" by the last body of a pass waits
+  for the next pass — and the harness oracle checks the weaker form (what was
+  pending and due at the start of the pass has fired). -/
+
+/-- after `clock += d; run_once()` in any reachable state: the pass completes,
+    nothing queued is due, the deferred queue is empty and every function ever
+    submitted has been called exactly once in submission order -/
+theorem advOnce_complete {w : World} (hw : Fresh w) (hp : Passive w) (ops : List Op)
+    (hops : ∀ op ∈ ops, goodOp noAct op = true) (d fuel : Nat)
+    (hfuel : (w.run ops).tm.heap.length < fuel) :
+    let v := ((w.run ops).step (.advOnce d fuel))
+    v.2 = some 1 ∧ NoDue v.1 ∧ v.1.queue = [] ∧ v.1.calls = v.1.subs := by
+  intro v
+  have h0 : WInv ({ w.run ops with now := (w.run ops).now + d } : World) := setNow_winv _ (reachable_winv hw ops)
+  have hp0 : Passive ({ w.run ops with now := (w.run ops).now + d } : World) := run_good ops hp hops
+  obtain ⟨h1, h2, h3, _⟩ := runOnce_complete h0 hp0 fuel hfuel
+  have hf : DInv v.1 := step_fifo _ (GoodW.noPump (run_good ops hp hops))
+    (run_fifo ops hp.noPump (fun o ho => goodOp_mono noPumpP_noAct.out (hops o ho))
+      (by obtain ⟨_, _, _, _, _, h6, h7, h8⟩ := hw; unfold DInv; simp [h6, h7, h8]))
+  unfold DInv at hf
+  refine ⟨?_, h2, h3, ?_⟩
+  · show some (if (World.runOnce _ fuel).2 then 1 else 0) = some 1
+    rw [h1]; rfl
+  · have h3' : v.1.queue = [] := h3
+    rw [hf, h3']; simp
+
+/-- the same for `run()` until `now + d`, provided the fuel did not run out:
+    the loop was stopped by the stub at `now + d` (never from inside) -/
+theorem advRun_complete {w : World} (hw : Fresh w) (hp : Passive w) (ops : List Op)
+    (hops : ∀ op ∈ ops, goodOp noAct op = true) (d fuel : Nat)
+    (hdone : ((w.run ops).step (.advRun d fuel)).2 ≠ some 0) :
+    let v := ((w.run ops).step (.advRun d fuel))
+    v.2 = some 1 ∧ v.1.now = (w.run ops).now + d ∧ NoDue v.1 ∧ v.1.queue = [] ∧ v.1.calls = v.1.subs := by
+  intro v
+  have h0 : WInv ({ w.run ops with running := true } : World) := setRunning_winv true (reachable_winv hw ops)
+  have hp0 : Passive ({ w.run ops with running := true } : World) := run_good ops hp hops
+  have hd : (({ w.run ops with running := true } : World).runLoop fuel ((w.run ops).now + d)).2 ≠ 0 := by
+    intro h; apply hdone
+    show some (({ w.run ops with running := true } : World).runLoop fuel ((w.run ops).now + d)).2 = some 0
+    rw [h]
+  obtain ⟨h1, h2, h3, h4⟩ := runLoop_complete fuel _ h0 hp0 rfl (Nat.le_add_right _ _) hd
+  have hf : DInv v.1 := step_fifo _ (GoodW.noPump (run_good ops hp hops))
+    (run_fifo ops hp.noPump (fun o ho => goodOp_mono noPumpP_noAct.out (hops o ho))
+      (by obtain ⟨_, _, _, _, _, h6, h7, h8⟩ := hw; unfold DInv; simp [h6, h7, h8]))
+  unfold DInv at hf
+  refine ⟨?_, h2, h3, h4, ?_⟩
+  · show some (({ w.run ops with running := true } : World).runLoop fuel ((w.run ops).now + d)).2 = some 1
+    rw [h1]
+  · have h4' : v.1.queue = [] := h4
+    rw [hf, h4']; simp
+
+/-- **once_per_install** (exactly once): after a complete pass, every
+    installation ever made has either fired (once: `once_per_install`), or was
+    deleted by suspend_task / replaced by a re-install, or is queued for a time
+    that has not come yet -/
+theorem fires_exactly_once {w : World} (hw : Fresh w) (hp : Passive w) (ops : List Op)
+    (hops : ∀ op ∈ ops, goodOp noAct op = true) (d fuel : Nat)
+    (hfuel : (w.run ops).tm.heap.length < fuel) (s : Nat) :
+    let v := ((w.run ops).step (.advOnce d fuel)).1
+    s < v.tm.counter →
+      s ∈ v.fired.map (·.seq) ∨ s ∈ v.tm.removed ∨ ∃ e ∈ v.tm.heap, e.seq = s ∧ v.now < e.time := by
+  intro v hs
+  have hv : WInv v := step_winv _ (reachable_winv hw ops)
+  have hnd : NoDue v := (advOnce_complete hw hp ops hops d fuel hfuel).2.1
+  have := hv.sched.part.mem_iff.mpr (List.mem_range.mpr hs)
+  simp only [List.mem_append] at this
+  rcases this with (h | h) | h
+  · obtain ⟨e, he, rfl⟩ := List.mem_map.mp h
+    exact Or.inr (Or.inr ⟨e, he, rfl, hnd e he⟩)
+  · exact Or.inl h
+  · exact Or.inr (Or.inl h)
+
+/-! ## one pass of run_once fires in sorted order
+
+  The plain reading of the first clause: the firings of a single `run_once()`
+  pass — whatever the history before it — are strictly sorted by
+  `(due time, installation number)`, all at the time of the pass. -/
+
+/-- everything installed since the counter was `c0` lies in the future -/
+def Late (c0 : Nat) (w : World) : Prop := ∀ e ∈ w.tm.heap, c0 ≤ e.seq → w.now < e.time
+
+/-- the firings appended since `w` all belong to installations older than `c0`,
+    were made with the counter at `c0` or later, at time `t` -/
+def NewFires (c0 t : Nat) (w w' : World) : Prop :=
+  ∃ new, w'.fired = w.fired ++ new ∧ ∀ f ∈ new, f.seq < c0 ∧ c0 ≤ f.ctr ∧ f.now = t
+
+omit [Pump] hok in
+theorem NewFires.refl (c0 t : Nat) (w : World) : NewFires c0 t w w := ⟨[], by simp, by simp⟩
+
+omit [Pump] hok in
+theorem NewFires.trans {c0 t : Nat} {a b c : World} (h1 : NewFires c0 t a b) (h2 : NewFires c0 t b c) :
+    NewFires c0 t a c := by
+  obtain ⟨n1, e1, p1⟩ := h1
+  obtain ⟨n2, e2, p2⟩ := h2
+  refine ⟨n1 ++ n2, by rw [e2, e1, List.append_assoc], ?_⟩
+  intro f hf
+  rcases List.mem_append.mp hf with h | h
+  · exact p1 f h
+  · exact p2 f h
+
+omit hok in
+theorem keeps_newFires {c0 t : Nat} {w w' : World} (hk : Keeps w w') : NewFires c0 t w w' :=
+  ⟨[], by rw [hk.fired]; simp, by simp⟩
+
+theorem process_fired (w : World) (e : Entry) (ha : (w.body e.tid).acts.all noPump = true) :
+    (w.process e).1.fired = w.fired ++ [⟨e.tid, e.time, e.seq, w.now, w.tm.counter⟩] := by
+  unfold World.process
+  simp only
+  generalize hw1 : ({ w with fired := w.fired ++ [Fire.mk e.tid e.time e.seq w.now w.tm.counter],
+                             out := w.out ++ [Ev.fire e.tid w.now e.time e.seq] } : World) = w1
+  have hk1 := doActs_keepsQ w1 (w.body e.tid).acts ha
+  have hk := deferAll_keeps (w1.doActs (w.body e.tid).acts) (w.body e.tid).defers
+  have : (World.deferAll (w1.doActs (w.body e.tid).acts) (w.body e.tid).defers).fired
+      = w.fired ++ [⟨e.tid, e.time, e.seq, w.now, w.tm.counter⟩] := by
+    rw [hk.fired, hk1.fired, ← hw1]
+  split <;> exact this
+
+omit [Pump] hok in
+theorem getNext_counter {tm tm' : TM} {now : Nat} {e? : Option Entry} {d : Option Nat}
+    (hg : tm.getNext now = (e?, d, tm')) : tm'.counter = tm.counter := by
+  unfold TM.getNext at hg
+  split at hg
+  · simp only [Prod.mk.injEq] at hg; obtain ⟨_, _, rfl⟩ := hg; rfl
+  · split at hg
+    · simp only [Prod.mk.injEq] at hg; obtain ⟨_, _, rfl⟩ := hg; rfl
+    · simp only [Prod.mk.injEq] at hg; obtain ⟨_, _, rfl⟩ := hg; rfl
+
+theorem fireNext_late {c0 : Nat} {w : World} (h : WInv w) (hp : Passive w) (hl : Late c0 w)
+    (hc : c0 ≤ w.tm.counter) :
+    Late c0 w.fireNext.1 ∧ NewFires c0 w.now w w.fireNext.1 ∧ c0 ≤ w.fireNext.1.tm.counter := by
+  have hw' := fireNext_winv h
+  obtain ⟨hnow, _, _, _, _⟩ := fireNext_spec h hp
+  unfold World.fireNext at hw' hnow ⊢
+  rcases hg : w.tm.getNext w.now with ⟨e?, d, tm'⟩
+  rw [hg] at hw' hnow
+  cases e? with
+  | none =>
+    simp only at hw' hnow ⊢
+    obtain ⟨rfl, _, _, _⟩ := getNext_none hg
+    exact ⟨hl, NewFires.refl _ _ _, hc⟩
+  | some e =>
+    simp only at hw' hnow ⊢
+    obtain ⟨_, hdue, hmem, hperm, _⟩ := getNext_some h.sched hg
+    have hctr := getNext_counter hg
+    have hseq : e.seq < c0 := by
+      rcases Nat.lt_or_ge e.seq c0 with h1 | h1
+      · exact h1
+      · have := hl e hmem h1; omega
+    have hfl : tm'.flag e.tid = false := by
+      unfold TM.getNext at hg
+      split at hg
+      · simp at hg
+      · split at hg
+        · simp only [Prod.mk.injEq, Option.some.injEq] at hg
+          obtain ⟨rfl, _, rfl⟩ := hg
+          simp [upd]
+        · simp at hg
+    obtain ⟨_, _, hheap⟩ := process_heap (w := { w with tm := tm' }) (e := e) (hp.body_acts e.tid) hfl
+    have hfired := process_fired { w with tm := tm' } e (by rw [hp.body_acts e.tid]; rfl)
+    have key : ∀ v : World, v.tm = (World.process { w with tm := tm' } e).1.tm →
+        v.fired = (World.process { w with tm := tm' } e).1.fired → v.now = w.now → WInv v →
+        Late c0 v ∧ NewFires c0 w.now w v ∧ c0 ≤ v.tm.counter := by
+      intro v hvtm hvf hvnow hwv
+      have hcv : c0 ≤ v.tm.counter := by
+        -- the counter never decreases: the new firing record carries it
+        have hmemf : (⟨e.tid, e.time, e.seq, w.now, tm'.counter⟩ : Fire) ∈ v.fired := by
+          rw [hvf, hfired]; simp
+        have := (hwv.sched.fired_ctr _ hmemf).2
+        simp only at this; omega
+      refine ⟨?_, ⟨[⟨e.tid, e.time, e.seq, w.now, tm'.counter⟩], by rw [hvf, hfired], ?_⟩, hcv⟩
+      · intro x hx hcx
+        rw [hvtm] at hx; rw [hvnow]
+        have hrest : ∀ y ∈ tm'.heap, c0 ≤ y.seq → w.now < y.time := fun y hy hcy =>
+          hl y (hperm.mem_iff.mpr (List.mem_cons_of_mem _ hy)) hcy
+        rcases hheap with hh | ⟨_, t, c, ht, hh⟩
+        · rw [hh] at hx; exact hrest x hx hcx
+        · rw [hh] at hx
+          rcases List.mem_cons.mp hx with rfl | hx'
+          · exact ht
+          · exact hrest x hx' hcx
+      · intro f hf
+        simp at hf; subst hf
+        simp only
+        exact ⟨hseq, by omega, trivial⟩
+    split
+    · rename_i hr
+      simp only [hr, if_true] at hw' hnow
+      exact key _ rfl rfl hnow hw'
+    · rename_i hr
+      simp only [hr] at hw' hnow
+      exact key _ rfl rfl hnow hw'
+
+theorem runOnceLoop_late (fuel : Nat) {c0 : Nat} {w : World} (h : WInv w) (hp : Passive w)
+    (hl : Late c0 w) (hc : c0 ≤ w.tm.counter) : NewFires c0 w.now w (w.runOnceLoop fuel).1 := by
+  induction fuel generalizing w with
+  | zero => exact NewFires.refl _ _ _
+  | succ n ih =>
+    unfold World.runOnceLoop
+    simp only
+    obtain ⟨hl1, hn1, hc1⟩ := fireNext_late h hp hl hc
+    obtain ⟨hnow, _⟩ := fireNext_spec h hp
+    have hp1 := fireNext_good hp
+    have hk := drain_keeps w.fireNext.1 hp1.2
+    have hn2 : NewFires c0 w.now w w.fireNext.1.drain := hn1.trans (keeps_newFires hk)
+    split
+    · have hw := drain_winv (fireNext_winv h)
+      have hl2 : Late c0 w.fireNext.1.drain := by
+        intro x hx hcx; rw [hk.heap] at hx; rw [hk.now]; exact hl1 x hx hcx
+      have := ih hw (drain_good hp1) hl2 (by rw [hk.counter]; exact hc1)
+      rw [hk.now, hnow] at this
+      exact hn2.trans this
+    · exact hn2
+
+/-- **fire_order, one pass** — the firings of a `run_once()` pass in any
+    reachable state are strictly sorted by `(due, installation number)`, and all
+    happen at the time of the pass (bodies that leave the scheduler alone; a
+    body that installs a task in the past may of course make it fire after a
+    later-due one) -/
+theorem runOnce_pass_sorted {w : World} (h : WInv w) (hp : Passive w) (fuel : Nat) :
+    ∃ new, (w.runOnce fuel).1.fired = w.fired ++ new ∧
+      new.Pairwise (fun f g => keyLt f.due f.seq g.due g.seq) ∧ ∀ f ∈ new, f.now = w.now ∧ f.due ≤ w.now := by
+  have hl : Late w.tm.counter w := by
+    intro e he hce; have := h.sched.heap_seq_lt he; omega
+  obtain ⟨new, hnew, hq⟩ := runOnceLoop_late fuel h hp hl (Nat.le_refl _)
+  refine ⟨new, hnew, ?_, ?_⟩
+  · have hord := (runOnceLoop_winv fuel h).sched.order
+    rw [hnew] at hord
+    have := (List.pairwise_append.mp hord).2.1
+    refine List.Pairwise.imp_of_mem ?_ this
+    intro f g hf hg hfg
+    exact hfg (by have := hq f hf; have := hq g hg; omega)
+  · intro f hf
+    have hearly := (runOnceLoop_winv fuel h).sched.early f (by rw [hnew]; exact List.mem_append_right _ hf)
+    have := (hq f hf).2.2
+    exact ⟨this, by omega⟩
+
+end Parametric
+
+/-! ## the nested pass of the real model satisfies `PumpOK` -/
+
+/-- `pumpAt depth` — "a nested `run_once()` is `runOnceLoop` again, in which
+    callbacks may pump `depth - 1` levels further" — preserves the schedule
+    invariant and the exactly-once invariant at every depth: all the theorems
+    above apply to the model the driver runs (`instance : Pump := ⟨pumpAt 4⟩`). -/
+theorem pumpAt_ok : ∀ depth : Nat, @PumpOK ⟨pumpAt depth⟩
+  | 0 => @PumpOK.mk ⟨pumpAt 0⟩ (fun _ _ h => h) (fun _ _ _ h => h)
+  | d + 1 =>
+    have ih := pumpAt_ok d
+    @PumpOK.mk ⟨pumpAt (d + 1)⟩
+      (fun fuel _ h => @runOnceLoop_sinv ⟨pumpAt d⟩ ih fuel _ h)
+      (fun fuel _ _ h => @runOnceLoop_dperm ⟨pumpAt d⟩ ih fuel _ _ h)
+
+/-- the invariants, for the model as the driver runs it: callbacks nest
+    `run_once()` up to `depth` levels deep -/
+theorem reachable_winv_real (depth : Nat) {w : World} (h : Fresh w) (ops : List Op) :
+    WInv (@World.run ⟨pumpAt depth⟩ w ops) :=
+  @reachable_winv ⟨pumpAt depth⟩ (pumpAt_ok depth) w h ops
+
 /-! ## non-vacuity: concrete histories meeting the hypotheses, evaluated by the kernel
 
   These are tests of the model (labelled as such), not the theorems. -/
 
 section Examples
+
+/-- the instance the driver uses -/
+local instance : Pump := ⟨pumpAt 4⟩
+local instance : PumpOK := pumpAt_ok 4
 
 /-- three one-shot tasks (task 1 raises and defers a raising function with a
     child), one recurring task (id 3) -/
@@ -2643,6 +3100,23 @@ example : (reWorld.run reOps).fired.map (fun f => (f.tid, f.due, f.now)) =
     ((reWorld.run (reOps.take 3)).step (.advRun 500000 100)).2 = some 2 ∧
     (reWorld.run reOps).calls = [5, 6] ∧ (reWorld.run reOps).subs = [5, 6] ∧
     (reWorld.run reOps).tm.heap.map (·.tid) = [0] := by
+  decide +kernel
+
+/-- a callback PUMPS the loop: batch [1, 2, 3]; function 1 defers child 11;
+    function 2 calls `run_once()` itself and then defers 12; function 3 defers 13.
+    The nested pass runs 11 (deferred since the batch was detached) — and 11's
+    own child 21 — before 3; nothing is called twice, nothing is lost; the
+    order is no longer submission order (`subs`), but as multisets calls = subs
+    (`deferred_once`).  Depth 2: 11 pumps again inside the nested pass. -/
+def pumpOps : List Op :=
+  [.defer (Fn.mk 1 false [Fn.mk 11 false [Fn.mk 21 false [] []] [.pump 10]] []),
+   .defer (Fn.mk 2 true [Fn.mk 12 false [] []] [.pump 10]),
+   .defer (Fn.mk 3 false [Fn.mk 13 false [] []] []),
+   .advOnce 0 10]
+
+example : (({} : World).run pumpOps).calls = [1, 2, 11, 21, 3, 12, 13] ∧
+    (({} : World).run pumpOps).subs = [1, 2, 3, 11, 21, 12, 13] ∧
+    (({} : World).run pumpOps).queue.length = 0 ∧ (({} : World).run pumpOps).failed = [2] := by
   decide +kernel
 
 /-- `recurring_grid` with 1/3 s in ticks of 1/3 µs (interval 10⁶, jitter 3, offset 10⁵),
